@@ -1,6 +1,5199 @@
-//! C04 — monitor not built yet.
-use crate::core::Ctx;
+//! C04 — hostile input never panics: every processing entry point returns Ok or Err.
+//!
+//! Oracle: each case runs under `catch_unwind` (a panic raised in library or dependency code is a
+//! violation `C04/<family>/panic/<file:line>`); aborts / stack overflows / hangs are caught by the
+//! process level crash handler + watchdog, attributed through `core::describe_case`.
+//! All generator families own the keys / passwords, so that the hostile bytes sit *behind* valid
+//! cryptographic framing (PKESK / SKESK / SEIPD / locked secret keys) and reach the code that runs
+//! after a successful decryption.
+//!
+//! Families
+//!  F1  PKESK: attacker-chosen session-key plaintext (every length 0..40 x algorithm ids) wrapped by
+//!      the library's own public-key encryption for every recipient algorithm x PKESK v3/v6, in
+//!      front of SEIPDv1/SEIPDv2/SED; every one-octet wire field of the PKESK patched.
+//!  F2  SEIPDv2 / GnuPG-AEAD(tag 20) parameter octets (cipher, AEAD, chunk size) x session keys of
+//!      matching / non matching kind and length x bodies of length 0..40.
+//!  F3  SKESK v4/v5/v6 / S2K parameters with the right password; attacker-chosen session key
+//!      plaintext behind valid SKESK crypto.
+//!  F4  secret keys: S2K usage / cipher / AEAD / S2K / IV parameters of locked keys, protected blobs
+//!      that decrypt (valid SHA-1 / AEAD tag / checksum) to attacker-chosen secret material.
+//!  F5  attacker-chosen inner packet streams inside valid SEIPDv1/v2 and compression layers.
+//!  F6  byte mutation of the fixtures under /repo/tests and of library-made artefacts through every
+//!      public entry point, followed by the post-parse exercise.
+
+use std::io::{BufRead, BufReader, Read};
+
+use pgp::armor::{Dearmor, DearmorOptions};
+use pgp::composed::{
+    Any, ArmorOptions, CleartextSignedMessage, DecryptionOptions, Deserializable, DetachedSignature,
+    Message, MessageBuilder, PlainSessionKey, SignedPublicKey, SignedSecretKey, TheRing,
+};
+use pgp::crypto::aead::{AeadAlgorithm, ChunkSize};
+use pgp::crypto::hash::HashAlgorithm;
+use pgp::crypto::sym::SymmetricKeyAlgorithm;
+use pgp::packet::{
+    Packet, PacketHeader, PacketParser, PacketTrait, SymEncryptedProtectedData,
+    SymKeyEncryptedSessionKey,
+};
+use pgp::ser::Serialize;
+use pgp::types::{
+    CompressionAlgorithm, DecryptionKey, EncryptionKey, EskType, Imprint, KeyDetails, Password,
+    PkeskBytes, S2kParams, Seipdv1ReadMode, SigningKey, StringToKey, Tag, VerifyingKey,
+};
+use rand::{Rng, RngCore, SeedableRng};
+use rand_chacha::ChaCha8Rng;
+use serde_json::{json, Value};
+
+use crate::core::{self, hexs, Ctx};
+use crate::rfc;
+use crate::rfc::sym::RefS2k;
+use crate::zoo;
+
+const PW: &str = "c04-password";
+const MSG_PW: &str = "c04-message-password";
+
+// ------------------------------------------------------------------------------------------
+// case runner
+
+thread_local! {
+    /// the public API call the current case is in (goes into the witness of a panic)
+    static STAGE: std::cell::Cell<&'static str> = const { std::cell::Cell::new("") };
+}
+
+fn stage(s: &'static str) {
+    STAGE.with(|c| c.set(s));
+}
+
+thread_local! {
+    /// panics caught inside a case by `step` (location, message, api call)
+    static SUBPANICS: std::cell::RefCell<Vec<(core::Panicked, &'static str)>> = const { std::cell::RefCell::new(Vec::new()) };
+}
+
+/// Runs one independent step of the post-parse exercise under its own panic capture, so that a
+/// panic in one step (e.g. an accessor) does not hide what the following steps would do.
+fn step(name: &'static str, f: impl FnOnce()) {
+    stage(name);
+    if let Err(p) = core::guard(f) {
+        SUBPANICS.with(|v| {
+            let mut v = v.borrow_mut();
+            if v.len() < 16 {
+                v.push((p, name));
+            }
+        });
+    }
+}
+
+/// full hex for witnesses (the shared `hexs` cuts at 4 KiB)
+fn hexfull(b: &[u8]) -> String {
+    if b.len() <= 128 * 1024 {
+        hex::encode(b)
+    } else {
+        hexs(b)
+    }
+}
+
+/// Runs one case under panic capture. Panics raised by harness code are never reported as
+/// violations (they are counted as inconclusive so that they are noticed).
+fn run_case<T>(
+    ctx: &mut Ctx,
+    fam: &str,
+    desc: &str,
+    replay: impl FnOnce() -> Value,
+    f: impl FnOnce() -> T,
+) -> Option<T> {
+    core::describe_case(desc);
+    ctx.eval();
+    stage("");
+    let mut replay_cell = Some(replay);
+    let t0 = std::time::Instant::now();
+    let r = core::guard(f);
+    let dt = t0.elapsed().as_secs_f64();
+    if dt > 0.5 {
+        ctx.tally("slow_cases_over_0.5s", 1);
+        ctx.note(format!("slow case {dt:.1}s: {desc}"));
+    }
+    let subs: Vec<(core::Panicked, &'static str)> = SUBPANICS.with(|v| std::mem::take(&mut *v.borrow_mut()));
+    if !subs.is_empty() {
+        let mut base = replay_cell.take().map(|f| f()).unwrap_or(json!({}));
+        for (p, name) in subs {
+            if p.in_harness() {
+                ctx.inconclusive(format!("harness panic at {}: {}", p.short_loc(), p.msg));
+                continue;
+            }
+            if let Some(o) = base.as_object_mut() {
+                o.insert("class".into(), json!(desc));
+                o.insert("panicked_in_call".into(), json!(name));
+            }
+            // steps that deliberately keep using an object after it returned an error are
+            // reported under the "<family>e" (after-error) family
+            let f = if name.contains("after an Err") { format!("{fam}e") } else { fam.to_string() };
+            ctx.violation(
+                format!("C04/{}/panic/{}", f, p.short_loc()),
+                format!("panic `{}` at {} while running {} [call: {}]", p.msg, p.loc, desc, name),
+                base.clone(),
+            );
+        }
+        return match r {
+            Ok(v) => Some(v),
+            Err(p) => {
+                if p.in_harness() {
+                    ctx.inconclusive(format!("harness panic at {}: {}", p.short_loc(), p.msg));
+                } else {
+                    let st = STAGE.with(|c| c.get());
+                    ctx.violation(
+                        format!("C04/{}/panic/{}", fam, p.short_loc()),
+                        format!("panic `{}` at {} while running {} [call: {}]", p.msg, p.loc, desc, st),
+                        base,
+                    );
+                }
+                None
+            }
+        };
+    }
+    let mut replay = move || replay_cell.take().map(|f| f()).unwrap_or(json!({}));
+    match r {
+        Ok(v) => Some(v),
+        Err(p) => {
+            if p.in_harness() {
+                ctx.inconclusive(format!("harness panic at {}: {}", p.short_loc(), p.msg));
+            } else {
+                let mut r = replay();
+                let st = STAGE.with(|c| c.get());
+                if let Some(o) = r.as_object_mut() {
+                    o.insert("class".into(), json!(desc));
+                    o.insert("panicked_in_call".into(), json!(st));
+                }
+                ctx.violation(
+                    format!("C04/{}/panic/{}", fam, p.short_loc()),
+                    format!("panic `{}` at {} while running {} [call: {}]", p.msg, p.loc, desc, st),
+                    r,
+                );
+            }
+            None
+        }
+    }
+}
+
+/// What a drive through the post-parse exercise observed (returned out of the guarded closure
+/// and tallied afterwards).
+#[derive(Default, Debug, Clone)]
+struct Obs {
+    parsed: u32,
+    decrypted: u32,
+    decompressed: u32,
+    read_ok: u32,
+    read_err: u32,
+    bytes: u64,
+    verified_ok: u32,
+    verified_err: u32,
+    unlocked: u32,
+    signed: u32,
+    serialized: u32,
+    errs: u32,
+    layer_cap: u32,
+    /// short labels of the deepest stages reached
+    stage: &'static str,
+}
+
+impl Obs {
+    fn merge(&mut self, o: &Obs) {
+        self.parsed += o.parsed;
+        self.decrypted += o.decrypted;
+        self.decompressed += o.decompressed;
+        self.read_ok += o.read_ok;
+        self.read_err += o.read_err;
+        self.bytes += o.bytes;
+        self.verified_ok += o.verified_ok;
+        self.verified_err += o.verified_err;
+        self.unlocked += o.unlocked;
+        self.signed += o.signed;
+        self.serialized += o.serialized;
+        self.errs += o.errs;
+        self.layer_cap += o.layer_cap;
+        if !o.stage.is_empty() {
+            self.stage = o.stage;
+        }
+    }
+    fn tally(&self, ctx: &mut Ctx, fam: &str) {
+        for (k, v) in [
+            ("parsed", self.parsed as u64),
+            ("decrypted", self.decrypted as u64),
+            ("decompressed", self.decompressed as u64),
+            ("read_ok", self.read_ok as u64),
+            ("read_err", self.read_err as u64),
+            ("bytes_read", self.bytes),
+            ("verified_ok", self.verified_ok as u64),
+            ("verified_err", self.verified_err as u64),
+            ("unlocked", self.unlocked as u64),
+            ("signed", self.signed as u64),
+            ("serialized", self.serialized as u64),
+            ("errs", self.errs as u64),
+            ("layer_cap", self.layer_cap as u64),
+        ] {
+            if v > 0 {
+                ctx.tally(&format!("{fam}.{k}"), v);
+            }
+        }
+    }
+}
+
+// ------------------------------------------------------------------------------------------
+// raw wire helpers (hostile encodings: no assertions, nothing is validated)
+
+fn new_len(len: usize) -> Vec<u8> {
+    if len < 192 {
+        vec![len as u8]
+    } else if len < 8384 {
+        let v = len - 192;
+        vec![(v >> 8) as u8 + 192, v as u8]
+    } else {
+        let mut o = vec![255u8];
+        o.extend_from_slice(&(len as u32).to_be_bytes());
+        o
+    }
+}
+
+/// new-format packet with minimal length encoding
+fn pkt(tag: u8, body: &[u8]) -> Vec<u8> {
+    let mut o = vec![0xC0 | (tag & 0x3F)];
+    o.extend(new_len(body.len()));
+    o.extend_from_slice(body);
+    o
+}
+
+/// new-format packet with a forced 5-octet length
+fn pkt5(tag: u8, body: &[u8]) -> Vec<u8> {
+    let mut o = vec![0xC0 | (tag & 0x3F), 255];
+    o.extend_from_slice(&(body.len() as u32).to_be_bytes());
+    o.extend_from_slice(body);
+    o
+}
+
+fn literal(data: &[u8]) -> Vec<u8> {
+    let mut b = vec![b'b', 1, b'x', 0, 0, 0, 0];
+    b.extend_from_slice(data);
+    pkt(11, &b)
+}
+
+fn rnd_bytes(rng: &mut ChaCha8Rng, n: usize) -> Vec<u8> {
+    let mut v = vec![0u8; n];
+    rng.fill_bytes(&mut v);
+    v
+}
+
+fn get(d: &[u8], i: usize) -> u8 {
+    d.get(i).copied().unwrap_or(0)
+}
+
+// ------------------------------------------------------------------------------------------
+// environment: keys held by the harness
+
+struct Recipient {
+    name: String,
+    sk: SignedSecretKey,
+    pk: SignedPublicKey,
+}
+
+struct Env {
+    recipients: Vec<Recipient>,
+    signers: Vec<(String, SignedSecretKey, SignedPublicKey)>,
+}
+
+impl Env {
+    fn new() -> Env {
+        let mut recipients = vec![];
+        for spec in zoo::encryptor_specs(true) {
+            let sk = zoo::key(&spec, 0);
+            let pk = sk.to_public_key();
+            let name = format!(
+                "{}-{:?}",
+                if spec.v6 { "v6" } else { "v4" },
+                spec.enc_sub.clone().unwrap_or(spec.primary.clone())
+            );
+            recipients.push(Recipient { name, sk, pk });
+        }
+        let mut signers = vec![];
+        for spec in zoo::signer_specs(true) {
+            let sk = zoo::key(&spec, 0);
+            let pk = sk.to_public_key();
+            let name = format!("{}-{:?}", if spec.v6 { "v6" } else { "v4" }, spec.primary);
+            signers.push((name, sk, pk));
+        }
+        Env { recipients, signers }
+    }
+}
+
+// ------------------------------------------------------------------------------------------
+// post-parse exercise
+
+/// Key material / passwords the harness tries on whatever it parsed.
+struct Means<'k> {
+    keys: Vec<&'k SignedSecretKey>,
+    key_pws: Vec<Password>,
+    msg_pws: Vec<Password>,
+    session: Vec<PlainSessionKey>,
+    verifiers: Vec<&'k SignedPublicKey>,
+    max_layers: usize,
+    read_cap: u64,
+}
+
+impl<'k> Means<'k> {
+    fn none() -> Means<'k> {
+        Means {
+            keys: vec![],
+            key_pws: vec![Password::empty(), Password::from(PW)],
+            msg_pws: vec![Password::from(MSG_PW)],
+            session: vec![],
+            verifiers: vec![],
+            max_layers: 24,
+            read_cap: 4 << 20,
+        }
+    }
+}
+
+/// Drain with a cap (compression bombs in fixtures must not be expanded without bound).
+fn drain_capped<R: BufRead>(r: &mut R, variant: u64, cap: u64, obs: &mut Obs) {
+    let mut total = 0u64;
+    let mode = variant % 7;
+    let mut step = 0u64;
+    loop {
+        if total > cap {
+            obs.layer_cap += 1;
+            break;
+        }
+        step += 1;
+        let use_buf = match mode {
+            4 | 5 => true,
+            6 => step % 2 == 0,
+            _ => false,
+        };
+        if use_buf {
+            match r.fill_buf() {
+                Ok(b) => {
+                    if b.is_empty() {
+                        obs.read_ok += 1;
+                        break;
+                    }
+                    let n = if mode == 4 { 1 } else { b.len() };
+                    total += n as u64;
+                    r.consume(n);
+                }
+                Err(_) => {
+                    obs.read_err += 1;
+                    break;
+                }
+            }
+        } else {
+            let k = match mode {
+                0 => 8192,
+                1 => 1,
+                2 => 7,
+                3 => [1usize, 13, 512, 3][(step % 4) as usize],
+                _ => 3,
+            };
+            let mut buf = [0u8; 8192];
+            match r.read(&mut buf[..k]) {
+                Ok(0) => {
+                    obs.read_ok += 1;
+                    break;
+                }
+                Ok(n) => total += n as u64,
+                Err(_) => {
+                    obs.read_err += 1;
+                    break;
+                }
+            }
+        }
+    }
+    obs.bytes += total;
+}
+
+fn dec_opts(variant: u64) -> DecryptionOptions {
+    let mut o = DecryptionOptions::new().enable_legacy().enable_gnupg_aead();
+    if variant % 3 == 1 {
+        o = o.set_seipdv1_read_mode(Seipdv1ReadMode::Streaming);
+    } else if variant % 3 == 2 {
+        o = o.set_seipdv1_read_mode(Seipdv1ReadMode::CheckFirst { max_message_size: 64 });
+    }
+    o
+}
+
+/// Walks a parsed message through decrypt / decompress / read / verify with everything the
+/// harness holds. Never fails; only observes.
+fn drive_message<'a>(mut msg: Message<'a>, means: &Means<'_>, variant: u64, obs: &mut Obs) {
+    obs.parsed += 1;
+    obs.stage = "parsed";
+    let mut layers = 0usize;
+    loop {
+        layers += 1;
+        if layers > means.max_layers {
+            obs.layer_cap += 1;
+            return;
+        }
+        let _ = msg.packet_header();
+        let _ = msg.is_one_pass_signed();
+        let _ = msg.literal_data_header();
+        if msg.is_encrypted() {
+            // accessors on the ESK list
+            if let Message::Encrypted { esk, edata, .. } = &msg {
+                for e in esk {
+                    let _ = e.tag();
+                    let n = e.write_len();
+                    if let Ok(b) = e.to_bytes() {
+                        let _ = b.len() == n;
+                        obs.serialized += 1;
+                    }
+                }
+                let _ = edata.tag();
+            }
+            // a legitimately expensive KDF (Argon2 with 16 MiB .. 2 GiB, huge iteration counts) is
+            // not driven: slow-by-design work is not what this property is about
+            let mut kdf_ok = true;
+            if let Message::Encrypted { esk, .. } = &msg {
+                for e in esk {
+                    if let pgp::composed::Esk::SymKeyEncryptedSessionKey(k) = e {
+                        if let Some(s) = k.s2k() {
+                            if s2k_expensive(s, 0xC0) {
+                                kdf_ok = false;
+                            }
+                        }
+                    }
+                }
+            }
+            if !kdf_ok {
+                obs.layer_cap += 1;
+            }
+            let ring = TheRing {
+                secret_keys: means.keys.clone(),
+                key_passwords: means.key_pws.iter().collect(),
+                message_password: if kdf_ok { means.msg_pws.iter().collect() } else { vec![] },
+                session_keys: means.session.clone(),
+                decrypt_options: dec_opts(variant / 7),
+            };
+            match msg.decrypt_the_ring(ring, variant % 2 == 0) {
+                Ok((m, _res)) => {
+                    obs.decrypted += 1;
+                    obs.stage = "decrypted";
+                    msg = m;
+                }
+                Err(_) => {
+                    obs.errs += 1;
+                    return;
+                }
+            }
+        } else if msg.is_compressed() {
+            match msg.decompress() {
+                Ok(m) => {
+                    obs.decompressed += 1;
+                    obs.stage = "decompressed";
+                    msg = m;
+                }
+                Err(_) => {
+                    obs.errs += 1;
+                    return;
+                }
+            }
+        } else {
+            // signed or literal
+            if msg.is_signed() && variant % 5 != 4 {
+                match msg.decompress() {
+                    Ok(m) => {
+                        // may have unwrapped a compression layer below the signatures
+                        obs.decompressed += 1;
+                        msg = m
+                    }
+                    Err(_) => {
+                        obs.errs += 1;
+                        return;
+                    }
+                }
+            }
+            let before = obs.read_ok;
+            let err_before = obs.read_err;
+            // the convenience reader has no bound: only where no compression layer was unwrapped
+            // (output then cannot exceed the input; fixtures contain decompression bombs)
+            if variant % 11 == 10 && obs.decompressed == 0 && !msg.is_compressed() {
+                match msg.as_data_string() {
+                    Ok(s) => {
+                        obs.read_ok += 1;
+                        obs.bytes += s.len() as u64;
+                    }
+                    Err(_) => obs.read_err += 1,
+                }
+            } else {
+                drain_capped(&mut msg, variant / 3, means.read_cap, obs);
+            }
+            if obs.read_ok > before {
+                obs.stage = "read";
+            }
+            if obs.read_err > err_before {
+                // the reader reported an error: using the message object any further is the
+                // caller's business (probed separately, family F5e), not part of this walk
+                return;
+            }
+            let _ = msg.literal_data_header();
+            let _ = msg.packet_header();
+            if msg.is_signed() {
+                for v in &means.verifiers {
+                    match msg.verify(*v) {
+                        Ok(sig) => {
+                            obs.verified_ok += 1;
+                            let _ = sig.to_bytes();
+                        }
+                        Err(_) => obs.verified_err += 1,
+                    }
+                    for sub in &v.public_subkeys {
+                        match msg.verify(sub) {
+                            Ok(_) => obs.verified_ok += 1,
+                            Err(_) => obs.verified_err += 1,
+                        }
+                    }
+                }
+                let ks: Vec<&dyn VerifyingKey> =
+                    means.verifiers.iter().map(|k| *k as &dyn VerifyingKey).collect();
+                let _ = msg.verify_nested(&ks);
+                if let Message::Signed { reader, .. } = &msg {
+                    let n = reader.num_signatures();
+                    let _ = reader.num_one_pass_signatures();
+                    let _ = reader.num_regular_signatures();
+                    for i in 0..n.min(64) {
+                        let _ = reader.hash(i);
+                        if let Some(s) = reader.signature(i) {
+                            exercise_signature_packet(s, obs);
+                        }
+                    }
+                }
+                if means.verifiers.is_empty() {
+                    obs.verified_err += 1;
+                }
+            }
+            return;
+        }
+    }
+}
+
+fn exercise_signature_packet(s: &pgp::packet::Signature, obs: &mut Obs) {
+    let _ = s.version();
+    let _ = s.typ();
+    let _ = s.hash_alg();
+    let _ = s.config().map(|c| (c.pub_alg, c.hash_alg));
+    let _ = s.is_certification();
+    let _ = s.preferred_aead_algs();
+    let _ = s.key_server_prefs();
+    let _ = s.revocation_reason_string();
+    let _ = s.preferred_key_server();
+    let _ = s.revocation_key();
+    let _ = s.created();
+    let _ = s.issuer_key_id();
+    let _ = s.issuer_fingerprint();
+    let _ = s.signed_hash_value();
+    let _ = s.key_flags();
+    let _ = s.key_expiration_time();
+    let _ = s.signature_expiration_time();
+    let _ = s.preferred_symmetric_algs();
+    let _ = s.preferred_hash_algs();
+    let _ = s.preferred_compression_algs();
+    let _ = s.features();
+    let _ = s.notations();
+    let _ = s.embedded_signature();
+    let _ = s.is_primary();
+    let _ = s.is_revocable();
+    let _ = s.revocation_reason_code();
+    let _ = s.signers_userid();
+    let _ = s.policy_uri();
+    let _ = s.trust_signature();
+    let _ = s.regular_expression();
+    let _ = s.exportable_certification();
+    let n = s.write_len();
+    if let Ok(b) = s.to_bytes() {
+        let _ = n == b.len();
+        obs.serialized += 1;
+    }
+    let _ = s.write_len_with_header();
+    let mut v = Vec::new();
+    let _ = s.to_writer_with_header(&mut v);
+}
+
+fn exercise_public_key(k: &SignedPublicKey, obs: &mut Obs) {
+    obs.parsed += 1;
+    let obs = std::cell::RefCell::new(obs);
+    step("SignedPublicKey accessors / to_bytes / armor", || {
+        let _ = k.fingerprint();
+        let _ = k.legacy_key_id();
+        let _ = k.algorithm();
+        let _ = k.version();
+        let _ = k.created_at();
+        let _ = k.legacy_v3_expiration_days();
+        let _ = k.public_params();
+        let _ = k.imprint::<sha2::Sha256>();
+        let n = k.write_len();
+        if let Ok(b) = k.to_bytes() {
+            let _ = b.len() == n;
+            obs.borrow_mut().serialized += 1;
+        }
+        let _ = k.to_armored_string(ArmorOptions::default());
+    });
+    step("SignedPublicKey::verify_bindings", || match k.verify_bindings() {
+        Ok(()) => obs.borrow_mut().verified_ok += 1,
+        Err(_) => obs.borrow_mut().verified_err += 1,
+    });
+    step("user / signature accessors", || {
+        for u in &k.details.users {
+            let _ = u.id.id();
+            let _ = u.is_primary();
+            for s in &u.signatures {
+                exercise_signature_packet(s, &mut obs.borrow_mut());
+            }
+        }
+        for s in k.details.direct_signatures.iter().chain(k.details.revocation_signatures.iter()) {
+            exercise_signature_packet(s, &mut obs.borrow_mut());
+        }
+        for a in &k.details.user_attributes {
+            let _ = a.attr.to_bytes();
+            for s in &a.signatures {
+                exercise_signature_packet(s, &mut obs.borrow_mut());
+            }
+        }
+    });
+    for sub in &k.public_subkeys {
+        step("SignedPublicSubKey accessors / verify_bindings", || {
+            let _ = sub.fingerprint();
+            let _ = sub.legacy_key_id();
+            let _ = sub.algorithm();
+            let _ = sub.imprint::<sha2::Sha256>();
+            let _ = sub.to_bytes();
+            let _ = sub.write_len();
+            match sub.verify_bindings(&k.primary_key) {
+                Ok(()) => obs.borrow_mut().verified_ok += 1,
+                Err(_) => obs.borrow_mut().verified_err += 1,
+            }
+        });
+    }
+    // a signature check with the hostile key as verifier (verifying is in scope)
+    step("VerifyingKey::verify with the parsed key", || {
+        let digest = [0x42u8; 32];
+        for s in k.details.users.iter().flat_map(|u| u.signatures.iter()).take(2) {
+            if let Some(sb) = s.signature() {
+                let _ = k.primary_key.verify(HashAlgorithm::Sha256, &digest, sb);
+                for sub in &k.public_subkeys {
+                    let _ = sub.verify(HashAlgorithm::Sha256, &digest, sb);
+                }
+            }
+        }
+    });
+}
+
+fn exercise_secret_key(k: &SignedSecretKey, pws: &[Password], variant: u64, obs: &mut Obs) {
+    exercise_secret_key_opts(k, pws, variant, false, 0xC0, obs)
+}
+
+/// `light`: skip the parts that do not depend on the secret packet (bindings, armor, public
+/// half); `max_count`: locked material whose S2K is legitimately expensive is not unlocked.
+fn exercise_secret_key_opts(k: &SignedSecretKey, pws: &[Password], variant: u64, light: bool, max_count: u8, obs: &mut Obs) {
+    obs.parsed += 1;
+    let obs = std::cell::RefCell::new(obs);
+    step("SignedSecretKey accessors / to_bytes / write_len", || {
+        let _ = k.fingerprint();
+        let _ = k.legacy_key_id();
+        let _ = k.algorithm();
+        let _ = k.version();
+        let _ = k.created_at();
+        let _ = k.public_params();
+        let _ = k.primary_key.imprint::<sha2::Sha256>();
+        let n = k.write_len();
+        if let Ok(b) = k.to_bytes() {
+            let _ = b.len() == n;
+            obs.borrow_mut().serialized += 1;
+        }
+        if variant % 4 == 0 && !light {
+            let _ = k.to_armored_string(ArmorOptions::default());
+        }
+    });
+    if !light {
+        step("SignedSecretKey::verify_bindings", || match k.verify_bindings() {
+            Ok(()) => obs.borrow_mut().verified_ok += 1,
+            Err(_) => obs.borrow_mut().verified_err += 1,
+        });
+    }
+    let mut pubk_opt: Option<SignedPublicKey> = None;
+    step("SignedSecretKey::to_public_key", || {
+        pubk_opt = Some(k.to_public_key());
+    });
+    let Some(pubk) = pubk_opt else { return };
+    if variant % 4 == 1 && !light {
+        exercise_public_key(&pubk, &mut obs.borrow_mut());
+    }
+    let digest32 = [0x5au8; 32];
+    let digest64 = [0x5au8; 64];
+
+    // primary
+    let sp = k.primary_key.secret_params();
+    step("SecretParams accessors (primary)", || {
+        let _ = sp.is_encrypted();
+        let _ = sp.string_to_key_id();
+        let _ = sp.has_sha1_checksum();
+        let _ = k.primary_key.has_sha1_checksum();
+        let _ = k.primary_key.write_len();
+        let _ = k.primary_key.to_bytes();
+        let _ = k.primary_key.packet_header();
+    });
+    step("SecretParams::checksum (primary)", || {
+        let _ = sp.checksum();
+    });
+    let primary_cheap = secret_key_is_cheap(sp, max_count);
+    if !primary_cheap {
+        obs.borrow_mut().layer_cap += 1;
+    }
+    let mut unlocked_with: Option<usize> = None;
+    step("SecretKey::unlock (primary)", || {
+        for (i, pw) in pws.iter().enumerate() {
+            if !primary_cheap {
+                break;
+            }
+            let r = k.primary_key.unlock(pw, |_pubp, plain| {
+                let _ = plain.checksum_simple();
+                let _ = plain.checksum_sha1();
+                let _ = plain.string_to_key_id();
+                Ok(())
+            });
+            if let Ok(Ok(())) = r {
+                obs.borrow_mut().unlocked += 1;
+                obs.borrow_mut().stage = "unlocked";
+                unlocked_with = Some(i);
+                break;
+            }
+        }
+    });
+    if let Some(pw) = unlocked_with.and_then(|i| pws.get(i)) {
+        step("SecretKey::sign (primary) + verify", || {
+            for (h, d) in [(HashAlgorithm::Sha256, &digest32[..]), (HashAlgorithm::Sha512, &digest64[..])] {
+                match k.primary_key.sign(pw, h, d) {
+                    Ok(sb) => {
+                        obs.borrow_mut().signed += 1;
+                        let _ = pubk.primary_key.verify(h, d, &sb);
+                    }
+                    Err(_) => obs.borrow_mut().errs += 1,
+                }
+            }
+        });
+        step("SecretKey::decrypt (primary)", || {
+            // decryption with the primary (RSA primaries can decrypt)
+            if let Ok(v) = pubk.primary_key.encrypt(ChaCha8Rng::seed_from_u64(variant), &session_v3(9, &[7u8; 32]), EskType::V3_4) {
+                let _ = k.primary_key.decrypt(pw, &v, EskType::V3_4);
+            }
+        });
+        step("SecretKey::remove_password (primary) + to_bytes", || {
+            let mut c = k.primary_key.clone();
+            let _ = c.remove_password(pw);
+            let _ = c.to_bytes();
+        });
+    }
+    for (i, sub) in k.secret_subkeys.iter().enumerate() {
+        let sp = sub.key.secret_params();
+        step("SecretSubkey accessors / to_bytes", || {
+            let _ = sub.fingerprint();
+            let _ = sub.legacy_key_id();
+            let _ = sp.is_encrypted();
+            let _ = sp.string_to_key_id();
+            let _ = sub.key.has_sha1_checksum();
+            let _ = sub.to_bytes();
+            let _ = sub.write_len();
+        });
+        step("SecretParams::checksum (subkey)", || {
+            let _ = sp.checksum();
+        });
+        if !light {
+            step("SignedSecretSubKey::verify_bindings", || match sub.verify_bindings(&k.primary_key.public_key()) {
+                Ok(()) => obs.borrow_mut().verified_ok += 1,
+                Err(_) => obs.borrow_mut().verified_err += 1,
+            });
+        }
+        let sub_cheap = secret_key_is_cheap(sp, max_count);
+        if !sub_cheap {
+            obs.borrow_mut().layer_cap += 1;
+        }
+        let mut unlocked_with: Option<usize> = None;
+        step("SecretSubkey::unlock", || {
+            for (pi, pw) in pws.iter().enumerate() {
+                if !sub_cheap {
+                    break;
+                }
+                let r = sub.key.unlock(pw, |_pubp, plain| {
+                    let _ = plain.checksum_simple();
+                    let _ = plain.checksum_sha1();
+                    Ok(())
+                });
+                if let Ok(Ok(())) = r {
+                    obs.borrow_mut().unlocked += 1;
+                    unlocked_with = Some(pi);
+                    break;
+                }
+            }
+        });
+        let Some(pw) = unlocked_with.and_then(|i| pws.get(i)) else { continue };
+        step("SecretSubkey::sign + verify", || match SigningKey::sign(&sub.key, pw, HashAlgorithm::Sha256, &digest32) {
+            Ok(sb) => {
+                obs.borrow_mut().signed += 1;
+                if let Some(ps) = pubk.public_subkeys.get(i) {
+                    let _ = ps.verify(HashAlgorithm::Sha256, &digest32, &sb);
+                }
+            }
+            Err(_) => obs.borrow_mut().errs += 1,
+        });
+        step("SecretSubkey::decrypt of a PKESK made for its public half", || {
+            if let Some(ps) = pubk.public_subkeys.get(i) {
+                for typ in [EskType::V3_4, EskType::V6] {
+                    let plain = if matches!(typ, EskType::V3_4) { session_v3(9, &[7u8; 32]) } else { rfc::sym::session_key_v6(&[7u8; 32]) };
+                    if let Ok(v) = ps.encrypt(ChaCha8Rng::seed_from_u64(variant), &plain, typ) {
+                        match sub.key.decrypt(pw, &v, typ) {
+                            Ok(Ok(_)) => obs.borrow_mut().decrypted += 1,
+                            _ => obs.borrow_mut().errs += 1,
+                        }
+                    }
+                }
+            }
+        });
+        step("SecretSubkey::remove_password + to_bytes", || {
+            let mut c = sub.key.clone();
+            let _ = c.remove_password(pw);
+            let _ = c.to_bytes();
+        });
+    }
+}
+
+/// session key framing of a v3 PKESK for algorithms with a checksum; for X25519/X448 the
+/// library takes the first octet as algorithm and wraps the rest, the two trailing octets are
+/// then simply part of an (over long) key.
+fn session_v3(alg: u8, key: &[u8]) -> Vec<u8> {
+    rfc::sym::session_key_v3(alg, key)
+}
+
+fn exercise_detached(sig: &DetachedSignature, verifiers: &[&SignedPublicKey], content: &[u8], obs: &mut Obs) {
+    obs.parsed += 1;
+    exercise_signature_packet(&sig.signature, obs);
+    let _ = sig.to_bytes();
+    let _ = sig.write_len();
+    let _ = sig.to_armored_string(ArmorOptions::default());
+    for v in verifiers {
+        match sig.verify(*v, content) {
+            Ok(()) => obs.verified_ok += 1,
+            Err(_) => obs.verified_err += 1,
+        }
+        let _ = sig.signature.verify(*v, content);
+        for sub in &v.public_subkeys {
+            let _ = sig.verify(sub, content);
+        }
+        // certificate-forming verification entry points with the parsed signature
+        let _ = sig.signature.verify_key(&v.primary_key);
+        if let Some(u) = v.details.users.first() {
+            let _ = sig
+                .signature
+                .verify_certification(&v.primary_key, Tag::UserId, &u.id);
+        }
+        if let Some(sub) = v.public_subkeys.first() {
+            let _ = sig.signature.verify_subkey_binding(&v.primary_key, &sub.key);
+            let _ = sig.signature.verify_primary_key_binding(&sub.key, &v.primary_key);
+        }
+    }
+}
+
+fn exercise_cleartext(m: &CleartextSignedMessage, verifiers: &[&SignedPublicKey], obs: &mut Obs) {
+    obs.parsed += 1;
+    let _ = m.text().len();
+    let st = m.signed_text();
+    obs.bytes += st.len() as u64;
+    for s in m.signatures() {
+        exercise_signature_packet(s, obs);
+    }
+    for v in verifiers {
+        match m.verify(*v) {
+            Ok(_) => obs.verified_ok += 1,
+            Err(_) => obs.verified_err += 1,
+        }
+    }
+    let _ = m.verify_many(|_, s, data| {
+        if let Some(v) = verifiers.first() {
+            s.verify(*v, data)
+        } else {
+            Ok(())
+        }
+    });
+    if let Ok(s) = m.to_armored_string(ArmorOptions::default()) {
+        obs.serialized += 1;
+        let _ = s.len();
+    }
+}
+
+fn exercise_packets(data: &[u8], cap: usize, obs: &mut Obs) {
+    let pp = PacketParser::new(data);
+    for (i, p) in pp.enumerate() {
+        if i >= cap {
+            obs.layer_cap += 1;
+            break;
+        }
+        match p {
+            Ok(p) => {
+                obs.parsed += 1;
+                let _ = p.packet_header();
+                let _ = p.tag();
+                let n = p.write_len();
+                let mut out = Vec::new();
+                if p.to_writer(&mut out).is_ok() {
+                    let _ = out.len() == n;
+                    obs.serialized += 1;
+                }
+                let mut out2 = Vec::new();
+                let _ = p.to_writer_with_header(&mut out2);
+                let _ = p.write_len_with_header();
+                match &p {
+                    Packet::Signature(s) => exercise_signature_packet(s, obs),
+                    Packet::CompressedData(c) => {
+                        if let Ok(mut d) = c.decompress() {
+                            let mut buf = [0u8; 4096];
+                            let mut total = 0usize;
+                            while let Ok(n) = d.read(&mut buf) {
+                                if n == 0 || total > (1 << 20) {
+                                    break;
+                                }
+                                total += n;
+                            }
+                            obs.bytes += total as u64;
+                        }
+                    }
+                    Packet::LiteralData(l) => {
+                        let _ = l.data().len();
+                        let _ = l.file_name();
+                        let _ = l.is_binary();
+                        let _ = l.as_str();
+                    }
+                    Packet::UserAttribute(u) => {
+                        let _ = u.to_bytes();
+                    }
+                    Packet::OnePassSignature(o) => {
+                        let _ = o.to_bytes();
+                    }
+                    _ => {}
+                }
+            }
+            Err(_) => obs.errs += 1,
+        }
+    }
+}
+
+// ------------------------------------------------------------------------------------------
+// F1: PKESK with attacker-chosen plaintext
+
+fn pkesk_body(ver: u8, sub: &pgp::composed::SignedPublicSubKey, values: &PkeskBytes) -> Option<Vec<u8>> {
+    let mut b = vec![ver];
+    if ver == 3 {
+        b.extend_from_slice(sub.legacy_key_id().as_ref());
+    } else {
+        let fp = sub.fingerprint();
+        b.push(1 + fp.len() as u8);
+        b.push(u8::from(sub.version()));
+        b.extend_from_slice(fp.as_bytes());
+    }
+    b.push(u8::from(sub.algorithm()));
+    b.extend(values.to_bytes().ok()?);
+    Some(b)
+}
+
+/// Container that follows the ESK. kind: 0 SEIPDv1, 1 SEIPDv2, 2 SED, 3 GnuPG AEAD (tag 20).
+/// If the session key is usable for the container a *valid* container around a literal packet
+/// is built with the reference, otherwise garbage of `glen` octets behind the right header.
+fn container(kind: u8, alg: u8, key: &[u8], inner: &[u8], glen: usize, rng: &mut ChaCha8Rng) -> Vec<u8> {
+    match kind {
+        0 => {
+            let bs = rfc::sym::block_size(alg);
+            let body = match bs.and_then(|bs| rfc::sym::seipd_v1_encrypt(alg, key, &rnd_bytes(rng, bs), inner)) {
+                Some(ct) => {
+                    let mut b = vec![1u8];
+                    b.extend(ct);
+                    b
+                }
+                None => {
+                    let mut b = vec![1u8];
+                    b.extend(rnd_bytes(rng, glen));
+                    b
+                }
+            };
+            pkt(18, &body)
+        }
+        1 => {
+            // cipher chosen from the key length
+            let sym = match key.len() {
+                16 => 7,
+                24 => 8,
+                32 => 9,
+                _ => 9,
+            };
+            let aead = 1 + (glen % 3) as u8;
+            let mut salt = [0u8; 32];
+            rng.fill_bytes(&mut salt);
+            let body = match rfc::sym::seipd_v2_encrypt(sym, aead, 0, &salt, key, inner) {
+                Some(b) => b,
+                None => {
+                    let mut b = vec![2u8, sym, aead, 0];
+                    b.extend_from_slice(&salt);
+                    b.extend(rnd_bytes(rng, glen));
+                    b
+                }
+            };
+            pkt(18, &body)
+        }
+        2 => {
+            let bs = rfc::sym::block_size(alg);
+            let body = match bs.and_then(|bs| rfc::sym::sed_encrypt(alg, key, &rnd_bytes(rng, bs), inner)) {
+                Some(ct) => ct,
+                None => rnd_bytes(rng, glen),
+            };
+            pkt(9, &body)
+        }
+        _ => {
+            let sym = if rfc::sym::key_size(alg) == Some(key.len()) { alg } else { 9 };
+            let iv = rnd_bytes(rng, 15);
+            let body = gnupg_aead_encrypt(sym, 0, &iv, key, inner).unwrap_or_else(|| {
+                let mut b = vec![1u8, sym, 2, 0];
+                b.extend_from_slice(&iv);
+                b.extend(rnd_bytes(rng, glen));
+                b
+            });
+            pkt(20, &body)
+        }
+    }
+}
+
+/// Reference encoder of GnuPG's OCB encrypted data packet (draft-koch-librepgp): the key is the
+/// session key itself, nonce = iv xor be64(chunk index) on the low 8 octets, AD = tag, version,
+/// cipher, mode, chunk octet, be64(index); final tag additionally over be64(total).
+fn gnupg_aead_encrypt(sym: u8, chunk_octet: u8, iv: &[u8], key: &[u8], data: &[u8]) -> Option<Vec<u8>> {
+    if iv.len() != 15 {
+        return None;
+    }
+    let cs = 1usize << (chunk_octet as usize + 6);
+    let mut out = vec![1u8, sym, 2, chunk_octet];
+    out.extend_from_slice(iv);
+    let nonce_for = |idx: u64| {
+        let mut n = iv.to_vec();
+        for (i, b) in idx.to_be_bytes().iter().enumerate() {
+            n[15 - 8 + i] ^= b;
+        }
+        n
+    };
+    let ad_for = |idx: u64| {
+        let mut ad = vec![0xC0 | 20, 1, sym, 2, chunk_octet];
+        ad.extend(idx.to_be_bytes());
+        ad
+    };
+    let mut idx = 0u64;
+    for c in data.chunks(cs) {
+        out.extend(rfc::sym::aead_seal(sym, 2, key, &nonce_for(idx), &ad_for(idx), c)?);
+        idx += 1;
+    }
+    let mut ad = ad_for(idx);
+    ad.extend((data.len() as u64).to_be_bytes());
+    out.extend(rfc::sym::aead_seal(sym, 2, key, &nonce_for(idx), &ad, &[])?);
+    Some(out)
+}
+
+const ALG_IDS_QUICK: [u8; 9] = [0, 1, 2, 7, 9, 10, 13, 110, 255];
+
+fn f1(ctx: &mut Ctx, env: &Env) {
+    let alg_ids: Vec<u8> = if ctx.quick() { ALG_IDS_QUICK.to_vec() } else { (0..=255u8).collect() };
+    let inner = literal(b"hello c04");
+    for (ri, r) in env.recipients.iter().enumerate() {
+        let Some(sub) = r.pk.public_subkeys.first() else { continue };
+        let is_x = matches!(
+            sub.algorithm(),
+            pgp::crypto::public_key::PublicKeyAlgorithm::X25519 | pgp::crypto::public_key::PublicKeyAlgorithm::X448
+        );
+        for ver in [3u8, 6u8] {
+            let typ = if ver == 3 { EskType::V3_4 } else { EskType::V6 };
+            // ---- F1a attacker-chosen plaintext
+            for len in 0..=40usize {
+                if !ctx.mine() {
+                    continue;
+                }
+                let mut rng = ctx.rng("F1a", (ri as u64) << 16 | (ver as u64) << 8 | len as u64);
+                let mut obs = Obs::default();
+                for &alg in &alg_ids {
+                    for cks_ok in [true, false] {
+                        // plaintext of exactly `len` octets
+                        let mut plain = rnd_bytes(&mut rng, len);
+                        let (sk_alg, sk): (u8, Vec<u8>);
+                        if ver == 3 {
+                            if len >= 1 {
+                                plain[0] = alg;
+                            }
+                            if is_x {
+                                sk = plain.get(1..).unwrap_or(&[]).to_vec();
+                            } else {
+                                if len >= 3 {
+                                    let c = rfc::sum16(&plain[1..len - 2]).wrapping_add(if cks_ok { 0 } else { 1 });
+                                    plain[len - 2] = (c >> 8) as u8;
+                                    plain[len - 1] = c as u8;
+                                }
+                                sk = if len >= 3 { plain[1..len - 2].to_vec() } else { vec![] };
+                            }
+                            sk_alg = alg;
+                        } else {
+                            // v6: no algorithm octet; vary the first octet all the same
+                            if len >= 1 {
+                                plain[0] = alg;
+                            }
+                            if is_x {
+                                sk = plain.clone();
+                            } else {
+                                if len >= 2 {
+                                    let c = rfc::sum16(&plain[..len - 2]).wrapping_add(if cks_ok { 0 } else { 1 });
+                                    plain[len - 2] = (c >> 8) as u8;
+                                    plain[len - 1] = c as u8;
+                                }
+                                sk = if len >= 2 { plain[..len - 2].to_vec() } else { vec![] };
+                            }
+                            sk_alg = 9;
+                        }
+                        if is_x && !cks_ok {
+                            continue; // no checksum in these formats
+                        }
+                        let kinds: &[u8] = if ver == 3 { &[0, 2, 3] } else { &[1] };
+                        let kind = kinds[(alg as usize + len) % kinds.len()];
+                        let desc = format!(
+                            "F1a:pkesk-v{ver}/{}/len={len}/alg={alg}/cks={}/container={kind}",
+                            r.name,
+                            if cks_ok { "ok" } else { "bad" }
+                        );
+                        let values = match sub.encrypt(&mut rng, &plain, typ) {
+                            Ok(v) => v,
+                            Err(_) => {
+                                // the library's own encryptor refuses this plaintext (e.g. empty for
+                                // X25519 v3, too long for the ECDH padding): nothing to present
+                                ctx.tally(&format!("F1a.encrypt_refused.{}.v{ver}", r.name), 1);
+                                continue;
+                            }
+                        };
+                        let Some(body) = pkesk_body(ver, sub, &values) else { continue };
+                        let mut bytes = pkt(1, &body);
+                        bytes.extend(container(kind, sk_alg, &sk, &inner, len, &mut rng));
+                        ctx.cover(&("F1a", &r.name, ver, len, alg, cks_ok));
+                        let means = Means { keys: vec![&r.sk], ..Means::none() };
+                        let variant = (alg as u64) * 41 + len as u64 + cks_ok as u64;
+                        let o = run_case(
+                            ctx,
+                            "F1",
+                            &desc,
+                            || json!({"api": "Message::from_bytes -> decrypt_the_ring(secret key)", "input": hexs(&bytes), "plaintext": hexs(&plain), "recipient": r.name}),
+                            || {
+                                let mut o = Obs::default();
+                                match Message::from_bytes(&bytes[..]) {
+                                    Ok(m) => drive_message(m, &means, variant, &mut o),
+                                    Err(_) => o.errs += 1,
+                                }
+                                // the plain `decrypt` entry point as well
+                                if let Ok(m) = Message::from_bytes(&bytes[..]) {
+                                    if let Ok(mut m) = m.decrypt(&Password::empty(), &r.sk) {
+                                        o.decrypted += 1;
+                                        let _ = m.as_data_vec();
+                                    }
+                                }
+                                o
+                            },
+                        );
+                        if let Some(o) = o {
+                            obs.merge(&o);
+                        }
+                    }
+                }
+                obs.tally(ctx, "F1a");
+                if len == 35 && ver == 3 {
+                    ctx.sample(json!({"family": "F1a", "recipient": r.name, "pkesk": ver, "len": len, "alg_ids": alg_ids.len(), "obs": format!("{obs:?}")}));
+                }
+            }
+
+            // ---- F1b every one-octet wire field of the PKESK
+            let key32 = [0x33u8; 32];
+            let (plain, sk_alg) = if ver == 3 {
+                if is_x {
+                    let mut p = vec![9u8];
+                    p.extend_from_slice(&key32);
+                    (p, 9u8)
+                } else {
+                    (rfc::sym::session_key_v3(9, &key32), 9u8)
+                }
+            } else if is_x {
+                (key32.to_vec(), 9u8)
+            } else {
+                (rfc::sym::session_key_v6(&key32), 9u8)
+            };
+            let mut rng0 = Ctx::fixed_rng("F1b", (ri as u64) << 8 | ver as u64);
+            let Ok(values) = sub.encrypt(&mut rng0, &plain, typ) else {
+                ctx.inconclusive(format!("F1b: cannot build base PKESK for {}", r.name));
+                continue;
+            };
+            let Some(body) = pkesk_body(ver, sub, &values) else { continue };
+            let cont = container(if ver == 3 { 0 } else { 1 }, sk_alg, &key32, &inner, 30, &mut rng0);
+            // structural offsets in the body: header fields + algorithm specific length fields
+            let hdr = if ver == 3 { 10 } else { 3 + sub.fingerprint().len() + 1 };
+            let mut structural: Vec<usize> = (0..hdr.min(body.len())).collect();
+            // first 3 octets after the header (MPI bit count / first ephemeral octets) and every
+            // one-octet length field of the algorithm specific part
+            for o in hdr..(hdr + 3).min(body.len()) {
+                structural.push(o);
+            }
+            use pgp::crypto::public_key::PublicKeyAlgorithm as PKA;
+            match sub.algorithm() {
+                PKA::ECDH => {
+                    // MPI(point) then 1-octet wrapped key length
+                    if let Some((_, p)) = rfc::read_mpi(&body, hdr) {
+                        structural.push(p);
+                        structural.push(p + 1);
+                    }
+                }
+                PKA::X25519 => {
+                    structural.push(hdr + 32);
+                    structural.push(hdr + 33);
+                }
+                PKA::X448 => {
+                    structural.push(hdr + 56);
+                    structural.push(hdr + 57);
+                }
+                _ => {}
+            }
+            structural.retain(|o| *o < body.len());
+            structural.sort_unstable();
+            structural.dedup();
+            let base_pkt = pkt(1, &body);
+            let body_off = base_pkt.len() - body.len();
+            // sanity: the unpatched message decrypts
+            {
+                let mut bytes = base_pkt.clone();
+                bytes.extend_from_slice(&cont);
+                let ok = core::guard(|| {
+                    Message::from_bytes(&bytes[..])
+                        .ok()
+                        .and_then(|m| m.decrypt(&Password::empty(), &r.sk).ok())
+                        .and_then(|mut m| m.as_data_vec().ok())
+                });
+                match ok {
+                    Ok(Some(d)) if d == b"hello c04" => ctx.tally("F1b.base_decrypts", 1),
+                    _ => ctx.inconclusive(format!("F1b: base message for {} v{ver} does not decrypt", r.name)),
+                }
+            }
+            for off in 0..body.len() {
+                let is_struct = structural.binary_search(&off).is_ok();
+                // non structural octets (ciphertext / ephemeral key material): a few values, and in
+                // the quick tier only every 4th offset for the long RSA integers
+                if !is_struct && ctx.quick() && body.len() > 150 && off % 4 != 0 {
+                    continue;
+                }
+                if !ctx.mine() {
+                    continue;
+                }
+                let vals: Vec<u8> = if is_struct {
+                    (0..=255u8).collect()
+                } else {
+                    vec![0, 0xFF, body[off] ^ 1, body[off] ^ 0x80]
+                };
+                let mut obs = Obs::default();
+                for v in vals {
+                    if v == body[off] {
+                        continue;
+                    }
+                    let mut bytes = base_pkt.clone();
+                    bytes[body_off + off] = v;
+                    bytes.extend_from_slice(&cont);
+                    let desc = format!(
+                        "F1b:pkesk-v{ver}/{}/patch-off={off}/{}",
+                        r.name,
+                        if is_struct { "structural" } else { "material" }
+                    );
+                    ctx.cover(&("F1b", &r.name, ver, off, v));
+                    let means = Means { keys: vec![&r.sk], ..Means::none() };
+                    let o = run_case(
+                        ctx,
+                        "F1",
+                        &desc,
+                        || json!({"api": "Message::from_bytes -> decrypt_the_ring(secret key)", "input": hexs(&bytes), "patched_body_offset": off, "value": v}),
+                        || {
+                            let mut o = Obs::default();
+                            match Message::from_bytes(&bytes[..]) {
+                                Ok(m) => drive_message(m, &means, v as u64, &mut o),
+                                Err(_) => o.errs += 1,
+                            }
+                            o
+                        },
+                    );
+                    if let Some(o) = o {
+                        obs.merge(&o);
+                    }
+                }
+                obs.tally(ctx, "F1b");
+            }
+            // declared packet length vs actual: truncation of the PKESK at every length, once
+            // re-framed (shorter but consistent) and once raw (length field lies)
+            for cut in 0..body.len() {
+                if ctx.quick() && body.len() > 150 && cut % 4 != 0 && cut > 16 {
+                    continue;
+                }
+                if !ctx.mine() {
+                    continue;
+                }
+                let mut obs = Obs::default();
+                for raw in [false, true] {
+                    let mut bytes = if raw {
+                        let mut b = base_pkt[..body_off + cut].to_vec();
+                        b.extend_from_slice(&cont);
+                        b
+                    } else {
+                        let mut b = pkt(1, &body[..cut]);
+                        b.extend_from_slice(&cont);
+                        b
+                    };
+                    if raw && cut % 2 == 0 {
+                        bytes.truncate(body_off + cut);
+                    }
+                    let desc = format!("F1b:pkesk-v{ver}/{}/truncate={cut}/raw={raw}", r.name);
+                    ctx.cover(&("F1b-trunc", &r.name, ver, cut, raw));
+                    let means = Means { keys: vec![&r.sk], ..Means::none() };
+                    let o = run_case(
+                        ctx,
+                        "F1",
+                        &desc,
+                        || json!({"api": "Message::from_bytes -> decrypt_the_ring(secret key)", "input": hexs(&bytes)}),
+                        || {
+                            let mut o = Obs::default();
+                            match Message::from_bytes(&bytes[..]) {
+                                Ok(m) => drive_message(m, &means, cut as u64, &mut o),
+                                Err(_) => o.errs += 1,
+                            }
+                            o
+                        },
+                    );
+                    if let Some(o) = o {
+                        obs.merge(&o);
+                    }
+                }
+                obs.tally(ctx, "F1b");
+            }
+            ctx.seen("F1.recipient_x_version", format!("{}-pkesk{ver}", r.name));
+        }
+    }
+}
+
+// ------------------------------------------------------------------------------------------
+// F2: SEIPDv2 / GnuPG AEAD parameters
+
+fn session_key_variants(rng: &mut ChaCha8Rng, sym: u8, base_key: &[u8]) -> Vec<(String, PlainSessionKey)> {
+    let mut v: Vec<(String, PlainSessionKey)> = vec![];
+    v.push(("V6-base".into(), PlainSessionKey::V6 { key: base_key.to_vec().into() }));
+    for l in [0usize, 1, 15, 16, 17, 24, 31, 32, 33, 64] {
+        v.push((format!("V6-len{l}"), PlainSessionKey::V6 { key: rnd_bytes(rng, l).into() }));
+    }
+    v.push(("V5-base".into(), PlainSessionKey::V5 { key: base_key.to_vec().into() }));
+    for l in [0usize, 16, 32] {
+        v.push((format!("V5-len{l}"), PlainSessionKey::V5 { key: rnd_bytes(rng, l).into() }));
+    }
+    v.push((
+        "V3_4-base".into(),
+        PlainSessionKey::V3_4 { sym_alg: SymmetricKeyAlgorithm::from(sym), key: base_key.to_vec().into() },
+    ));
+    for (a, l) in [(7u8, 16usize), (9, 32), (9, 16), (0, 0), (0, 16), (2, 24), (110, 16), (255, 32), (7, 0)] {
+        v.push((
+            format!("V3_4-alg{a}-len{l}"),
+            PlainSessionKey::V3_4 { sym_alg: SymmetricKeyAlgorithm::from(a), key: rnd_bytes(rng, l).into() },
+        ));
+    }
+    v
+}
+
+fn drive_with_session_key(bytes: &[u8], sk: &PlainSessionKey, variant: u64) -> Obs {
+    let mut o = Obs::default();
+    let means = Means { session: vec![sk.clone()], ..Means::none() };
+    match Message::from_bytes(bytes) {
+        Ok(m) => drive_message(m, &means, variant, &mut o),
+        Err(_) => o.errs += 1,
+    }
+    if variant % 4 == 0 {
+        if let Ok(m) = Message::from_bytes(bytes) {
+            if let Ok(mut m) = m.decrypt_with_session_key(sk.clone()) {
+                o.decrypted += 1;
+                let _ = m.as_data_vec();
+            }
+        }
+    }
+    o
+}
+
+fn f2(ctx: &mut Ctx) {
+    let inner = literal(b"hello c04 seipd2");
+    let base_cfgs: [(u8, u8, u8); 5] = [(7, 2, 0), (9, 1, 0), (8, 3, 1), (9, 2, 6), (7, 3, 16)];
+    // ---- single-field sweeps over the three parameter octets, SEIPDv2 (tag 18) and tag 20
+    for (ci, (sym, aead, chunk)) in base_cfgs.iter().copied().enumerate() {
+        for tag in [18u8, 20u8] {
+            let mut rng = ctx.rng("F2", (ci as u64) << 8 | tag as u64);
+            let key = rnd_bytes(&mut rng, rfc::sym::key_size(sym).unwrap_or(16));
+            let mut salt = [0u8; 32];
+            rng.fill_bytes(&mut salt);
+            let base_body = if tag == 18 {
+                rfc::sym::seipd_v2_encrypt(sym, aead, chunk, &salt, &key, &inner)
+            } else {
+                gnupg_aead_encrypt(sym, chunk, &salt[..15], &key, &inner)
+            };
+            let Some(base_body) = base_body else {
+                ctx.inconclusive("F2: reference could not build base container");
+                continue;
+            };
+            // sanity: base decrypts
+            {
+                let bytes = pkt(tag, &base_body);
+                let sk = if tag == 18 {
+                    PlainSessionKey::V6 { key: key.clone().into() }
+                } else {
+                    PlainSessionKey::V5 { key: key.clone().into() }
+                };
+                let ok = core::guard(|| {
+                    let m = Message::from_bytes(&bytes[..]).ok()?;
+                    let ring = TheRing { session_keys: vec![sk], decrypt_options: dec_opts(0), ..Default::default() };
+                    let (mut m, _) = m.decrypt_the_ring(ring, true).ok()?;
+                    m.as_data_vec().ok()
+                });
+                match ok {
+                    Ok(Some(d)) if d == b"hello c04 seipd2" => ctx.tally("F2.base_decrypts", 1),
+                    _ => ctx.inconclusive(format!("F2: base container tag {tag} cfg {sym}/{aead}/{chunk} does not decrypt")),
+                }
+            }
+            let hdr_len = if tag == 18 { 36 } else { 19 };
+            let sks = session_key_variants(&mut rng, sym, &key);
+            for field in 0..4usize {
+                for val in 0..=255u16 {
+                    let val = val as u8;
+                    if !ctx.mine() {
+                        continue;
+                    }
+                    let mut obs = Obs::default();
+                    let mut body = base_body.clone();
+                    body[field] = val;
+                    let field_name = ["version", "cipher", "aead", "chunk"][field];
+                    // (a) full body, every session key kind
+                    for (ski, (skname, sk)) in sks.iter().enumerate() {
+                        // quick: non-base key kinds only for a subset of values
+                        if ctx.quick() && ski > 0 && !(val < 24 || val % 16 == 0 || val > 250 || (100..=111).contains(&val)) {
+                            continue;
+                        }
+                        let bytes = pkt(tag, &body);
+                        let desc = format!("F2:tag{tag}/base={sym}.{aead}.{chunk}/{field_name}={val}/sk={skname}/full");
+                        ctx.cover(&("F2", tag, ci, field, val, ski));
+                        let o = run_case(
+                            ctx,
+                            "F2",
+                            &desc,
+                            || json!({"api": "Message::from_bytes -> decrypt_the_ring(session key)", "input": hexs(&bytes), "session_key": format!("{skname}")}),
+                            || drive_with_session_key(&bytes, sk, val as u64 + ski as u64),
+                        );
+                        if let Some(o) = o {
+                            obs.merge(&o);
+                        }
+                    }
+                    // (b) bodies of length 0..40 behind the header (and shorter than the header)
+                    let sk0 = &sks[0].1;
+                    let lens: Vec<usize> = if ctx.quick() && !(val < 20 || val % 32 == 0 || val == 255) {
+                        vec![0, 1, 15, 16, 17, 32, 40]
+                    } else {
+                        (0..=40).collect()
+                    };
+                    for l in lens {
+                        let mut b = body[..hdr_len.min(body.len())].to_vec();
+                        b.extend(rnd_bytes(&mut rng, l));
+                        let bytes = pkt(tag, &b);
+                        let desc = format!("F2:tag{tag}/base={sym}.{aead}.{chunk}/{field_name}={val}/body-len={l}");
+                        ctx.cover(&("F2b", tag, ci, field, val, l));
+                        let o = run_case(
+                            ctx,
+                            "F2",
+                            &desc,
+                            || json!({"api": "Message::from_bytes -> decrypt_the_ring(session key)", "input": hexs(&bytes), "session_key": hexs(&key)}),
+                            || drive_with_session_key(&bytes, sk0, l as u64),
+                        );
+                        if let Some(o) = o {
+                            obs.merge(&o);
+                        }
+                    }
+                    if field == 0 && val < 8 {
+                        // header truncated at every length
+                        for l in 0..hdr_len {
+                            let bytes = pkt(tag, &body[..l.min(body.len())]);
+                            let desc = format!("F2:tag{tag}/version={val}/header-truncated={l}");
+                            let o = run_case(
+                                ctx,
+                                "F2",
+                                &desc,
+                                || json!({"api": "Message::from_bytes -> decrypt_the_ring(session key)", "input": hexs(&bytes)}),
+                                || drive_with_session_key(&bytes, sk0, l as u64),
+                            );
+                            if let Some(o) = o {
+                                obs.merge(&o);
+                            }
+                        }
+                    }
+                    // packet level API
+                    if tag == 18 {
+                        let desc = format!("F2:packet-api/base={sym}.{aead}.{chunk}/{field_name}={val}");
+                        let o = run_case(
+                            ctx,
+                            "F2",
+                            &desc,
+                            || json!({"api": "SymEncryptedProtectedData::try_from_reader -> decrypt", "body": hexs(&body), "session_key": hexs(&key)}),
+                            || {
+                                let mut o = Obs::default();
+                                let h = PacketHeader::new_fixed(Tag::SymEncryptedProtectedData, body.len() as u32);
+                                if let Ok(p) = SymEncryptedProtectedData::try_from_reader(h, &body[..]) {
+                                    o.parsed += 1;
+                                    let _ = p.version();
+                                    let _ = p.config();
+                                    let _ = p.to_bytes();
+                                    let _ = p.write_len();
+                                    for k in [&key[..], &[][..], &[1u8; 5][..], &[2u8; 32][..]] {
+                                        match p.decrypt(k, Some(SymmetricKeyAlgorithm::from(sym)), Seipdv1ReadMode::default()) {
+                                            Ok(d) => {
+                                                o.decrypted += 1;
+                                                o.bytes += d.len() as u64;
+                                            }
+                                            Err(_) => o.errs += 1,
+                                        }
+                                    }
+                                }
+                                o
+                            },
+                        );
+                        if let Some(o) = o {
+                            obs.merge(&o);
+                        }
+                    }
+                    obs.tally(ctx, "F2");
+                    ctx.seen(&format!("F2.tag{tag}.{field_name}"), format!("{val}"));
+                }
+            }
+        }
+    }
+    // ---- seeded pairs / triples: valid containers for every supported (cipher, aead, chunk<=10)
+    // combination with plaintext sizes around the chunk size, then a second parameter patched
+    let n = ctx.qt(1500u64, 30000u64);
+    for i in 0..n {
+        if !ctx.mine() {
+            continue;
+        }
+        let mut rng = ctx.rng("F2p", i);
+        let sym = [7u8, 8, 9][rng.gen_range(0..3)];
+        let aead = rng.gen_range(1..=3u8);
+        let chunk = rng.gen_range(0..=4u8);
+        let cs = 1usize << (chunk + 6);
+        let plen = [0, 1, cs - 1, cs, cs + 1, 2 * cs, 2 * cs + 1][rng.gen_range(0..7)];
+        let mut data = literal(&rnd_bytes(&mut rng, plen));
+        if rng.gen_bool(0.3) {
+            data = rnd_bytes(&mut rng, plen);
+        }
+        let key = rnd_bytes(&mut rng, rfc::sym::key_size(sym).unwrap_or(16));
+        let mut salt = [0u8; 32];
+        rng.fill_bytes(&mut salt);
+        let tag = if rng.gen_bool(0.7) { 18u8 } else { 20 };
+        let body = if tag == 18 {
+            rfc::sym::seipd_v2_encrypt(sym, aead, chunk, &salt, &key, &data)
+        } else {
+            gnupg_aead_encrypt(sym, chunk, &salt[..15], &key, &data)
+        };
+        let Some(mut body) = body else { continue };
+        let mode = rng.gen_range(0..6);
+        match mode {
+            0 => {}
+            1 => {
+                // two parameter octets replaced
+                body[1] = rng.gen();
+                body[2] = rng.gen();
+            }
+            2 => {
+                body[2] = rng.gen();
+                body[3] = rng.gen();
+            }
+            3 => {
+                body[1] = [7u8, 8, 9, 10, 13][rng.gen_range(0..5)];
+                body[3] = rng.gen_range(0..=20);
+            }
+            4 => {
+                // truncate inside the chunk stream
+                let l = rng.gen_range(0..=body.len());
+                body.truncate(l);
+            }
+            _ => {
+                // trailing garbage / bit flip in ciphertext
+                let p = rng.gen_range(0..body.len());
+                body[p] ^= 1 << rng.gen_range(0..8);
+            }
+        }
+        let sk = match (tag, rng.gen_range(0..8)) {
+            (18, 0) => {
+                let l = [0usize, 16, 24, 32, 33][rng.gen_range(0..5)];
+                PlainSessionKey::V6 { key: rnd_bytes(&mut rng, l).into() }
+            }
+            (18, _) => PlainSessionKey::V6 { key: key.clone().into() },
+            (_, 0) => PlainSessionKey::V3_4 { sym_alg: SymmetricKeyAlgorithm::from(get(&body, 1)), key: key.clone().into() },
+            (_, 1) => PlainSessionKey::V6 { key: key.clone().into() },
+            _ => PlainSessionKey::V5 { key: key.clone().into() },
+        };
+        // partial body framing of the container now and then
+        let bytes = if body.len() > 600 && rng.gen_bool(0.5) {
+            rfc::frame::frame(tag, &body, &rfc::frame::LenForm::Partial(vec![512], Box::new(rfc::frame::LenForm::NewMin))).unwrap_or_else(|| pkt(tag, &body))
+        } else {
+            pkt(tag, &body)
+        };
+        ctx.cover(&("F2p", i));
+        let desc = format!("F2p:tag{tag}/cfg={sym}.{aead}.{chunk}/plen-class={}/mode={mode}", plen.min(9999));
+        let o = run_case(
+            ctx,
+            "F2",
+            &desc,
+            || json!({"api": "Message::from_bytes -> decrypt_the_ring(session key)", "input": hexs(&bytes), "session_key": format!("{sk:?}"), "key": hexs(&key)}),
+            || drive_with_session_key(&bytes, &sk, i),
+        );
+        if let Some(o) = o {
+            o.tally(ctx, "F2p");
+        }
+    }
+}
+
+// ------------------------------------------------------------------------------------------
+// F3: SKESK / S2K
+
+/// Reference encoder for GnuPG's v5 SKESK (OCB): the S2K output is used directly as key.
+fn skesk_v5_encode(sym: u8, s2k: &RefS2k, pw: &[u8], iv: &[u8], sk: &[u8]) -> Option<Vec<u8>> {
+    let key = s2k.derive(pw, rfc::sym::key_size(sym)?)?;
+    let info = [0xC3u8, 5, sym, 2];
+    let ct = rfc::sym::aead_seal(sym, 2, &key, iv, &info, sk)?;
+    let mut o = vec![5u8, sym, 2];
+    o.extend(s2k.encode());
+    o.extend_from_slice(iv);
+    o.extend(ct);
+    Some(o)
+}
+
+/// True if a KDF described by these S2K octets would be legitimately expensive (Argon2 with
+/// 16 MiB..2 GiB of memory, which the library accepts by design). Such inputs are not presented:
+/// a slow but legitimate derivation is not a hang.
+fn s2k_bytes_expensive(b: &[u8]) -> bool {
+    match b.first() {
+        Some(4) => {
+            let (t, p, m) = (get(b, 17), get(b, 18), get(b, 19));
+            b.len() >= 20 && t <= 32 && p <= 32 && (14..=21).contains(&m)
+        }
+        _ => false,
+    }
+}
+
+fn s2k_expensive(s: &StringToKey, max_count: u8) -> bool {
+    match s {
+        StringToKey::Argon2 { t, p, m_enc, .. } => *t <= 32 && *p <= 32 && (14..=21).contains(m_enc),
+        StringToKey::IteratedAndSalted { count, .. } => *count > max_count,
+        _ => false,
+    }
+}
+
+/// SKESK bodies whose S2K would be expensive are filtered before they reach the library
+fn skesk_body_expensive(body: &[u8]) -> bool {
+    match body.first() {
+        Some(4) => s2k_bytes_expensive(body.get(2..).unwrap_or(&[])),
+        Some(5) => s2k_bytes_expensive(body.get(3..).unwrap_or(&[])),
+        Some(6) => s2k_bytes_expensive(body.get(5..).unwrap_or(&[])),
+        _ => false,
+    }
+}
+
+fn drive_with_password(bytes: &[u8], variant: u64) -> Obs {
+    let mut o = Obs::default();
+    let means = Means::none();
+    match Message::from_bytes(bytes) {
+        Ok(m) => drive_message(m, &means, variant, &mut o),
+        Err(_) => o.errs += 1,
+    }
+    if variant % 4 == 1 {
+        if let Ok(m) = Message::from_bytes(bytes) {
+            if let Ok(mut m) = m.decrypt_with_password(&Password::from(MSG_PW)) {
+                o.decrypted += 1;
+                let _ = m.as_data_vec();
+            }
+        }
+    }
+    o
+}
+
+/// The packet level API on a SKESK body. The caller-supplied key always has the length the
+/// packet's own cipher demands (what `decrypt_session_key_with_password` does); handing in a key
+/// of another length would be API misuse, not hostile input.
+fn drive_skesk_direct(body: &[u8]) -> Obs {
+    let mut o = Obs::default();
+    let h = PacketHeader::new_fixed(Tag::SymKeyEncryptedSessionKey, body.len() as u32);
+    match SymKeyEncryptedSessionKey::try_from_reader(h, body) {
+        Ok(p) => {
+            o.parsed += 1;
+            let _ = p.version();
+            let _ = p.s2k();
+            let _ = p.is_supported();
+            let _ = p.encrypted_key();
+            let n = p.write_len();
+            if let Ok(b) = p.to_bytes() {
+                let _ = b.len() == n;
+                o.serialized += 1;
+            }
+            let mut v = Vec::new();
+            let _ = p.to_writer_with_header(&mut v);
+            match pgp::composed::decrypt_session_key_with_password(&p, &Password::from(MSG_PW)) {
+                Ok(_) => o.decrypted += 1,
+                Err(_) => o.errs += 1,
+            }
+            if let (Some(alg), Some(s2k)) = (p.sym_algorithm(), p.s2k()) {
+                let ks = alg.key_size();
+                let mut keys = vec![vec![0x11u8; ks]];
+                if !s2k_expensive(s2k, 0xFF) {
+                    if let Ok(k) = s2k.derive_key(MSG_PW.as_bytes(), ks) {
+                        keys.push(k.as_ref().to_vec());
+                    }
+                }
+                for k in keys {
+                    match p.decrypt(&k) {
+                        Ok(_) => o.decrypted += 1,
+                        Err(_) => o.errs += 1,
+                    }
+                }
+            }
+        }
+        Err(_) => o.errs += 1,
+    }
+    o
+}
+
+/// Runs the message level path (family F3) and the packet level API (family F3x) on one SKESK.
+fn run_skesk(ctx: &mut Ctx, desc: &str, bytes: &[u8], body: &[u8], variant: u64, detail: Value) -> Obs {
+    let mut obs = Obs::default();
+    let o = run_case(
+        ctx,
+        "F3",
+        desc,
+        || json!({"api": "Message::from_bytes -> decrypt_the_ring(password) / decrypt_with_password", "input": hexs(bytes), "password": MSG_PW, "detail": detail.clone()}),
+        || drive_with_password(bytes, variant),
+    );
+    if let Some(o) = o {
+        obs.merge(&o);
+    }
+    let d2 = format!("{desc}/packet-api");
+    let o = run_case(
+        ctx,
+        "F3x",
+        &d2,
+        || json!({"api": "SymKeyEncryptedSessionKey::try_from_reader -> decrypt_session_key_with_password / decrypt(key of the cipher's size)", "skesk_body": hexs(body), "password": MSG_PW, "detail": detail.clone()}),
+        || drive_skesk_direct(body),
+    );
+    if let Some(o) = o {
+        obs.merge(&o);
+    }
+    obs
+}
+
+fn f3(ctx: &mut Ctx) {
+    let inner = literal(b"hello c04 skesk");
+    let pw = MSG_PW.as_bytes();
+    let alg_ids: Vec<u8> = if ctx.quick() { ALG_IDS_QUICK.to_vec() } else { (0..=255u8).collect() };
+    let salt8 = [0xA1u8, 2, 3, 4, 5, 6, 7, 8];
+    let salt16 = [0xB1u8; 16];
+    let s2ks_v4: Vec<(&str, RefS2k)> = vec![
+        ("simple-sha256", RefS2k::Simple { hash: 8 }),
+        ("salted-sha256", RefS2k::Salted { hash: 8, salt: salt8 }),
+        ("iter-sha256-c0", RefS2k::Iterated { hash: 8, salt: salt8, count: 0 }),
+        ("iter-sha1-c16", RefS2k::Iterated { hash: 2, salt: salt8, count: 16 }),
+        ("iter-sha512-c32", RefS2k::Iterated { hash: 10, salt: salt8, count: 32 }),
+    ];
+    let keks: Vec<u8> = if ctx.quick() { vec![7, 9, 2, 3] } else { rfc::sym::ALL_CIPHERS.to_vec() };
+
+    // ---- F3a v4 SKESK, attacker-chosen decrypted contents
+    for (ki, &kek) in keks.iter().enumerate() {
+        for (si, (sname, s2k)) in s2ks_v4.iter().enumerate() {
+            for len in 0..=40usize {
+                if !ctx.mine() {
+                    continue;
+                }
+                let mut rng = ctx.rng("F3a", (ki as u64) << 16 | (si as u64) << 8 | len as u64);
+                let mut obs = Obs::default();
+                for &alg in &alg_ids {
+                    let mut plain = rnd_bytes(&mut rng, len);
+                    if len >= 1 {
+                        plain[0] = alg;
+                    }
+                    let sess = if len == 0 { None } else { Some((plain[0], &plain[1..])) };
+                    let Some(body) = rfc::sym::skesk_v4_encode(kek, s2k, pw, sess) else {
+                        ctx.inconclusive("F3a: reference could not build SKESK v4");
+                        continue;
+                    };
+                    // container keyed by the session key the library will derive
+                    let (c_alg, c_key): (u8, Vec<u8>) = if len == 0 {
+                        (kek, s2k.derive(pw, rfc::sym::key_size(kek).unwrap_or(16)).unwrap_or_default())
+                    } else {
+                        (alg, plain[1..].to_vec())
+                    };
+                    let kind = [0u8, 2, 3][(alg as usize + len) % 3];
+                    let mut bytes = pkt(3, &body);
+                    bytes.extend(container(kind, c_alg, &c_key, &inner, len, &mut rng));
+                    ctx.cover(&("F3a", kek, si, len, alg));
+                    let desc = format!("F3a:skesk-v4/kek={kek}/{sname}/len={len}/alg={alg}/container={kind}");
+                    let o = run_skesk(ctx, &desc, &bytes, &body, alg as u64 + len as u64, json!({"session_plaintext": hexs(&plain)}));
+                    obs.merge(&o);
+                }
+                obs.tally(ctx, "F3a");
+            }
+        }
+    }
+
+    // ---- F3b v6 SKESK: AEAD-sealed attacker-chosen session key of every length
+    let s2ks_v6: Vec<(&str, RefS2k)> = vec![
+        ("iter-sha256-c0", RefS2k::Iterated { hash: 8, salt: salt8, count: 0 }),
+        ("argon2-1-1-6", RefS2k::Argon2 { salt: salt16, t: 1, p: 1, m: 6 }),
+        ("salted-sha256", RefS2k::Salted { hash: 8, salt: salt8 }),
+        ("simple-sha256", RefS2k::Simple { hash: 8 }),
+        ("iter-sha1-c0", RefS2k::Iterated { hash: 2, salt: salt8, count: 0 }),
+    ];
+    for sym in [7u8, 8, 9] {
+        for aead in [1u8, 2, 3] {
+            for (si, (sname, s2k)) in s2ks_v6.iter().enumerate() {
+                if !ctx.mine() {
+                    continue;
+                }
+                let mut rng = ctx.rng("F3b", (sym as u64) << 16 | (aead as u64) << 8 | si as u64);
+                let mut obs = Obs::default();
+                for len in 0..=40usize {
+                    let sk = rnd_bytes(&mut rng, len);
+                    let iv = rnd_bytes(&mut rng, rfc::sym::aead_nonce_len(aead).unwrap_or(16));
+                    let Some(body) = rfc::sym::skesk_v6_encode(sym, aead, s2k, pw, &iv, &sk) else {
+                        ctx.inconclusive("F3b: reference could not build SKESK v6");
+                        continue;
+                    };
+                    let mut bytes = pkt(3, &body);
+                    bytes.extend(container(1, 9, &sk, &inner, len, &mut rng));
+                    ctx.cover(&("F3b", sym, aead, si, len));
+                    let desc = format!("F3b:skesk-v6/sym={sym}/aead={aead}/{sname}/sk-len={len}");
+                    let o = run_skesk(ctx, &desc, &bytes, &body, len as u64, json!({"session_key": hexs(&sk)}));
+                    obs.merge(&o);
+                }
+                obs.tally(ctx, "F3b");
+            }
+        }
+    }
+
+    // ---- F3c v5 (GnuPG) SKESK in front of a tag 20 container
+    for sym in [7u8, 8, 9] {
+        for (si, (sname, s2k)) in s2ks_v4.iter().enumerate() {
+            if !ctx.mine() {
+                continue;
+            }
+            let mut rng = ctx.rng("F3c", (sym as u64) << 8 | si as u64);
+            let mut obs = Obs::default();
+            for len in 0..=40usize {
+                let sk = rnd_bytes(&mut rng, len);
+                let iv = rnd_bytes(&mut rng, 15);
+                let Some(body) = skesk_v5_encode(sym, s2k, pw, &iv, &sk) else {
+                    ctx.inconclusive("F3c: reference could not build SKESK v5");
+                    continue;
+                };
+                let mut bytes = pkt(3, &body);
+                bytes.extend(container(3, sym, &sk, &inner, len, &mut rng));
+                ctx.cover(&("F3c", sym, si, len));
+                let desc = format!("F3c:skesk-v5/sym={sym}/{sname}/sk-len={len}");
+                let o = run_skesk(ctx, &desc, &bytes, &body, len as u64, json!({}));
+                    obs.merge(&o);
+            }
+            obs.tally(ctx, "F3c");
+        }
+    }
+
+    // ---- F3d field sweeps over valid base packets (every offset before the encrypted key x 256)
+    let sk16 = [0x44u8; 16];
+    let mut bases: Vec<(String, Vec<u8>, Vec<u8>, usize)> = vec![]; // name, body, container, param-region length
+    {
+        let mut rng = Ctx::fixed_rng("F3d", 0);
+        for (sname, s2k) in [
+            ("iter", RefS2k::Iterated { hash: 8, salt: salt8, count: 0 }),
+            ("salted", RefS2k::Salted { hash: 8, salt: salt8 }),
+            ("simple", RefS2k::Simple { hash: 8 }),
+        ] {
+            let mut plain = vec![7u8];
+            plain.extend_from_slice(&sk16);
+            if let Some(b) = rfc::sym::skesk_v4_encode(7, &s2k, pw, Some((7, &sk16))) {
+                let region = 2 + s2k.encode().len();
+                bases.push((format!("v4-{sname}"), b, container(0, 7, &sk16, &inner, 20, &mut rng), region));
+            }
+            if let Some(b) = rfc::sym::skesk_v4_encode(7, &s2k, pw, None) {
+                let region = b.len();
+                let k = s2k.derive(pw, 16).unwrap_or_default();
+                bases.push((format!("v4-{sname}-nokey"), b, container(0, 7, &k, &inner, 20, &mut rng), region));
+            }
+        }
+        for (sname, s2k, aead) in [
+            ("iter-ocb", RefS2k::Iterated { hash: 8, salt: salt8, count: 0 }, 2u8),
+            ("argon2-eax", RefS2k::Argon2 { salt: salt16, t: 1, p: 1, m: 6 }, 1),
+            ("argon2-m9-gcm", RefS2k::Argon2 { salt: salt16, t: 1, p: 1, m: 9 }, 3),
+        ] {
+            let iv = rnd_bytes(&mut rng, rfc::sym::aead_nonce_len(aead).unwrap_or(16));
+            if let Some(b) = rfc::sym::skesk_v6_encode(7, aead, &s2k, pw, &iv, &sk16) {
+                let region = 5 + s2k.encode().len() + iv.len();
+                bases.push((format!("v6-{sname}"), b, container(1, 7, &sk16, &inner, 20, &mut rng), region));
+            }
+        }
+        {
+            let s2k = RefS2k::Iterated { hash: 8, salt: salt8, count: 0 };
+            let iv = rnd_bytes(&mut rng, 15);
+            if let Some(b) = skesk_v5_encode(7, &s2k, pw, &iv, &sk16) {
+                let region = 3 + 11 + 15;
+                bases.push(("v5-iter".into(), b, container(3, 7, &sk16, &inner, 20, &mut rng), region));
+            }
+        }
+    }
+    for (bname, body, cont, region) in &bases {
+        // sanity
+        {
+            let mut bytes = pkt(3, body);
+            bytes.extend_from_slice(cont);
+            let ok = core::guard(|| {
+                let m = Message::from_bytes(&bytes[..]).ok()?;
+                let pws = [Password::from(MSG_PW)];
+                let ring = TheRing { message_password: pws.iter().collect(), decrypt_options: dec_opts(0), ..Default::default() };
+                let (mut m, _) = m.decrypt_the_ring(ring, true).ok()?;
+                m.as_data_vec().ok()
+            });
+            match ok {
+                Ok(Some(d)) if d == b"hello c04 skesk" => ctx.tally("F3d.base_decrypts", 1),
+                _ => ctx.inconclusive(format!("F3d: base {bname} does not decrypt")),
+            }
+        }
+        for off in 0..(*region).min(body.len()) {
+            // the coded iteration count gets its own, cost-aware sweep below
+            let is_count = (bname.starts_with("v4-iter") && off == 12)
+                || (bname.starts_with("v6-iter") && off == 15)
+                || (bname.starts_with("v5-iter") && off == 13);
+            if !ctx.mine() {
+                continue;
+            }
+            let mut obs = Obs::default();
+            for v in 0..=255u16 {
+                let v = v as u8;
+                if is_count && v > 0x60 {
+                    continue;
+                }
+                let mut b = body.clone();
+                b[off] = v;
+                if skesk_body_expensive(&b) {
+                    ctx.tally("F3d.skipped_expensive_kdf", 1);
+                    continue;
+                }
+                let mut bytes = pkt(3, &b);
+                bytes.extend_from_slice(cont);
+                ctx.cover(&("F3d", bname, off, v));
+                let desc = format!("F3d:skesk/{bname}/patch-off={off}");
+                let o = run_skesk(ctx, &desc, &bytes, &b, v as u64, json!({"patched_body_offset": off, "value": v}));
+                    obs.merge(&o);
+            }
+            obs.tally(ctx, "F3d");
+            ctx.seen("F3d.base_x_offset", format!("{bname}@{off}"));
+        }
+        // truncation at every length, re-framed and raw
+        if !ctx.mine() {
+            continue;
+        }
+        let mut obs = Obs::default();
+        for cut in 0..body.len() {
+            for raw in [false, true] {
+                let mut bytes = if raw {
+                    let full = pkt(3, body);
+                    let hl = full.len() - body.len();
+                    full[..hl + cut].to_vec()
+                } else {
+                    pkt(3, &body[..cut])
+                };
+                bytes.extend_from_slice(cont);
+                let desc = format!("F3d:skesk/{bname}/truncate={cut}/raw={raw}");
+                ctx.cover(&("F3d-trunc", bname, cut, raw));
+                let o = run_skesk(ctx, &desc, &bytes, &body[..cut], cut as u64, json!({}));
+                    obs.merge(&o);
+            }
+        }
+        obs.tally(ctx, "F3d");
+    }
+
+    // ---- F3e S2K type x hash matrix, explicit specifier bytes, v4 and v6 framing
+    let hashes_q: Vec<u8> = vec![0, 1, 2, 3, 8, 9, 10, 11, 12, 14, 100, 255];
+    for typ in 0..=255u16 {
+        let typ = typ as u8;
+        if !ctx.mine() {
+            continue;
+        }
+        let mut rng = ctx.rng("F3e", typ as u64);
+        let hashes: Vec<u8> = if ctx.quick() && !matches!(typ, 0 | 1 | 3) { hashes_q.clone() } else { (0..=255u8).collect() };
+        let mut obs = Obs::default();
+        for h in hashes {
+            for tail in [0usize, 1, 8, 9, 18, 30] {
+                // specifier: type, hash, then `tail` octets (salt / count / argon2 params ...)
+                let mut spec = vec![typ, h];
+                let mut t = rnd_bytes(&mut rng, tail);
+                if typ == 3 && tail >= 9 {
+                    t[8] = h % 0x40; // coded count kept cheap
+                }
+                spec.extend(t);
+                if s2k_bytes_expensive(&spec) {
+                    ctx.tally("F3e.skipped_expensive_kdf", 1);
+                    continue;
+                }
+                for ver in [4u8, 6] {
+                    let body = if ver == 4 {
+                        let mut b = vec![4u8, 7];
+                        b.extend_from_slice(&spec);
+                        b.extend(rnd_bytes(&mut rng, 17));
+                        b
+                    } else {
+                        let iv = rnd_bytes(&mut rng, 15);
+                        let mut b = vec![6u8, (3 + spec.len() + 15) as u8, 7, 2, spec.len() as u8];
+                        b.extend_from_slice(&spec);
+                        b.extend(iv);
+                        b.extend(rnd_bytes(&mut rng, 32));
+                        b
+                    };
+                    // the count octet may come from the random octets that follow a short specifier
+                    let s2k_at = if ver == 4 { 2 } else { 5 };
+                    if s2k_bytes_cost_high(body.get(s2k_at..).unwrap_or(&[]), 0x80) {
+                        ctx.tally("F3e.skipped_expensive_kdf", 1);
+                        continue;
+                    }
+                    let mut bytes = pkt(3, &body);
+                    bytes.extend(container(if ver == 4 { 0 } else { 1 }, 7, &sk16, &inner, 20, &mut rng));
+                    ctx.cover(&("F3e", typ, h, tail, ver));
+                    let desc = format!("F3e:skesk-v{ver}/s2k-type={typ}/hash={h}/tail={tail}");
+                    let o = run_skesk(ctx, &desc, &bytes, &body, h as u64, json!({}));
+                    obs.merge(&o);
+                }
+            }
+        }
+        obs.tally(ctx, "F3e");
+        ctx.seen("F3e.s2k_type", format!("{typ}"));
+    }
+
+    // ---- F3f cost-aware sweeps: coded iteration count, Argon2 t / p / m
+    let counts: Vec<u8> = if ctx.quick() {
+        (0..=255u16).map(|c| c as u8).filter(|c| *c <= 0x70 || *c % 16 == 15 || *c % 16 == 0).collect()
+    } else {
+        (0..=255u8).collect()
+    };
+    for c in counts {
+        if !ctx.mine() {
+            continue;
+        }
+        let mut rng = ctx.rng("F3f", c as u64);
+        // the reference derives with the same count, so the packet is valid for the password
+        let (hash, ver) = if c % 2 == 0 { (8u8, 4u8) } else { (10u8, 6u8) };
+        let s2k = RefS2k::Iterated { hash, salt: salt8, count: c };
+        let (body, cont) = if ver == 4 {
+            (rfc::sym::skesk_v4_encode(9, &s2k, pw, Some((7, &sk16))), container(0, 7, &sk16, &inner, 20, &mut rng))
+        } else {
+            let iv = rnd_bytes(&mut rng, 15);
+            (rfc::sym::skesk_v6_encode(9, 2, &s2k, pw, &iv, &sk16), container(1, 7, &sk16, &inner, 20, &mut rng))
+        };
+        let Some(body) = body else { continue };
+        let mut bytes = pkt(3, &body);
+        bytes.extend(cont);
+        ctx.cover(&("F3f-count", c));
+        ctx.seen("F3f.count", format!("{c}"));
+        let desc = format!("F3f:skesk-v{ver}/iterated-count={c}");
+        let o = run_case(
+            ctx,
+            "F3",
+            &desc,
+            || json!({"api": "Message::from_bytes -> decrypt_with_password", "input": hexs(&bytes), "password": MSG_PW}),
+            || {
+                let mut o = Obs::default();
+                if let Ok(m) = Message::from_bytes(&bytes[..]) {
+                    o.parsed += 1;
+                    match m.decrypt_with_password(&Password::from(MSG_PW)) {
+                        Ok(mut m) => {
+                            o.decrypted += 1;
+                            if m.as_data_vec().is_ok() {
+                                o.read_ok += 1;
+                            }
+                        }
+                        Err(_) => o.errs += 1,
+                    }
+                }
+                o
+            },
+        );
+        if let Some(o) = o {
+            if o.decrypted == 0 {
+                ctx.tally("F3f.count_not_decrypted", 1);
+            }
+            o.tally(ctx, "F3f");
+        }
+    }
+    for (field, base_m) in [("t", 6u8), ("p", 9u8), ("m", 6u8)] {
+        for v in 0..=255u16 {
+            let v = v as u8;
+            if !ctx.mine() {
+                continue;
+            }
+            let (t, p, m) = match field {
+                "t" => (v, 1, base_m),
+                "p" => (1, v, base_m),
+                _ => (1, 1, v),
+            };
+            if field == "m" && (14..=21).contains(&v) {
+                // 16 MiB .. 2 GiB: accepted by design, legitimately slow and memory hungry; not run
+                ctx.tally("F3f.skipped_expensive_kdf", 1);
+                continue;
+            }
+            let mut rng = ctx.rng("F3f-argon", (field.len() as u64) << 16 | (field.as_bytes()[0] as u64) << 8 | v as u64);
+            let s2k = RefS2k::Argon2 { salt: salt16, t, p, m };
+            let iv = rnd_bytes(&mut rng, 16);
+            // valid packet where the reference can derive, else the specifier with a random key blob
+            // the reference is only asked for parameter sets it can handle cheaply
+            let ref_ok = (1..=32).contains(&t) && (1..=32).contains(&p) && m <= 13 && (1u32 << m) >= 8 * p as u32;
+            let body = (if ref_ok { rfc::sym::skesk_v6_encode(7, 1, &s2k, pw, &iv, &sk16) } else { None }).unwrap_or_else(|| {
+                let spec = s2k.encode();
+                let mut b = vec![6u8, (3 + spec.len() + 16) as u8, 7, 1, spec.len() as u8];
+                b.extend(spec);
+                b.extend_from_slice(&iv);
+                b.extend(rnd_bytes(&mut rng, 32));
+                b
+            });
+            let mut bytes = pkt(3, &body);
+            bytes.extend(container(1, 7, &sk16, &inner, 20, &mut rng));
+            ctx.cover(&("F3f-argon", field, v));
+            ctx.seen(&format!("F3f.argon2.{field}"), format!("{v}"));
+            let desc = format!("F3f:skesk-v6/argon2/{field}={v}");
+            let o = run_case(
+                ctx,
+                "F3",
+                &desc,
+                || json!({}),
+                || drive_with_password(&bytes, v as u64),
+            );
+            if let Some(o) = o {
+                o.tally(ctx, "F3f");
+            }
+        }
+    }
+}
+
+// ------------------------------------------------------------------------------------------
+// F4: secret keys
+
+/// One secret key packet of a transferable secret key, taken apart.
+#[derive(Clone)]
+struct SecPkt {
+    /// index into the packet list of the TSK
+    idx: usize,
+    tag: u8,
+    version: u8,
+    pub_body: Vec<u8>,
+    /// genuine unprotected algorithm specific secret material (without checksum)
+    material: Vec<u8>,
+    alg: u8,
+}
+
+struct Tsk {
+    name: String,
+    /// (tag, body) of every packet
+    packets: Vec<(u8, Vec<u8>)>,
+    secs: Vec<SecPkt>,
+}
+
+impl Tsk {
+    fn from_key(name: &str, k: &SignedSecretKey) -> Option<Tsk> {
+        let bytes = k.to_bytes().ok()?;
+        let raw = rfc::frame::deframe(&bytes).ok()?;
+        let packets: Vec<(u8, Vec<u8>)> = raw.iter().map(|p| (p.tag, p.body.clone())).collect();
+        let mut pub_lens = vec![k.primary_key.public_key().to_bytes().ok()?.len()];
+        for s in &k.secret_subkeys {
+            pub_lens.push(s.key.public_key().to_bytes().ok()?.len());
+        }
+        let mut secs = vec![];
+        let mut n = 0usize;
+        for (i, (tag, body)) in packets.iter().enumerate() {
+            if *tag == 5 || *tag == 7 {
+                let pl = *pub_lens.get(n)?;
+                n += 1;
+                if body.len() < pl + 1 || body[pl] != 0 {
+                    return None; // expected an unprotected zoo key
+                }
+                let version = body[0];
+                let mat = if version == 6 { body[pl + 1..].to_vec() } else { body[pl + 1..body.len().checked_sub(2)?].to_vec() };
+                secs.push(SecPkt { idx: i, tag: *tag, version, pub_body: body[..pl].to_vec(), material: mat, alg: get(body, 5) });
+            }
+        }
+        Some(Tsk { name: name.to_string(), packets, secs })
+    }
+
+    /// serialise with secret packet `which` carrying `sec_part` (everything after the public part)
+    fn with_secret(&self, which: usize, sec_part: &[u8]) -> Vec<u8> {
+        let mut out = vec![];
+        for (i, (tag, body)) in self.packets.iter().enumerate() {
+            match self.secs.get(which) {
+                Some(sp) if sp.idx == i => {
+                    let mut b = sp.pub_body.clone();
+                    b.extend_from_slice(sec_part);
+                    out.extend(pkt(*tag, &b));
+                }
+                _ => out.extend(pkt(*tag, body)),
+            }
+        }
+        out
+    }
+}
+
+/// How the secret part is protected by the reference encoder.
+#[derive(Clone, Debug)]
+enum Prot {
+    Plain,
+    Cfb254 { sym: u8, s2k: RefS2k },
+    Malleable255 { sym: u8, s2k: RefS2k },
+    Legacy { sym: u8 },
+    Aead253 { sym: u8, aead: u8, s2k: RefS2k },
+}
+
+impl Prot {
+    fn name(&self) -> String {
+        match self {
+            Prot::Plain => "plain".into(),
+            Prot::Cfb254 { sym, s2k } => format!("cfb254-sym{sym}-s2k{}", s2k.encode()[0]),
+            Prot::Malleable255 { sym, s2k } => format!("cfb255-sym{sym}-s2k{}", s2k.encode()[0]),
+            Prot::Legacy { sym } => format!("legacy-sym{sym}"),
+            Prot::Aead253 { sym, aead, s2k } => format!("aead253-sym{sym}-aead{aead}-s2k{}", s2k.encode()[0]),
+        }
+    }
+}
+
+/// Reference encoder of the secret part of a Secret-Key packet (RFC 9580 5.5.3) around
+/// arbitrary `material`; returns (bytes, length of the parameter region before the blob).
+fn protect(sp: &SecPkt, prot: &Prot, material: &[u8], pw: &[u8], rng: &mut ChaCha8Rng) -> Option<(Vec<u8>, usize)> {
+    let v6 = sp.version == 6;
+    match prot {
+        Prot::Plain => {
+            let mut o = vec![0u8];
+            o.extend_from_slice(material);
+            if !v6 {
+                o.extend(rfc::sum16(material).to_be_bytes());
+            }
+            Some((o, 1))
+        }
+        Prot::Cfb254 { sym, s2k } | Prot::Malleable255 { sym, s2k } => {
+            let is254 = matches!(prot, Prot::Cfb254 { .. });
+            let bs = rfc::sym::block_size(*sym)?;
+            let key = s2k.derive(pw, rfc::sym::key_size(*sym)?)?;
+            let iv = rnd_bytes(rng, bs);
+            let mut pt = material.to_vec();
+            if is254 {
+                pt.extend(rfc::hash(2, &[material])?);
+            } else {
+                pt.extend(rfc::sum16(material).to_be_bytes());
+            }
+            rfc::sym::cfb_encrypt(*sym, &key, &iv, &mut pt)?;
+            let spec = s2k.encode();
+            let mut params = vec![*sym];
+            if v6 && is254 {
+                params.push(spec.len() as u8);
+            }
+            params.extend(spec);
+            params.extend(iv);
+            let mut o = vec![if is254 { 254u8 } else { 255 }];
+            if v6 {
+                o.push(params.len() as u8);
+            }
+            o.extend(&params);
+            let region = o.len();
+            o.extend(pt);
+            Some((o, region))
+        }
+        Prot::Legacy { sym } => {
+            let bs = rfc::sym::block_size(*sym)?;
+            let key = rfc::hash(1, &[pw])?;
+            if key.len() != rfc::sym::key_size(*sym)? {
+                return None;
+            }
+            let iv = rnd_bytes(rng, bs);
+            let mut pt = material.to_vec();
+            pt.extend(rfc::sum16(material).to_be_bytes());
+            rfc::sym::cfb_encrypt(*sym, &key, &iv, &mut pt)?;
+            let mut o = vec![*sym];
+            o.extend(iv);
+            let region = o.len();
+            o.extend(pt);
+            Some((o, region))
+        }
+        Prot::Aead253 { sym, aead, s2k } => {
+            let ks = rfc::sym::key_size(*sym)?;
+            let derived = s2k.derive(pw, ks)?;
+            let type_id = 0xC0 | sp.tag;
+            let info = [type_id, sp.version, *sym, *aead];
+            let okm = rfc::sym::hkdf_sha256(None, &derived, &info, 32);
+            let nonce = rnd_bytes(rng, rfc::sym::aead_nonce_len(*aead)?);
+            let mut ad = vec![type_id];
+            ad.extend_from_slice(&sp.pub_body);
+            let ct = rfc::sym::aead_seal(*sym, *aead, &okm[..ks], &nonce, &ad, material)?;
+            let spec = s2k.encode();
+            let mut params = vec![*sym, *aead];
+            if v6 {
+                params.push(spec.len() as u8);
+            }
+            params.extend(spec);
+            params.extend(nonce);
+            let mut o = vec![253u8];
+            if v6 {
+                o.push(params.len() as u8);
+            }
+            o.extend(&params);
+            let region = o.len();
+            o.extend(ct);
+            Some((o, region))
+        }
+    }
+}
+
+/// Offset of the S2K specifier inside a secret part (after the public fields), if any.
+fn secret_s2k_offset(sec: &[u8], v6: bool) -> Option<usize> {
+    let usage = *sec.first()?;
+    let mut p = 1usize;
+    if v6 && usage != 0 {
+        p += 1;
+    }
+    match usage {
+        253 => Some(p + 2 + v6 as usize),
+        254 => Some(p + 1 + v6 as usize),
+        255 => Some(p + 1),
+        _ => None,
+    }
+}
+
+/// S2K octets whose derivation would be legitimately expensive (not presented, see F3)
+fn s2k_bytes_cost_high(b: &[u8], max_count: u8) -> bool {
+    s2k_bytes_expensive(b) || (b.first() == Some(&3) && b.len() >= 11 && b[10] > max_count)
+}
+
+/// MPI aware and raw hostile variants of genuine secret material.
+fn hostile_materials(genuine: &[u8], alg: u8, rng: &mut ChaCha8Rng, thorough: bool) -> Vec<(String, Vec<u8>)> {
+    let mut out: Vec<(String, Vec<u8>)> = vec![("genuine".into(), genuine.to_vec())];
+    let n = genuine.len();
+    // every length 0..n (quick: every length up to 70, then strided)
+    for cut in 0..n {
+        if !thorough && cut > 70 && cut % 13 != 0 {
+            continue;
+        }
+        out.push((format!("truncate-{}", if cut <= 70 { cut } else { 71 }), genuine[..cut].to_vec()));
+    }
+    for extra in [1usize, 2, 3, 8, 33] {
+        let mut m = genuine.to_vec();
+        m.extend(rnd_bytes(rng, extra));
+        out.push((format!("trailing-{extra}"), m));
+    }
+    for fill in [0u8, 0xFF, 0x80, 0x01] {
+        out.push((format!("fill-{fill:02x}"), vec![fill; n]));
+    }
+    for l in [1usize, 2, 3, 31, 32, 33, 56, 57, 58, 64, 66, 114] {
+        out.push((format!("random-len-{l}"), rnd_bytes(rng, l)));
+        out.push((format!("zero-len-{l}"), vec![0u8; l]));
+        out.push((format!("ff-len-{l}"), vec![0xFFu8; l]));
+    }
+    let mpi_based = matches!(alg, 1 | 2 | 3 | 16 | 17 | 18 | 19 | 20 | 22);
+    if mpi_based {
+        // split into MPIs
+        let mut mpis: Vec<Vec<u8>> = vec![];
+        let mut p = 0usize;
+        while let Some((v, np)) = rfc::read_mpi(genuine, p) {
+            mpis.push(v.to_vec());
+            p = np;
+            if p >= genuine.len() {
+                break;
+            }
+        }
+        let enc = |list: &[Vec<u8>]| -> Vec<u8> {
+            let mut o = vec![];
+            for m in list {
+                o.extend(rfc::mpi(m));
+            }
+            o
+        };
+        let raw_mpi = |bits: u16, data: &[u8]| -> Vec<u8> {
+            let mut o = bits.to_be_bytes().to_vec();
+            o.extend_from_slice(data);
+            o
+        };
+        // MPI count wrong
+        for k in 0..mpis.len() {
+            out.push((format!("mpi-count-{k}-of-{}", mpis.len()), enc(&mpis[..k])));
+        }
+        let mut more = mpis.clone();
+        if let Some(f) = mpis.first() {
+            more.push(f.clone());
+        }
+        out.push(("mpi-count-plus-1".into(), enc(&more)));
+        for (k, m) in mpis.iter().enumerate() {
+            let rest_before = enc(&mpis[..k]);
+            let rest_after = enc(&mpis[k + 1..]);
+            let mut variants: Vec<(String, Vec<u8>)> = vec![
+                ("zero-bits".into(), raw_mpi(0, &[])),
+                ("one".into(), raw_mpi(1, &[1])),
+                ("two".into(), raw_mpi(2, &[2])),
+                ("zero-octet-bits8".into(), raw_mpi(8, &[0])),
+                ("allff".into(), rfc::mpi(&vec![0xFFu8; m.len()])),
+                ("allff-plus-1-octet".into(), rfc::mpi(&vec![0xFFu8; m.len() + 1])),
+                ("leading-zero-octets".into(), raw_mpi((m.len() as u16 + 2) * 8, &[&[0u8, 0][..], &m[..]].concat())),
+                ("bits-lie-more".into(), raw_mpi((m.len() as u16 + 4) * 8, m)),
+                ("bits-lie-less".into(), raw_mpi(((m.len() as u16).saturating_sub(2)) * 8, m)),
+                ("bits-ffff".into(), raw_mpi(0xFFFF, m)),
+                ("bits-16385".into(), raw_mpi(16385, &vec![0x55u8; 2049])),
+                ("bits-16384".into(), raw_mpi(16384, &vec![0x95u8; 2048])),
+                ("half".into(), rfc::mpi(&m[..m.len() / 2])),
+                ("double".into(), rfc::mpi(&[&m[..], &m[..]].concat())),
+                ("plus-one-octet".into(), rfc::mpi(&[&[1u8][..], &m[..]].concat())),
+                ("random-same-len".into(), rfc::mpi(&rnd_bytes(rng, m.len()))),
+                ("even-low-bit-cleared".into(), {
+                    let mut x = m.clone();
+                    if let Some(l) = x.last_mut() {
+                        *l &= 0xFE;
+                    }
+                    rfc::mpi(&x)
+                }),
+            ];
+            // every octet length 0..=8 and around typical scalar sizes
+            for l in [0usize, 1, 2, 3, 4, 5, 6, 7, 8, 20, 28, 31, 32, 33, 47, 48, 49, 56, 57, 65, 66, 67, 127, 128, 129] {
+                variants.push((format!("len-class-{}", l.min(9)), rfc::mpi(&{
+                    let mut r = rnd_bytes(rng, l);
+                    if let Some(f) = r.first_mut() {
+                        *f |= 0x80;
+                    }
+                    r
+                })));
+            }
+            for (vn, v) in variants {
+                let mut o = rest_before.clone();
+                o.extend(v);
+                o.extend(&rest_after);
+                out.push((format!("mpi{k}-{vn}"), o));
+            }
+        }
+        if mpis.len() >= 3 {
+            // RSA relations: p = q, swapped p/q, d = 0 .. handled above; equal primes:
+            let mut l = mpis.clone();
+            l[2] = l[1].clone();
+            out.push(("rsa-p-equals-q".into(), enc(&l)));
+            let mut l = mpis.clone();
+            l.swap(1, 2);
+            out.push(("rsa-p-q-swapped".into(), enc(&l)));
+            let mut l = mpis.clone();
+            l[1] = vec![4];
+            l[2] = vec![6];
+            out.push(("rsa-small-composite-primes".into(), enc(&l)));
+        }
+    }
+    out
+}
+
+fn secret_key_is_cheap(sp: &pgp::types::SecretParams, max_count: u8) -> bool {
+    match sp {
+        pgp::types::SecretParams::Plain(_) => true,
+        pgp::types::SecretParams::Encrypted(e) => match e.string_to_key_params() {
+            S2kParams::Aead { s2k, .. } | S2kParams::Cfb { s2k, .. } | S2kParams::MalleableCfb { s2k, .. } => {
+                !s2k_expensive(s2k, max_count)
+            }
+            _ => true,
+        },
+    }
+}
+
+fn drive_tsk(bytes: &[u8], variant: u64, light: bool) -> Obs {
+    let mut o = Obs::default();
+    let pws = [Password::from(PW), Password::empty()];
+    match SignedSecretKey::from_bytes(bytes) {
+        Ok(k) => exercise_secret_key_opts(&k, &pws, variant, light, 0x90, &mut o),
+        Err(_) => o.errs += 1,
+    }
+    o
+}
+
+fn f4(ctx: &mut Ctx, env: &Env) {
+    let pw = PW.as_bytes();
+    let salt8 = [0xC1u8, 2, 3, 4, 5, 6, 7, 8];
+    let salt16 = [0xD1u8; 16];
+    // keys: every signer algorithm + every encryption subkey algorithm
+    let mut tsks: Vec<(Tsk, &SignedSecretKey)> = vec![];
+    for (name, sk, _) in &env.signers {
+        if let Some(t) = Tsk::from_key(name, sk) {
+            tsks.push((t, sk));
+        }
+    }
+    for r in &env.recipients {
+        if let Some(t) = Tsk::from_key(&format!("enc-{}", r.name), &r.sk) {
+            tsks.push((t, &r.sk));
+        }
+    }
+    if tsks.len() < 20 {
+        ctx.inconclusive(format!("F4: only {} zoo keys could be taken apart", tsks.len()));
+    }
+
+    // ---- F4a parameter octets of locked keys
+    let iter0 = RefS2k::Iterated { hash: 8, salt: salt8, count: 0 };
+    let prots: Vec<Prot> = vec![
+        Prot::Cfb254 { sym: 7, s2k: iter0.clone() },
+        Prot::Cfb254 { sym: 9, s2k: RefS2k::Salted { hash: 10, salt: salt8 } },
+        Prot::Aead253 { sym: 7, aead: 2, s2k: RefS2k::Argon2 { salt: salt16, t: 1, p: 1, m: 6 } },
+        Prot::Aead253 { sym: 9, aead: 1, s2k: iter0.clone() },
+        Prot::Aead253 { sym: 8, aead: 3, s2k: iter0.clone() },
+        Prot::Malleable255 { sym: 7, s2k: iter0.clone() },
+        Prot::Malleable255 { sym: 3, s2k: RefS2k::Simple { hash: 2 } },
+        Prot::Legacy { sym: 7 },
+        Prot::Legacy { sym: 3 },
+    ];
+    let sweep_keys: Vec<usize> = {
+        // a spread of algorithms / versions; thorough: all
+        let want = ["v4-Ed25519Legacy", "v6-Ed25519", "v4-EcdsaP256", "v4-Rsa2048", "v6-Ed448", "enc-v4-EcdhCv25519", "enc-v6-X25519", "enc-v6-X448", "enc-v4-EcdhP384"];
+        tsks.iter()
+            .enumerate()
+            .filter(|(_, (t, _))| !ctx.quick() || want.contains(&t.name.as_str()))
+            .map(|(i, _)| i)
+            .collect()
+    };
+    for &ti in &sweep_keys {
+        let (t, _) = &tsks[ti];
+        for (which, sp) in t.secs.iter().enumerate() {
+            // enc-* keys: only the subkey is interesting (primary is covered by the signer keys)
+            if t.name.starts_with("enc-") && which == 0 {
+                continue;
+            }
+            if !t.name.starts_with("enc-") && which > 0 {
+                continue;
+            }
+            for (pi, prot) in prots.iter().enumerate() {
+                if sp.version == 6 && matches!(prot, Prot::Malleable255 { .. } | Prot::Legacy { .. }) && pi % 2 == 1 {
+                    continue; // one representative of the v6-illegal usages is enough
+                }
+                let mut rng0 = Ctx::fixed_rng("F4a", (ti as u64) << 16 | (which as u64) << 8 | pi as u64);
+                let Some((sec, region)) = protect(sp, prot, &sp.material, pw, &mut rng0) else {
+                    ctx.inconclusive(format!("F4a: reference cannot protect {} with {}", t.name, prot.name()));
+                    continue;
+                };
+                // sanity: the reference-locked key unlocks with the password (where the library
+                // supports the combination: v6 refuses 255/legacy, Argon2 only with AEAD)
+                {
+                    let bytes = t.with_secret(which, &sec);
+                    let r = core::guard(|| {
+                        let k = SignedSecretKey::from_bytes(&bytes[..]).ok()?;
+                        let pwd = Password::from(PW);
+                        let ok = if which == 0 {
+                            k.primary_key.unlock(&pwd, |_, _| Ok(())).ok()?.is_ok()
+                        } else {
+                            k.secret_subkeys.get(which - 1)?.key.unlock(&pwd, |_, _| Ok(())).ok()?.is_ok()
+                        };
+                        Some(ok)
+                    });
+                    match r {
+                        Ok(Some(true)) => ctx.tally("F4a.base_unlocks", 1),
+                        _ => {
+                            let expected_refusal = sp.version == 6 && matches!(prot, Prot::Malleable255 { .. } | Prot::Legacy { .. });
+                            if expected_refusal {
+                                ctx.tally("F4a.base_refused_v6_legacy_usage", 1);
+                            } else {
+                                ctx.inconclusive(format!("F4a: reference-locked {} {} does not unlock", t.name, prot.name()));
+                            }
+                        }
+                    }
+                }
+                for off in 0..region.min(sec.len()) {
+                    if !ctx.mine() {
+                        continue;
+                    }
+                    let mut obs = Obs::default();
+                    for v in 0..=255u16 {
+                        let v = v as u8;
+                        if v == sec[off] {
+                            continue;
+                        }
+                        let mut s2 = sec.clone();
+                        s2[off] = v;
+                        if let Some(so) = secret_s2k_offset(&s2, sp.version == 6) {
+                            if s2k_bytes_cost_high(s2.get(so..).unwrap_or(&[]), 0x60) {
+                                ctx.tally("F4a.skipped_expensive_kdf", 1);
+                                continue;
+                            }
+                        }
+                        let bytes = t.with_secret(which, &s2);
+                        ctx.cover(&("F4a", &t.name, which, pi, off, v));
+                        let desc = format!("F4a:{}/pkt{which}/{}/patch-off={off}", t.name, prot.name());
+                        let light = v % 16 != 0;
+                        let o = run_case(
+                            ctx,
+                            "F4",
+                            &desc,
+                            || json!({"api": "SignedSecretKey::from_bytes -> unlock/sign/decrypt/verify_bindings/to_bytes", "input": hexs(&bytes), "password": PW, "patched_secret_part_offset": off, "value": v}),
+                            || drive_tsk(&bytes, v as u64, light),
+                        );
+                        if let Some(o) = o {
+                            obs.merge(&o);
+                        }
+                    }
+                    obs.tally(ctx, "F4a");
+                    if off == 0 {
+                        ctx.seen("F4a.usage_sweep", format!("{}-{}", t.name, prot.name()));
+                    }
+                }
+                // truncation of the secret part at every length
+                if !ctx.mine() {
+                    continue;
+                }
+                let mut obs = Obs::default();
+                for cut in 0..sec.len() {
+                    if ctx.quick() && cut > region + 40 && cut % 7 != 0 {
+                        continue;
+                    }
+                    let bytes = t.with_secret(which, &sec[..cut]);
+                    ctx.cover(&("F4a-trunc", &t.name, which, pi, cut));
+                    let desc = format!("F4a:{}/pkt{which}/{}/truncate={}", t.name, prot.name(), cut.min(region + 41));
+                    let o = run_case(
+                        ctx,
+                        "F4",
+                        &desc,
+                        || json!({"api": "SignedSecretKey::from_bytes -> unlock/sign/decrypt/verify_bindings/to_bytes", "input": hexs(&bytes), "password": PW}),
+                        || drive_tsk(&bytes, cut as u64, true),
+                    );
+                    if let Some(o) = o {
+                        obs.merge(&o);
+                    }
+                }
+                obs.tally(ctx, "F4a");
+            }
+        }
+    }
+
+    // ---- F4a' keys locked by the library itself (set_password_with_s2k), then patched
+    {
+        let lib_params = |rng: &mut ChaCha8Rng, v6: bool| -> Vec<(String, S2kParams)> {
+            let mut salt = [0u8; 8];
+            rng.fill_bytes(&mut salt);
+            let mut salt16b = [0u8; 16];
+            rng.fill_bytes(&mut salt16b);
+            let mut v = vec![
+                (
+                    "lib-cfb-aes128-iter".to_string(),
+                    S2kParams::Cfb {
+                        sym_alg: SymmetricKeyAlgorithm::AES128,
+                        s2k: StringToKey::IteratedAndSalted { hash_alg: HashAlgorithm::Sha256, salt, count: 0 },
+                        iv: rnd_bytes(rng, 16).into(),
+                    },
+                ),
+                (
+                    "lib-aead-aes256-ocb-argon2".to_string(),
+                    S2kParams::Aead {
+                        sym_alg: SymmetricKeyAlgorithm::AES256,
+                        aead_mode: AeadAlgorithm::Ocb,
+                        s2k: StringToKey::Argon2 { salt: salt16b, t: 1, p: 1, m_enc: 6 },
+                        nonce: rnd_bytes(rng, 15).into(),
+                    },
+                ),
+                (
+                    "lib-aead-aes128-gcm-iter".to_string(),
+                    S2kParams::Aead {
+                        sym_alg: SymmetricKeyAlgorithm::AES128,
+                        aead_mode: AeadAlgorithm::Gcm,
+                        s2k: StringToKey::IteratedAndSalted { hash_alg: HashAlgorithm::Sha512, salt, count: 1 },
+                        nonce: rnd_bytes(rng, 12).into(),
+                    },
+                ),
+            ];
+            if !v6 {
+                v.push((
+                    "lib-cfb-cast5-salted".to_string(),
+                    S2kParams::Cfb {
+                        sym_alg: SymmetricKeyAlgorithm::CAST5,
+                        s2k: StringToKey::Salted { hash_alg: HashAlgorithm::Sha256, salt },
+                        iv: rnd_bytes(rng, 8).into(),
+                    },
+                ));
+            }
+            v
+        };
+        let lib_keys: Vec<usize> = tsks
+            .iter()
+            .enumerate()
+            .filter(|(_, (t, _))| ["v4-Ed25519Legacy", "v6-Ed25519", "enc-v4-EcdhP256", "enc-v6-X25519", "v4-Dsa2048"].contains(&t.name.as_str()) || !ctx.quick())
+            .map(|(i, _)| i)
+            .collect();
+        for &ti in &lib_keys {
+            let (t, key) = &tsks[ti];
+            let v6 = t.secs.first().map(|s| s.version == 6).unwrap_or(false);
+            let mut rng0 = Ctx::fixed_rng("F4lib", ti as u64);
+            for (pname, params) in lib_params(&mut rng0, v6) {
+                let mut k = (*key).clone();
+                let pwd = Password::from(PW);
+                let which = if t.name.starts_with("enc-") { 1usize } else { 0 };
+                let r = if which == 0 {
+                    k.primary_key.set_password_with_s2k(&pwd, params.clone())
+                } else {
+                    match k.secret_subkeys.get_mut(0) {
+                        Some(s) => s.key.set_password_with_s2k(&pwd, params.clone()),
+                        None => continue,
+                    }
+                };
+                if r.is_err() {
+                    ctx.inconclusive(format!("F4lib: set_password_with_s2k({pname}) failed for {}", t.name));
+                    continue;
+                }
+                let Ok(bytes0) = k.to_bytes() else { continue };
+                let Ok(raw) = rfc::frame::deframe(&bytes0) else { continue };
+                let Some(sp) = t.secs.get(which) else { continue };
+                let Some(rp) = raw.get(sp.idx) else { continue };
+                let pl = sp.pub_body.len();
+                if rp.body.len() <= pl {
+                    continue;
+                }
+                let sec = rp.body[pl..].to_vec();
+                // parameter region: everything up to the encrypted blob; take the first 48 octets
+                // (usage, lengths, cipher, aead, S2K, IV/nonce all lie within)
+                let region = sec.len().min(48);
+                ctx.tally("F4lib.bases", 1);
+                for off in 0..region {
+                    if !ctx.mine() {
+                        continue;
+                    }
+                    let mut obs = Obs::default();
+                    for v in 0..=255u16 {
+                        let v = v as u8;
+                        if v == sec[off] {
+                            continue;
+                        }
+                        let mut s2 = sec.clone();
+                        s2[off] = v;
+                        if let Some(so) = secret_s2k_offset(&s2, v6) {
+                            if s2k_bytes_cost_high(s2.get(so..).unwrap_or(&[]), 0x60) {
+                                ctx.tally("F4lib.skipped_expensive_kdf", 1);
+                                continue;
+                            }
+                        }
+                        let bytes = t.with_secret(which, &s2);
+                        ctx.cover(&("F4lib", &t.name, &pname, off, v));
+                        let desc = format!("F4lib:{}/pkt{which}/{pname}/patch-off={off}", t.name);
+                        let o = run_case(
+                            ctx,
+                            "F4",
+                            &desc,
+                            || json!({"api": "SignedSecretKey::from_bytes -> unlock/sign/decrypt/verify_bindings/to_bytes", "input": hexs(&bytes), "password": PW, "patched_secret_part_offset": off, "value": v}),
+                            || drive_tsk(&bytes, v as u64, v % 16 != 0),
+                        );
+                        if let Some(o) = o {
+                            obs.merge(&o);
+                        }
+                    }
+                    obs.tally(ctx, "F4lib");
+                }
+            }
+        }
+    }
+
+    // ---- F4b attacker-chosen secret material behind valid protection
+    let prots_b: Vec<Prot> = vec![
+        Prot::Plain,
+        Prot::Cfb254 { sym: 7, s2k: iter0.clone() },
+        Prot::Aead253 { sym: 7, aead: 2, s2k: iter0.clone() },
+        Prot::Malleable255 { sym: 7, s2k: iter0.clone() },
+        Prot::Legacy { sym: 7 },
+    ];
+    for (ti, (t, _)) in tsks.iter().enumerate() {
+        for (which, sp) in t.secs.iter().enumerate() {
+            if t.name.starts_with("enc-") && which == 0 {
+                continue;
+            }
+            let mut rng0 = Ctx::fixed_rng("F4b", (ti as u64) << 8 | which as u64);
+            let mats = hostile_materials(&sp.material, sp.alg, &mut rng0, !ctx.quick());
+            ctx.tally("F4b.materials", mats.len() as u64);
+            for (mi, (mname, mat)) in mats.iter().enumerate() {
+                if !ctx.mine() {
+                    continue;
+                }
+                let mut rng = ctx.rng("F4b", (ti as u64) << 24 | (which as u64) << 16 | mi as u64);
+                let mut obs = Obs::default();
+                for (pi, prot) in prots_b.iter().enumerate() {
+                    if sp.version == 6 && pi >= 3 {
+                        continue;
+                    }
+                    // quick: the plain form for every variant, protected forms for a rotating one
+                    if ctx.quick() && pi != 0 && (mi + pi) % 3 != 0 {
+                        continue;
+                    }
+                    let Some((sec, _)) = protect(sp, prot, mat, pw, &mut rng) else { continue };
+                    let bytes = t.with_secret(which, &sec);
+                    ctx.cover(&("F4b", &t.name, which, mname, pi));
+                    let desc = format!("F4b:{}/pkt{which}/alg={}/{}/material={mname}", t.name, sp.alg, prot.name());
+                    let o = run_case(
+                        ctx,
+                        "F4",
+                        &desc,
+                        || json!({"api": "SignedSecretKey::from_bytes -> unlock/sign/decrypt/verify_bindings/to_bytes", "input": hexs(&bytes), "password": PW, "secret_material": hexs(mat)}),
+                        || drive_tsk(&bytes, mi as u64, mi % 8 != 0),
+                    );
+                    if let Some(o) = o {
+                        if mname == "genuine" && o.signed == 0 && o.decrypted == 0 {
+                            let refused = sp.version == 6 && pi >= 3;
+                            if !refused {
+                                ctx.inconclusive(format!("F4b: genuine material of {} under {} neither signs nor decrypts", t.name, prot.name()));
+                            }
+                        }
+                        obs.merge(&o);
+                    }
+                }
+                obs.tally(ctx, "F4b");
+            }
+            ctx.seen("F4b.algorithms", format!("{}-alg{}-v{}", if which == 0 { "primary" } else { "subkey" }, sp.alg, sp.version));
+        }
+    }
+}
+
+// ------------------------------------------------------------------------------------------
+// F4c: certificates whose self-signatures verify although their subpacket areas are hostile
+
+fn f4c(ctx: &mut Ctx) {
+    for v6 in [false, true] {
+        let alg = if v6 { zoo::Alg::Ed25519 } else { zoo::Alg::Ed25519Legacy };
+        let mut spec = zoo::Spec::simple(v6, alg.clone(), None);
+        spec.sign_sub = Some(alg);
+        let key = zoo::key(&spec, 0);
+        let kname = if v6 { "v6-Ed25519+signing-subkey" } else { "v4-Ed25519Legacy+signing-subkey" };
+        let Ok(bytes) = key.to_bytes() else { continue };
+        let Ok(raw) = rfc::frame::deframe(&bytes) else { continue };
+        let Some(ui) = raw.iter().position(|p| p.tag == 13) else { continue };
+        let Some(si) = raw.iter().position(|p| p.tag == 7) else { continue };
+        if ui + 1 >= raw.len() || si + 1 >= raw.len() || raw[ui + 1].tag != 2 || raw[si + 1].tag != 2 {
+            ctx.inconclusive("F4c: unexpected packet layout of the generated key");
+            continue;
+        }
+        let Ok(cert_sig) = rfc::sig::parse_sig(&raw[ui + 1].body) else { continue };
+        let Ok(bind_sig) = rfc::sig::parse_sig(&raw[si + 1].body) else { continue };
+        let Some(sub) = key.secret_subkeys.first() else { continue };
+        let Ok(prim_pub) = key.primary_key.public_key().to_bytes() else { continue };
+        let Ok(sub_pub) = sub.key.public_key().to_bytes() else { continue };
+        let kf = rfc::sig::key_hash_framing(&prim_pub);
+        let sf = rfc::sig::key_hash_framing(&sub_pub);
+        let uf = rfc::sig::uid_hash_framing(if v6 { 6 } else { 4 }, false, &raw[ui].body);
+        let assemble = |cert: Option<Vec<u8>>, bind: Option<Vec<u8>>, secret: bool| -> Vec<u8> {
+            let mut out = vec![];
+            for (i, p) in raw.iter().enumerate() {
+                let mut tag = p.tag;
+                let mut body = p.body.clone();
+                if i == ui + 1 {
+                    if let Some(c) = &cert {
+                        body = c.clone();
+                    }
+                }
+                if i == si + 1 {
+                    if let Some(b) = &bind {
+                        body = b.clone();
+                    }
+                }
+                if !secret {
+                    if tag == 5 {
+                        tag = 6;
+                        body = prim_pub.clone();
+                    } else if tag == 7 {
+                        tag = 14;
+                        body = sub_pub.clone();
+                    }
+                }
+                out.extend(pkt(tag, &body));
+            }
+            out
+        };
+        // sanity: re-signing with the genuine areas verifies
+        {
+            let mut rng = Ctx::fixed_rng("F4c", v6 as u64);
+            let c = crafted_sig_over(&key.primary_key, cert_sig.typ, &[&kf, &uf], cert_sig.hashed.clone(), cert_sig.unhashed.clone(), &mut rng);
+            let b = crafted_sig_over(&key.primary_key, 0x18, &[&kf, &sf], bind_sig.hashed.clone(), bind_sig.unhashed.clone(), &mut rng);
+            let ok = match (c, b) {
+                (Some(c), Some(b)) => {
+                    let t = assemble(Some(c), Some(b), false);
+                    matches!(core::guard(|| SignedPublicKey::from_bytes(&t[..]).ok().map(|k| k.verify_bindings().is_ok())), Ok(Some(true)))
+                }
+                _ => false,
+            };
+            if ok {
+                ctx.tally("F4c.base_verifies", 1);
+            } else {
+                ctx.inconclusive(format!("F4c: re-signed base certificate {kname} does not verify"));
+            }
+        }
+        // the embedded back signature of the genuine binding (hashed or unhashed area)
+        let genuine_embedded: Vec<u8> = rfc::sig::parse_subpackets(&bind_sig.hashed)
+            .ok()
+            .into_iter()
+            .flatten()
+            .chain(rfc::sig::parse_subpackets(&bind_sig.unhashed).ok().into_iter().flatten())
+            .find(|sp| sp.typ == 32)
+            .map(|sp| sp.body)
+            .unwrap_or_default();
+        for id in 0..=127u8 {
+            if !ctx.mine() {
+                continue;
+            }
+            let mut rng = ctx.rng("F4c", (v6 as u64) << 8 | id as u64);
+            let mut obs = Obs::default();
+            let typical: usize = match id {
+                2 | 3 | 9 => 4,
+                4 | 7 | 25 => 1,
+                5 => 2,
+                12 => 22,
+                16 => 8,
+                27 | 30 => 1,
+                33 | 35 => if v6 { 33 } else { 21 },
+                _ => 5,
+            };
+            for blen in [0usize, 1, 2, 3, typical, typical + 1, 40] {
+                for critical in [false, true] {
+                    let sp = raw_subpacket(id, critical, &rnd_bytes(&mut rng, blen));
+                    for target in 0..4u8 {
+                        // 0: uid certification hashed (appended), 1: uid certification unhashed,
+                        // 2: subkey binding hashed (appended), 3: replaces the whole hashed area
+                        let (cert, bind) = match target {
+                            0 => (crafted_sig_over(&key.primary_key, cert_sig.typ, &[&kf, &uf], [cert_sig.hashed.clone(), sp.clone()].concat(), cert_sig.unhashed.clone(), &mut rng), None),
+                            1 => (crafted_sig_over(&key.primary_key, cert_sig.typ, &[&kf, &uf], cert_sig.hashed.clone(), [cert_sig.unhashed.clone(), sp.clone()].concat(), &mut rng), None),
+                            2 => (None, crafted_sig_over(&key.primary_key, 0x18, &[&kf, &sf], [bind_sig.hashed.clone(), sp.clone()].concat(), bind_sig.unhashed.clone(), &mut rng)),
+                            _ => (crafted_sig_over(&key.primary_key, cert_sig.typ, &[&kf, &uf], sp.clone(), vec![], &mut rng), None),
+                        };
+                        if cert.is_none() && bind.is_none() {
+                            continue;
+                        }
+                        let secret = (blen + target as usize) % 2 == 0;
+                        let t = assemble(cert, bind, secret);
+                        ctx.cover(&("F4c", v6, id, blen, critical, target));
+                        let desc = format!("F4c:{kname}/subpacket-id={id}/len-class={}/critical={critical}/target={target}", if blen == typical { 9 } else { blen.min(8) });
+                        let o = run_case(
+                            ctx,
+                            "F4",
+                            &desc,
+                            || json!({"api": "Signed{Public,Secret}Key::from_bytes -> verify_bindings / accessors / to_bytes", "input": hexs(&t)}),
+                            || {
+                                let mut o = Obs::default();
+                                if secret {
+                                    match SignedSecretKey::from_bytes(&t[..]) {
+                                        Ok(k) => exercise_secret_key_opts(&k, &[Password::empty()], 1, false, 0x60, &mut o),
+                                        Err(_) => o.errs += 1,
+                                    }
+                                } else {
+                                    match SignedPublicKey::from_bytes(&t[..]) {
+                                        Ok(k) => exercise_public_key(&k, &mut o),
+                                        Err(_) => o.errs += 1,
+                                    }
+                                }
+                                o
+                            },
+                        );
+                        if let Some(o) = o {
+                            obs.merge(&o);
+                        }
+                    }
+                }
+            }
+            obs.tally(ctx, "F4c");
+            ctx.seen("F4c.subpacket_ids", format!("v{}-{id}", if v6 { 6 } else { 4 }));
+        }
+        // embedded (back) signature variations in the subkey binding
+        let variants: Vec<(&str, Vec<u8>)> = vec![
+            ("genuine", genuine_embedded.clone()),
+            ("empty", vec![]),
+            ("one-octet", vec![4]),
+            ("garbage", vec![4, 0x19, 22, 8, 0, 0]),
+            ("truncated-half", genuine_embedded[..genuine_embedded.len() / 2].to_vec()),
+            ("wrong-type-0x18", {
+                let mut g = genuine_embedded.clone();
+                if g.len() > 1 {
+                    g[1] = 0x18;
+                }
+                g
+            }),
+            ("version-3", {
+                let mut g = genuine_embedded.clone();
+                if !g.is_empty() {
+                    g[0] = 3;
+                }
+                g
+            }),
+            ("version-255", {
+                let mut g = genuine_embedded.clone();
+                if !g.is_empty() {
+                    g[0] = 255;
+                }
+                g
+            }),
+            ("nested-10", nested_embedded_sig(10, v6, true)),
+            ("nested-200", nested_embedded_sig(200, v6, false)),
+            ("back-sig-with-hostile-subpacket", {
+                let mut rng = Ctx::fixed_rng("F4c-back", v6 as u64);
+                crafted_sig_over(&sub.key, 0x19, &[&kf, &sf], [rfc::sig::encode_subpacket(2, false, &[0x65, 0, 0, 0], 0), raw_subpacket(27, true, &[])].concat(), vec![], &mut rng).unwrap_or_default()
+            }),
+            ("back-sig-by-primary", {
+                let mut rng = Ctx::fixed_rng("F4c-back2", v6 as u64);
+                crafted_sig_over(&key.primary_key, 0x19, &[&kf, &sf], rfc::sig::encode_subpacket(2, false, &[0x65, 0, 0, 0], 0), vec![], &mut rng).unwrap_or_default()
+            }),
+        ];
+        for (vn, emb) in &variants {
+            if !ctx.mine() {
+                continue;
+            }
+            let mut rng = ctx.rng("F4c-emb", v6 as u64);
+            let mut obs = Obs::default();
+            // remove the genuine embedded signature from both areas, then add the variant
+            let strip = |area: &[u8]| -> Vec<u8> {
+                let mut o = vec![];
+                for sp in rfc::sig::parse_subpackets(area).ok().into_iter().flatten() {
+                    if sp.typ != 32 {
+                        o.extend(raw_subpacket(sp.typ, sp.critical, &sp.body));
+                    }
+                }
+                o
+            };
+            for (place, critical, times) in [("hashed", false, 1usize), ("hashed", true, 1), ("unhashed", false, 1), ("hashed", false, 3), ("both", false, 1)] {
+                let mut h = strip(&bind_sig.hashed);
+                let mut u = strip(&bind_sig.unhashed);
+                for _ in 0..times {
+                    let sp = raw_subpacket(32, critical, emb);
+                    match place {
+                        "hashed" => h.extend(sp),
+                        "unhashed" => u.extend(sp),
+                        _ => {
+                            h.extend(sp.clone());
+                            u.extend(sp);
+                        }
+                    }
+                }
+                let Some(b) = crafted_sig_over(&key.primary_key, 0x18, &[&kf, &sf], h, u, &mut rng) else { continue };
+                for secret in [false, true] {
+                    let t = assemble(None, Some(b.clone()), secret);
+                    ctx.cover(&("F4c-emb", v6, vn, place, critical, times, secret));
+                    let desc = format!("F4c:{kname}/embedded-signature={vn}/{place}/critical={critical}/x{times}/secret={secret}");
+                    let o = run_case(
+                        ctx,
+                        "F4",
+                        &desc,
+                        || json!({"api": "Signed{Public,Secret}Key::from_bytes -> verify_bindings / accessors / to_bytes", "input": hexs(&t)}),
+                        || {
+                            let mut o = Obs::default();
+                            if secret {
+                                match SignedSecretKey::from_bytes(&t[..]) {
+                                    Ok(k) => exercise_secret_key_opts(&k, &[Password::empty()], 1, false, 0x60, &mut o),
+                                    Err(_) => o.errs += 1,
+                                }
+                            } else {
+                                match SignedPublicKey::from_bytes(&t[..]) {
+                                    Ok(k) => exercise_public_key(&k, &mut o),
+                                    Err(_) => o.errs += 1,
+                                }
+                            }
+                            o
+                        },
+                    );
+                    if let Some(o) = o {
+                        if *vn == "genuine" && place == "hashed" && !critical && times == 1 && o.verified_err > 0 && o.verified_ok == 0 {
+                            ctx.tally("F4c.genuine_embedded_not_verified", 1);
+                        }
+                        obs.merge(&o);
+                    }
+                }
+            }
+            obs.tally(ctx, "F4c");
+        }
+    }
+}
+
+// ------------------------------------------------------------------------------------------
+// F5: attacker-chosen inner packet streams behind valid encryption / compression
+
+fn compress(algo: u8, data: &[u8]) -> Vec<u8> {
+    use std::io::Write;
+    let mut body = vec![algo];
+    match algo {
+        1 => {
+            let mut e = flate2::write::DeflateEncoder::new(Vec::new(), flate2::Compression::fast());
+            let _ = e.write_all(data);
+            body.extend(e.finish().unwrap_or_default());
+        }
+        2 => {
+            let mut e = flate2::write::ZlibEncoder::new(Vec::new(), flate2::Compression::fast());
+            let _ = e.write_all(data);
+            body.extend(e.finish().unwrap_or_default());
+        }
+        _ => body.extend_from_slice(data),
+    }
+    body
+}
+
+/// stored (level 0) deflate: nesting stays linear in size (level 1 expands incompressible input)
+fn compress_stored(algo: u8, data: &[u8]) -> Vec<u8> {
+    use std::io::Write;
+    let mut body = vec![algo];
+    match algo {
+        1 => {
+            let mut e = flate2::write::DeflateEncoder::new(Vec::new(), flate2::Compression::none());
+            let _ = e.write_all(data);
+            body.extend(e.finish().unwrap_or_default());
+        }
+        2 => {
+            let mut e = flate2::write::ZlibEncoder::new(Vec::new(), flate2::Compression::none());
+            let _ = e.write_all(data);
+            body.extend(e.finish().unwrap_or_default());
+        }
+        _ => body.extend_from_slice(data),
+    }
+    body
+}
+
+fn compressed_pkt(algo: u8, data: &[u8]) -> Vec<u8> {
+    pkt(8, &compress(algo, data))
+}
+
+/// A v4 / v6 document signature that *verifies* although its subpacket areas are arbitrary
+/// octets: the digest is computed by the reference over the crafted hashed area and signed raw.
+fn crafted_signature(
+    signer: &SignedSecretKey,
+    doc: &[u8],
+    typ: u8,
+    hashed: Vec<u8>,
+    unhashed: Vec<u8>,
+    salt: Vec<u8>,
+) -> Option<(Vec<u8>, rfc::sig::RefSig)> {
+    let v6 = u8::from(signer.version()) == 6;
+    let mut rs = rfc::sig::RefSig {
+        version: if v6 { 6 } else { 4 },
+        typ,
+        pub_alg: u8::from(signer.algorithm()),
+        hash_alg: if v6 { 10 } else { 8 },
+        created: 0,
+        issuer: [0u8; 8],
+        hashed,
+        unhashed,
+        left16: [0, 0],
+        salt,
+        sig_data: vec![],
+        off_hashed: 0,
+        off_unhashed: 0,
+off_left16: 0,
+        off_salt: 0,
+        off_sig: 0,
+    };
+    let digest = rs.digest_document(doc)?;
+    rs.left16 = [digest[0], digest[1]];
+    let ha = if v6 { HashAlgorithm::Sha512 } else { HashAlgorithm::Sha256 };
+    let sb = signer.primary_key.sign(&Password::empty(), ha, &digest).ok()?;
+    let mut data = vec![];
+    match &sb {
+        pgp::types::SignatureBytes::Mpis(m) => {
+            for x in m {
+                data.extend(x.to_bytes().ok()?);
+            }
+        }
+        pgp::types::SignatureBytes::Native(b) => data.extend_from_slice(b),
+    }
+    rs.sig_data = data;
+    Some((rs.encode(), rs))
+}
+
+/// Like `crafted_signature`, over arbitrary pre-framed content (key / user id framing), signed
+/// raw with `key`.
+#[allow(clippy::too_many_arguments)]
+fn crafted_sig_over(
+    key: &dyn SigningKey,
+    typ: u8,
+    content: &[&[u8]],
+    hashed: Vec<u8>,
+    unhashed: Vec<u8>,
+    rng: &mut ChaCha8Rng,
+) -> Option<Vec<u8>> {
+    let v6 = u8::from(key.version()) == 6;
+    let mut rs = rfc::sig::RefSig {
+        version: if v6 { 6 } else { 4 },
+        typ,
+        pub_alg: u8::from(key.algorithm()),
+        hash_alg: if v6 { 10 } else { 8 },
+        created: 0,
+        issuer: [0u8; 8],
+        hashed,
+        unhashed,
+        left16: [0, 0],
+        salt: if v6 { rnd_bytes(rng, 32) } else { vec![] },
+        sig_data: vec![],
+        off_hashed: 0,
+        off_unhashed: 0,
+        off_left16: 0,
+        off_salt: 0,
+        off_sig: 0,
+    };
+    let digest = rs.digest_over(content)?;
+    rs.left16 = [digest[0], digest[1]];
+    let ha = if v6 { HashAlgorithm::Sha512 } else { HashAlgorithm::Sha256 };
+    let sb = key.sign(&Password::empty(), ha, &digest).ok()?;
+    let mut data = vec![];
+    match &sb {
+        pgp::types::SignatureBytes::Mpis(m) => {
+            for x in m {
+                data.extend(x.to_bytes().ok()?);
+            }
+        }
+        pgp::types::SignatureBytes::Native(b) => data.extend_from_slice(b),
+    }
+    rs.sig_data = data;
+    Some(rs.encode())
+}
+
+/// raw subpacket with the minimal length form that fits (no assertions)
+fn raw_subpacket(id: u8, critical: bool, body: &[u8]) -> Vec<u8> {
+    let len = body.len() + 1;
+    let mut o = vec![];
+    if len < 192 {
+        o.push(len as u8);
+    } else if len < 16320 {
+        let v = len - 192;
+        o.push((v >> 8) as u8 + 192);
+        o.push(v as u8);
+    } else {
+        o.push(255);
+        o.extend((len as u32).to_be_bytes());
+    }
+    o.push(id | if critical { 0x80 } else { 0 });
+    o.extend_from_slice(body);
+    o
+}
+
+/// `depth` signatures nested through Embedded Signature subpackets (v4: 2-octet area lengths,
+/// v6: 4-octet). Not cryptographically valid; the parser recursion is what is exercised.
+fn nested_embedded_sig(depth: usize, v6: bool, hashed_area: bool) -> Vec<u8> {
+    let mpis = [0u8, 1, 1, 0, 1, 1];
+    let mut inner: Vec<u8> = if v6 {
+        let mut b = vec![6u8, 0x19, 27, 10, 0, 0, 0, 0, 0, 0, 0, 0, 0xAA, 0xBB, 32];
+        b.extend_from_slice(&[0x11; 32]);
+        b.extend_from_slice(&[0x22; 64]);
+        b
+    } else {
+        let mut b = vec![4u8, 0x19, 22, 8, 0, 0, 0, 0, 0xAA, 0xBB];
+        b.extend_from_slice(&mpis);
+        b
+    };
+    for _ in 0..depth {
+        let sp = raw_subpacket(32, false, &inner);
+        let (h, u): (&[u8], &[u8]) = if hashed_area { (&sp, &[]) } else { (&[], &sp) };
+        let mut b = if v6 { vec![6u8, 0x00, 27, 10] } else { vec![4u8, 0x00, 22, 8] };
+        if v6 {
+            b.extend((h.len() as u32).to_be_bytes());
+            b.extend_from_slice(h);
+            b.extend((u.len() as u32).to_be_bytes());
+            b.extend_from_slice(u);
+            b.extend_from_slice(&[0xAA, 0xBB, 32]);
+            b.extend_from_slice(&[0x11; 32]);
+            b.extend_from_slice(&[0x22; 64]);
+        } else {
+            if h.len() > 0xFFFF || u.len() > 0xFFFF {
+                break;
+            }
+            b.extend((h.len() as u16).to_be_bytes());
+            b.extend_from_slice(h);
+            b.extend((u.len() as u16).to_be_bytes());
+            b.extend_from_slice(u);
+            b.extend_from_slice(&[0xAA, 0xBB]);
+            b.extend_from_slice(&mpis);
+        }
+        inner = b;
+    }
+    inner
+}
+
+fn ops_for(rs: &rfc::sig::RefSig, signer: &SignedSecretKey, last: u8) -> Vec<u8> {
+    let issuer = if rs.version == 6 {
+        signer.fingerprint().as_bytes().to_vec()
+    } else {
+        signer.legacy_key_id().as_ref().to_vec()
+    };
+    rfc::sig::RefOps {
+        version: if rs.version == 6 { 6 } else { 3 },
+        typ: rs.typ,
+        hash_alg: rs.hash_alg,
+        pub_alg: rs.pub_alg,
+        salt: rs.salt.clone(),
+        issuer,
+        last,
+    }
+    .encode()
+}
+
+struct F5Env<'a> {
+    key16: [u8; 16],
+    signer4: &'a SignedSecretKey,
+    signer6: &'a SignedSecretKey,
+    pub4: &'a SignedPublicKey,
+    pub6: &'a SignedPublicKey,
+}
+
+/// wrap kinds: 0 bare, 1 SEIPDv1, 2 SEIPDv2, 3 compressed(zlib) in SEIPDv1, 4 compressed(algo 0)
+/// bare, 5 compressed(zip) in SEIPDv2, 6 SEIPDv1 with partial body framing
+fn wrap(kind: u8, inner: &[u8], e: &F5Env<'_>, rng: &mut ChaCha8Rng) -> Vec<u8> {
+    let v1 = |d: &[u8], rng: &mut ChaCha8Rng| -> Vec<u8> {
+        let mut b = vec![1u8];
+        b.extend(rfc::sym::seipd_v1_encrypt(7, &e.key16, &rnd_bytes(rng, 16), d).unwrap_or_default());
+        b
+    };
+    let v2 = |d: &[u8], rng: &mut ChaCha8Rng| -> Vec<u8> {
+        let mut salt = [0u8; 32];
+        rng.fill_bytes(&mut salt);
+        rfc::sym::seipd_v2_encrypt(7, 2, 0, &salt, &e.key16, d).unwrap_or_default()
+    };
+    match kind {
+        0 => inner.to_vec(),
+        1 => pkt(18, &v1(inner, rng)),
+        2 => pkt(18, &v2(inner, rng)),
+        3 => pkt(18, &v1(&compressed_pkt(2, inner), rng)),
+        4 => compressed_pkt(0, inner),
+        5 => pkt(18, &v2(&compressed_pkt(1, inner), rng)),
+        _ => {
+            let body = v1(inner, rng);
+            if body.len() > 600 {
+                rfc::frame::frame(18, &body, &rfc::frame::LenForm::Partial(vec![512], Box::new(rfc::frame::LenForm::NewMin))).unwrap_or_else(|| pkt(18, &body))
+            } else {
+                pkt5(18, &body)
+            }
+        }
+    }
+}
+
+fn f5_means<'a>(e: &'a F5Env<'a>) -> Means<'a> {
+    Means {
+        session: vec![
+            PlainSessionKey::V3_4 { sym_alg: SymmetricKeyAlgorithm::AES128, key: e.key16.to_vec().into() },
+            PlainSessionKey::V6 { key: e.key16.to_vec().into() },
+        ],
+        verifiers: vec![e.pub4, e.pub6],
+        ..Means::none()
+    }
+}
+
+/// The ring stops at the first session key when `abort_early`; the right kind for the container
+/// is put first.
+fn f5_drive(bytes: &[u8], kind: u8, e: &F5Env<'_>, variant: u64, max_layers: usize) -> Obs {
+    let mut o = Obs::default();
+    let mut means = f5_means(e);
+    if matches!(kind, 2 | 5) {
+        means.session.swap(0, 1);
+    }
+    means.max_layers = max_layers;
+    match Message::from_bytes(bytes) {
+        // even variants: abort_early (first key), odd: all keys must agree -> only one given
+        Ok(m) => {
+            if variant % 2 == 1 {
+                means.session.truncate(1);
+            }
+            drive_message(m, &means, variant, &mut o)
+        }
+        Err(_) => o.errs += 1,
+    }
+    o
+}
+
+fn f5_streams(e: &F5Env<'_>, rng: &mut ChaCha8Rng, thorough: bool) -> Vec<(String, Vec<u8>)> {
+    let mut out: Vec<(String, Vec<u8>)> = vec![];
+    let doc = b"signed document\r\nline two\n";
+    let lit = literal(doc);
+    // symbols
+    let (sig4, rs4) = crafted_signature(e.signer4, doc, 0, rfc::sig::encode_subpacket(2, false, &[0x65, 0, 0, 0], 0), vec![], vec![]).unwrap_or_default_pair();
+    let (sig6, rs6) = crafted_signature(e.signer6, doc, 0, rfc::sig::encode_subpacket(2, false, &[0x65, 0, 0, 0], 0), vec![], rnd_bytes(rng, 32)).unwrap_or_default_pair();
+    let ops4 = ops_for(&rs4, e.signer4, 1);
+    let ops6 = ops_for(&rs6, e.signer6, 1);
+    let pubkey = e.pub4.primary_key.to_bytes().unwrap_or_default();
+    let syms: Vec<(&str, Vec<u8>)> = vec![
+        ("L", lit.clone()),
+        ("C", compressed_pkt(2, &lit)),
+        ("O4", pkt(4, &ops4)),
+        ("O6", pkt(4, &ops6)),
+        ("S4", pkt(2, &sig4)),
+        ("S6", pkt(2, &sig6)),
+        ("M", pkt(10, b"PGP")),
+        ("P", pkt(21, &[0u8; 5])),
+        ("T", pkt(12, &[1, 2])),
+        ("U", pkt(13, b"uid")),
+        ("K", pkt(6, &pubkey)),
+        ("E", pkt(3, &[4, 7, 0, 8])),
+        ("D", pkt(18, &[1, 2, 3])),
+        ("X", pkt(19, &[0u8; 20])),
+        ("Q", pkt(60, &[9, 9])),
+        ("R", pkt(0, &[1])),
+    ];
+    // valid signed forms (sanity anchors)
+    out.push(("valid/ops4-lit-sig4".into(), [syms[2].1.clone(), lit.clone(), syms[4].1.clone()].concat()));
+    out.push(("valid/ops6-lit-sig6".into(), [syms[3].1.clone(), lit.clone(), syms[5].1.clone()].concat()));
+    out.push(("valid/sig4-lit".into(), [syms[4].1.clone(), lit.clone()].concat()));
+    out.push(("valid/lit".into(), lit.clone()));
+    // 1. every sequence of length <= 3 (thorough: <= 4 sampled) over the symbols
+    let n = syms.len();
+    for a in 0..n {
+        out.push((format!("seq/{}", syms[a].0), syms[a].1.clone()));
+        for b in 0..n {
+            out.push((format!("seq/{}-{}", syms[a].0, syms[b].0), [syms[a].1.clone(), syms[b].1.clone()].concat()));
+            for c in 0..n {
+                if !thorough && (a * 7 + b * 3 + c) % 3 != 0 {
+                    continue;
+                }
+                out.push((
+                    format!("seq/{}-{}-{}", syms[a].0, syms[b].0, syms[c].0),
+                    [syms[a].1.clone(), syms[b].1.clone(), syms[c].1.clone()].concat(),
+                ));
+            }
+        }
+    }
+    let k = if thorough { 6000 } else { 600 };
+    for i in 0..k {
+        let len = 4 + (i % 5);
+        let mut v = vec![];
+        let mut name = String::from("seq");
+        for _ in 0..len {
+            let x = rng.gen_range(0..n);
+            name.push(if name.len() == 3 { '/' } else { '-' });
+            name.push_str(syms[x].0);
+            v.extend_from_slice(&syms[x].1);
+        }
+        out.push((name, v));
+    }
+    // 2. truncation of the valid forms at every byte
+    for base in 0..3 {
+        let (bn, b) = out[base].clone();
+        for cut in 0..b.len() {
+            out.push((format!("trunc/{bn}@{}", cut.min(300)), b[..cut].to_vec()));
+        }
+    }
+    // 3. length forms
+    let big = {
+        let mut b = vec![b'b', 0, 0, 0, 0, 0];
+        b.extend(rnd_bytes(rng, 1500));
+        b
+    };
+    use rfc::frame::LenForm as LF;
+    for (nm, form) in [
+        ("partial-512-rest", LF::Partial(vec![512], Box::new(LF::NewMin))),
+        ("partial-512-512-rest", LF::Partial(vec![512, 512], Box::new(LF::NewMin))),
+        ("partial-1024-rest5", LF::Partial(vec![1024], Box::new(LF::New5))),
+        ("partial-256-first-too-small", LF::Partial(vec![256], Box::new(LF::NewMin))),
+        ("partial-1-first-too-small", LF::Partial(vec![1, 1, 1], Box::new(LF::NewMin))),
+        ("partial-512-then-1s", LF::Partial(vec![512, 1, 1, 2, 4], Box::new(LF::NewMin))),
+        ("old-indeterminate", LF::OldIndeterminate),
+        ("old-4", LF::Old4),
+        ("old-2", LF::Old2),
+        ("new-5", LF::New5),
+    ] {
+        for tag in [11u8, 8, 2, 10] {
+            let body = if tag == 8 { compress(0, &literal(&big)) } else if tag == 11 { big.clone() } else { big[..100].to_vec() };
+            if let Some(f) = rfc::frame::frame(tag, &body, &form) {
+                out.push((format!("len/{nm}/tag{tag}"), f.clone()));
+                // never terminated / final chunk missing
+                out.push((format!("len/{nm}/tag{tag}/cut-tail"), f[..f.len() - f.len().min(40)].to_vec()));
+                let mut g = f.clone();
+                g.extend_from_slice(&lit);
+                out.push((format!("len/{nm}/tag{tag}/followed-by-literal"), g));
+            }
+        }
+    }
+    for (nm, hdr) in [
+        ("len-ffffffff", vec![0xCBu8, 0xFF, 0xFF, 0xFF, 0xFF, 0xFF]),
+        ("len-7fffffff", vec![0xCB, 0xFF, 0x7F, 0xFF, 0xFF, 0xFF]),
+        ("partial-2^30", vec![0xCB, 0xFE]),
+        ("partial-2^31", vec![0xCB, 0xFF - 0, 0x80, 0, 0, 0]),
+        ("old-len4-ffffffff", vec![0xAE, 0xFF, 0xFF, 0xFF, 0xFF]),
+        ("old-len2-ffff", vec![0xAD, 0xFF, 0xFF]),
+        ("two-octet-max", vec![0xCB, 223, 255]),
+        ("compressed-len-ffffffff", vec![0xC8, 0xFF, 0xFF, 0xFF, 0xFF, 0xFF, 0]),
+        ("sig-len-ffffffff", vec![0xC2, 0xFF, 0xFF, 0xFF, 0xFF, 0xFF, 4]),
+        ("ops-len-ffffffff", vec![0xC4, 0xFF, 0xFF, 0xFF, 0xFF, 0xFF, 3]),
+        ("marker-partial", vec![0xCA, 0xE9]),
+        ("tag0", vec![0xC0, 0]),
+        ("old-tag0", vec![0x80, 0]),
+        ("bit7-clear", vec![0x4B, 3, 1, 2, 3]),
+    ] {
+        for tail in [0usize, 3, 20, 600] {
+            let mut b = hdr.clone();
+            b.extend_from_slice(&big[..tail]);
+            out.push((format!("len/{nm}/tail{tail}"), b));
+        }
+    }
+    // 5. OPS / signature mismatches
+    let o4 = &syms[2].1;
+    let o6 = &syms[3].1;
+    let s4 = &syms[4].1;
+    let s6 = &syms[5].1;
+    for (nm, parts) in [
+        ("ops-only", vec![o4, &lit]),
+        ("ops-ops-lit-sig", vec![o4, o4, &lit, s4]),
+        ("ops-lit-sig-sig", vec![o4, &lit, s4, s4]),
+        ("ops4-lit-sig6", vec![o4, &lit, s6]),
+        ("ops6-lit-sig4", vec![o6, &lit, s4]),
+        ("ops4-ops6-lit-sig6-sig4", vec![o4, o6, &lit, s6, s4]),
+        ("ops4-ops6-lit-sig4-sig6", vec![o4, o6, &lit, s4, s6]),
+        ("sig-sig-lit", vec![s4, s6, &lit]),
+        ("sig-ops-lit-sig", vec![s4, o6, &lit, s6]),
+        ("ops-sig-lit-sig", vec![o4, s4, &lit, s4]),
+        ("ops-lit", vec![o6, &lit]),
+        ("ops-lit-lit-sig", vec![o4, &lit, &lit, s4]),
+        ("ops-sig", vec![o4, s4]),
+    ] {
+        let mut b = vec![];
+        for p in parts {
+            b.extend_from_slice(p);
+        }
+        out.push((format!("ops/{nm}"), b));
+    }
+    // OPS one-octet fields
+    for off in 0..ops4.len() {
+        for v in [0u8, 1, 2, 3, 4, 5, 6, 0x7F, 0x80, 0xFF] {
+            let mut o = ops4.clone();
+            o[off] = v;
+            out.push((format!("ops/v3-patch-off={off}"), [pkt(4, &o), lit.clone(), s4.clone()].concat()));
+        }
+    }
+    for off in 0..ops6.len().min(8) {
+        for v in [0u8, 1, 3, 6, 16, 31, 32, 33, 64, 0xFF] {
+            let mut o = ops6.clone();
+            o[off] = v;
+            out.push((format!("ops/v6-patch-off={off}"), [pkt(4, &o), lit.clone(), s6.clone()].concat()));
+        }
+    }
+    // 6. every subpacket id x body length 0..3 x critical, hashed and unhashed; the signature
+    //    verifies (digest computed over the crafted hashed area)
+    for id in 0..=127u8 {
+        for blen in 0..=3usize {
+            for critical in [false, true] {
+                let body = rnd_bytes(rng, blen);
+                let mut raw = vec![(blen + 1) as u8, id | if critical { 0x80 } else { 0 }];
+                raw.extend_from_slice(&body);
+                let created = rfc::sig::encode_subpacket(2, false, &[0x65, 0, 0, 0], 0);
+                let h = [created.clone(), raw.clone()].concat();
+                for (area, hashed, unhashed) in [("hashed", h.clone(), vec![]), ("unhashed", created.clone(), raw.clone())] {
+                    for v6 in [false, true] {
+                        if v6 && !thorough && (id as usize + blen) % 2 == 1 {
+                            continue;
+                        }
+                        let signer = if v6 { e.signer6 } else { e.signer4 };
+                        let salt = if v6 { rnd_bytes(rng, 32) } else { vec![] };
+                        let Some((sb, rs)) = crafted_signature(signer, doc, 0, hashed.clone(), unhashed.clone(), salt) else { continue };
+                        let nm = format!("subpkt/{area}/id={id}/len={blen}/critical={critical}/v{}", if v6 { 6 } else { 4 });
+                        if (id as usize + blen) % 2 == 0 {
+                            out.push((nm, [pkt(2, &sb), lit.clone()].concat()));
+                        } else {
+                            out.push((nm, [pkt(4, &ops_for(&rs, signer, 1)), lit.clone(), pkt(2, &sb)].concat()));
+                        }
+                    }
+                }
+            }
+        }
+    }
+    // subpacket length encodings that lie
+    for (nm, area) in [
+        ("len0", vec![0u8]),
+        ("len-beyond", vec![5, 2, 1]),
+        ("len2-short", vec![192]),
+        ("len5-short", vec![255, 0, 0]),
+        ("len5-huge", vec![255, 0xFF, 0xFF, 0xFF, 0xFF, 2]),
+        ("len2-max", vec![254, 255, 2]),
+        ("embedded-sig-empty", vec![1, 32]),
+        ("embedded-sig-garbage", vec![4, 32, 4, 0, 0]),
+    ] {
+        for hashed in [true, false] {
+            let created = rfc::sig::encode_subpacket(2, false, &[0x65, 0, 0, 0], 0);
+            let (h, u) = if hashed { ([created.clone(), area.clone()].concat(), vec![]) } else { (created.clone(), area.clone()) };
+            if let Some((sb, _)) = crafted_signature(e.signer4, doc, 0, h, u, vec![]) {
+                out.push((format!("subpkt/area-{nm}/hashed={hashed}"), [pkt(2, &sb), lit.clone()].concat()));
+            }
+        }
+    }
+    // signature packet one-octet fields (version, type, pub alg, hash alg) on a valid signature
+    for off in 0..4usize {
+        for v in 0..=255u16 {
+            if !thorough && off == 1 && v > 0x60 && v % 8 != 0 {
+                continue;
+            }
+            let mut b = sig4.clone();
+            if off < b.len() {
+                b[off] = v as u8;
+            }
+            out.push((format!("sig/v4-patch-off={off}"), [pkt(2, &b), lit.clone()].concat()));
+            if thorough || v % 4 == 0 {
+                let mut b = sig6.clone();
+                if off < b.len() {
+                    b[off] = v as u8;
+                }
+                out.push((format!("sig/v6-patch-off={off}"), [pkt(4, &ops6), lit.clone(), pkt(2, &b)].concat()));
+            }
+        }
+    }
+    // 7. floods
+    for (nm, unit) in [("marker", pkt(10, b"PGP")), ("padding", pkt(21, &[0u8; 3])), ("trust", pkt(12, &[0])), ("unknown60", pkt(60, &[1])), ("marker-bad", pkt(10, b"XYZ"))] {
+        for count in [1usize, 100, 10_000] {
+            let mut b = vec![];
+            for _ in 0..count {
+                b.extend_from_slice(&unit);
+            }
+            let mut pre = b.clone();
+            pre.extend_from_slice(&lit);
+            out.push((format!("flood/{nm}x{count}-then-literal"), pre));
+            let mut post = lit.clone();
+            post.extend_from_slice(&b);
+            out.push((format!("flood/literal-then-{nm}x{count}"), post));
+            out.push((format!("flood/{nm}x{count}-only"), b));
+        }
+    }
+    for sz in [0usize, 1, 191, 192, 8383, 8384, 70_000] {
+        out.push((format!("flood/padding-size-{sz}-then-literal"), [pkt(21, &vec![0xAAu8; sz]), lit.clone()].concat()));
+    }
+    // literal header oddities
+    for (nm, body) in [
+        ("lit-empty", vec![]),
+        ("lit-mode-only", vec![b'b']),
+        ("lit-name-len-beyond", vec![b'b', 200, b'x']),
+        ("lit-no-date", vec![b'b', 1, b'x', 0, 0]),
+        ("lit-mode-ff", vec![0xFF, 0, 0, 0, 0, 0, b'a']),
+        ("lit-text-bare-lf", vec![b'u', 0, 0, 0, 0, 0, b'a', b'\n', 0xFF]),
+        ("lit-console", [vec![b't', 8], b"_CONSOLE".to_vec(), vec![0, 0, 0, 0, b'z']].concat()),
+    ] {
+        out.push((format!("literal/{nm}"), pkt(11, &body)));
+        out.push((format!("literal/{nm}/signed"), [pkt(4, &ops4), pkt(11, &body), s4.clone()].concat()));
+    }
+    // compressed packet oddities
+    for algo in 0..=255u16 {
+        let algo = algo as u8;
+        let z = compress(2, &lit);
+        let mut b = vec![algo];
+        b.extend_from_slice(&z[1..]);
+        out.push((format!("compressed/algo={algo}/zlib-data"), pkt(8, &b)));
+        if algo < 8 {
+            out.push((format!("compressed/algo={algo}/empty"), pkt(8, &[algo])));
+            out.push((format!("compressed/algo={algo}/garbage"), pkt(8, &[&[algo][..], &rnd_bytes(rng, 40)[..]].concat())));
+            let zt = &z[..z.len() / 2];
+            out.push((format!("compressed/algo={algo}/truncated-stream"), pkt(8, &[&[algo][..], &zt[1..]].concat())));
+        }
+    }
+    out.push(("compressed/empty-body".into(), pkt(8, &[])));
+    out.push(("compressed/zlib-of-nothing".into(), compressed_pkt(2, &[])));
+    out.push(("compressed/zlib-of-garbage".into(), compressed_pkt(2, &rnd_bytes(rng, 64))));
+    out.push(("compressed/zlib-trailing-data".into(), pkt(8, &[&compress(2, &lit)[..], &[1u8, 2, 3][..]].concat())));
+    out.push(("compressed/literal-then-trailing-in-compressed".into(), compressed_pkt(2, &[&lit[..], &[0xCBu8][..]].concat())));
+    out
+}
+
+trait PairDefault {
+    fn unwrap_or_default_pair(self) -> (Vec<u8>, rfc::sig::RefSig);
+}
+impl PairDefault for Option<(Vec<u8>, rfc::sig::RefSig)> {
+    fn unwrap_or_default_pair(self) -> (Vec<u8>, rfc::sig::RefSig) {
+        self.unwrap_or_else(|| {
+            (
+                vec![4, 0, 22, 8, 0, 0, 0, 0, 0, 0],
+                rfc::sig::RefSig {
+                    version: 4,
+                    typ: 0,
+                    pub_alg: 22,
+                    hash_alg: 8,
+                    created: 0,
+                    issuer: [0; 8],
+                    hashed: vec![],
+                    unhashed: vec![],
+                    left16: [0, 0],
+                    salt: vec![],
+                    sig_data: vec![],
+                    off_hashed: 0,
+                    off_unhashed: 0,
+off_left16: 0,
+                    off_salt: 0,
+                    off_sig: 0,
+                },
+            )
+        })
+    }
+}
+
+fn f5_env(env: &Env) -> Option<F5Env<'_>> {
+    let s4 = env.signers.iter().find(|(n, _, _)| n == "v4-Ed25519Legacy")?;
+    let s6 = env.signers.iter().find(|(n, _, _)| n == "v6-Ed25519")?;
+    Some(F5Env { key16: [0x77u8; 16], signer4: &s4.1, signer6: &s6.1, pub4: &s4.2, pub6: &s6.2 })
+}
+
+/// Deep nesting. These run first: a stack overflow kills the shard process, which the driver
+/// attributes through the case description and then re-runs the shard without that case.
+fn f5_deep(ctx: &mut Ctx, env: &Env) {
+    let Some(e) = f5_env(env) else {
+        ctx.inconclusive("F5: signer keys missing");
+        return;
+    };
+    let lit = literal(b"deep");
+    let depths: Vec<usize> = if ctx.quick() { vec![10, 100, 1000, 10_000] } else { vec![10, 100, 1000, 3000, 10_000, 30_000] };
+    for &depth in &depths {
+        for algo in [0u8, 2, 1] {
+            for kind in [0u8, 1, 2] {
+                if depth > 10_000 && (algo != 0 || kind != 0) {
+                    continue;
+                }
+                if !ctx.mine() {
+                    continue;
+                }
+                core::describe_case(&format!("F5deep:generator/compression-layers={depth}/algo={algo}"));
+                let mut rng = ctx.rng("F5deep", (depth as u64) << 8 | (algo as u64) << 4 | kind as u64);
+                let mut inner = lit.clone();
+                for _ in 0..depth {
+                    inner = pkt(8, &compress_stored(algo, &inner));
+                }
+                let bytes = wrap(kind, &inner, &e, &mut rng);
+                ctx.cover(&("F5deep-comp", depth, algo, kind));
+                ctx.seen("F5.deep", format!("compression-algo{algo}-depth{depth}-wrap{kind}"));
+                let desc = format!("F5deep:compression-layers={depth}/algo={algo}/wrap={kind}/decompress-until-literal-then-read");
+                let o = run_case(
+                    ctx,
+                    "F5",
+                    &desc,
+                    || json!({"api": "Message::from_bytes -> [decrypt] -> decompress() x depth -> read_to_end -> drop", "depth": depth, "algo": algo, "input_len": bytes.len()}),
+                    || f5_drive(&bytes, kind, &e, depth as u64 * 2, depth + 8),
+                );
+                if let Some(o) = o {
+                    o.tally(ctx, "F5deep");
+                    if o.read_ok > 0 {
+                        ctx.tally("F5deep.fully_read", 1);
+                    }
+                }
+            }
+        }
+    }
+    // the same walk on a worker thread (Rust's default stack for spawned threads: 2 MiB)
+    for (depth, algo) in [(1000usize, 0u8), (10_000, 0), (1000, 2)] {
+        if !ctx.mine() {
+            continue;
+        }
+        core::describe_case(&format!("F5deep:generator/compression-layers={depth}/algo={algo}"));
+        let mut inner = lit.clone();
+        for _ in 0..depth {
+            inner = pkt(8, &compress_stored(algo, &inner));
+        }
+        ctx.cover(&("F5deep-comp-thread", depth, algo));
+        ctx.seen("F5.deep", format!("compression-algo{algo}-depth{depth}-thread-stack=2MiB"));
+        let desc = format!("F5deep:compression-layers={depth}/algo={algo}/wrap=0/thread-stack=2MiB/decompress-until-literal-then-read");
+        let o = run_case(
+            ctx,
+            "F5",
+            &desc,
+            || json!({"api": "on a 2 MiB thread: Message::from_bytes -> decompress() x depth -> read_to_end -> drop", "depth": depth, "algo": algo, "input_len": inner.len()}),
+            || on_thread(2 << 20, "Message::from_bytes -> decompress x depth -> read on a worker thread", || f5_drive(&inner, 0, &e, depth as u64 * 2, depth + 8)),
+        );
+        if let Some(Some(o)) = o {
+            o.tally(ctx, "F5deep");
+            if o.read_ok > 0 {
+                ctx.tally("F5deep.fully_read", 1);
+            }
+        }
+    }
+    // nested encryption containers (same session key at every level)
+    for &depth in &[10usize, 100, 1000] {
+        for kind in [1u8, 2] {
+            if !ctx.mine() {
+                continue;
+            }
+            core::describe_case(&format!("F5deep:generator/encryption-layers={depth}/wrap={kind}"));
+            let mut rng = ctx.rng("F5deep-enc", (depth as u64) << 4 | kind as u64);
+            let mut inner = lit.clone();
+            for _ in 0..depth {
+                inner = if kind == 2 {
+                    // 64 KiB chunks: one AEAD call per layer in the generator
+                    let mut salt = [0u8; 32];
+                    rng.fill_bytes(&mut salt);
+                    pkt(18, &rfc::sym::seipd_v2_encrypt(7, 2, 10, &salt, &e.key16, &inner).unwrap_or_default())
+                } else {
+                    wrap(kind, &inner, &e, &mut rng)
+                };
+            }
+            ctx.cover(&("F5deep-enc", depth, kind));
+            ctx.seen("F5.deep", format!("encryption-depth{depth}-wrap{kind}"));
+            let desc = format!("F5deep:encryption-layers={depth}/wrap={kind}/decrypt-until-literal-then-read");
+            let o = run_case(
+                ctx,
+                "F5",
+                &desc,
+                || json!({"api": "Message::from_bytes -> decrypt x depth -> read_to_end -> drop", "depth": depth, "input_len": inner.len()}),
+                || f5_drive(&inner, kind, &e, 0, depth + 8),
+            );
+            if let Some(o) = o {
+                o.tally(ctx, "F5deep");
+                if o.read_ok > 0 {
+                    ctx.tally("F5deep.fully_read", 1);
+                }
+            }
+        }
+    }
+    // signature / OPS nesting
+    let doc = b"deep";
+    let created = rfc::sig::encode_subpacket(2, false, &[0x65, 0, 0, 0], 0);
+    let Some((sig4, rs4)) = crafted_signature(e.signer4, doc, 0, created.clone(), vec![], vec![]) else {
+        ctx.inconclusive("F5deep: cannot craft signature");
+        return;
+    };
+    for &depth in &[10usize, 1000, 10_000] {
+        for form in 0..4u8 {
+            if !ctx.mine() {
+                continue;
+            }
+            core::describe_case(&format!("F5deep:generator/signature-layers={depth}/form={form}"));
+            let mut rng = ctx.rng("F5deep-sig", (depth as u64) << 4 | form as u64);
+            let mut b = vec![];
+            match form {
+                0 => {
+                    // OPS x n, literal, SIG x n
+                    for i in 0..depth {
+                        b.extend(pkt(4, &ops_for(&rs4, e.signer4, (i + 1 == depth) as u8)));
+                    }
+                    b.extend_from_slice(&lit);
+                    for _ in 0..depth {
+                        b.extend(pkt(2, &sig4));
+                    }
+                }
+                1 => {
+                    for _ in 0..depth {
+                        b.extend(pkt(2, &sig4));
+                    }
+                    b.extend_from_slice(&lit);
+                }
+                2 => {
+                    // alternating signature / compression layers
+                    let mut inner = lit.clone();
+                    for _ in 0..depth.min(2000) {
+                        inner = [pkt(2, &sig4), compressed_pkt(0, &inner)].concat();
+                    }
+                    b = inner;
+                }
+                _ => {
+                    // OPS x n without any signature
+                    for _ in 0..depth {
+                        b.extend(pkt(4, &ops_for(&rs4, e.signer4, 0)));
+                    }
+                    b.extend_from_slice(&lit);
+                }
+            }
+            let kind = [0u8, 1, 2][(depth + form as usize) % 3];
+            let bytes = wrap(kind, &b, &e, &mut rng);
+            ctx.cover(&("F5deep-sig", depth, form));
+            ctx.seen("F5.deep", format!("signature-form{form}-depth{depth}"));
+            let desc = format!("F5deep:signature-layers={depth}/form={form}/wrap={kind}");
+            let o = run_case(
+                ctx,
+                "F5",
+                &desc,
+                || json!({"api": "Message::from_bytes -> [decrypt] -> read_to_end -> verify", "depth": depth, "form": form, "input_len": bytes.len()}),
+                || f5_drive(&bytes, kind, &e, depth as u64 * 2, 4100),
+            );
+            if let Some(o) = o {
+                o.tally(ctx, "F5deep");
+            }
+        }
+    }
+}
+
+/// Runs `f` on a freshly spawned thread with the given stack size (what a worker thread of an
+/// application has: Rust's default for spawned threads is 2 MiB). A panic inside is handed back
+/// to the case runner of the calling thread.
+fn on_thread<T: Send>(stack: usize, name: &'static str, f: impl FnOnce() -> T + Send) -> Option<T> {
+    let r = std::thread::scope(|s| {
+        std::thread::Builder::new()
+            .stack_size(stack)
+            .spawn_scoped(s, || core::guard(f))
+            .ok()
+            .and_then(|h| h.join().ok())
+    });
+    match r {
+        Some(Ok(v)) => Some(v),
+        Some(Err(p)) => {
+            SUBPANICS.with(|v| v.borrow_mut().push((p, name)));
+            None
+        }
+        None => None,
+    }
+}
+
+/// Embedded Signature subpackets nested `depth` times: the subpacket parser recurses once per
+/// level (and so do clone / drop / serialisation of the parsed value).
+fn f5_deep_embedded(ctx: &mut Ctx, env: &Env) {
+    let Some(e) = f5_env(env) else { return };
+    let lit = literal(b"deep");
+    // (depth, stack of the thread that parses: None = main thread, 8 MiB by default ulimit)
+    // depths are chosen well away from the overflow threshold (about 1.8 KiB of stack per level)
+    // so that the outcome does not depend on small frame size differences between builds
+    let mut plan: Vec<(usize, Option<usize>)> = vec![(10, None), (100, None), (1000, None), (3000, None), (300, Some(2 << 20)), (1500, Some(2 << 20))];
+    if !ctx.quick() {
+        plan.push((6000, None));
+    }
+    for &(depth, stack) in &plan {
+        for v6 in [false, true] {
+            for hashed_area in [true, false] {
+                if !v6 && depth > 3000 {
+                    continue; // does not fit the 2-octet area length
+                }
+                if (stack.is_some() || depth > 3000) && !hashed_area {
+                    continue;
+                }
+                if !ctx.mine() {
+                    continue;
+                }
+                core::describe_case(&format!("F5deep:generator/embedded-signature-depth={depth}"));
+                let sig = nested_embedded_sig(depth, v6, hashed_area);
+                let ver = if v6 { 6 } else { 4 };
+                let area = if hashed_area { "hashed" } else { "unhashed" };
+                let st = match stack {
+                    None => "main-thread".to_string(),
+                    Some(n) => format!("thread-stack={}MiB", n >> 20),
+                };
+                ctx.cover(&("F5deep-emb", depth, v6, hashed_area, stack));
+                ctx.seen("F5.deep", format!("embedded-signature-v{ver}-{area}-depth{depth}-{st}"));
+                // (a) as a detached signature: parse, accessors, serialise, verify, clone, drop
+                let desc = format!("F5deep:embedded-signature-depth={depth}/v{ver}/{area}/{st}/detached");
+                let sb = pkt5(2, &sig);
+                let (p4, p6) = (e.pub4, e.pub6);
+                let work = || {
+                    let mut o = Obs::default();
+                    match DetachedSignature::from_bytes(&sb[..]) {
+                        Ok(s) => {
+                            exercise_detached(&s, &[p4, p6], b"deep", &mut o);
+                            let c = s.clone();
+                            let _ = c == s;
+                            drop(c);
+                        }
+                        Err(_) => o.errs += 1,
+                    }
+                    o
+                };
+                let o = run_case(
+                    ctx,
+                    "F5",
+                    &desc,
+                    || json!({"api": "DetachedSignature::from_bytes -> accessors / to_bytes / verify / clone / drop", "depth": depth, "input_len": sb.len(), "stack": st, "input": if sb.len() < 70_000 { hexfull(&sb) } else { String::from("(nested_embedded_sig, see generator)") }}),
+                    || match stack {
+                        None => Some(work()),
+                        Some(n) => on_thread(n, "DetachedSignature::from_bytes on a worker thread", work),
+                    },
+                );
+                if let Some(Some(o)) = o {
+                    o.tally(ctx, "F5deep");
+                    if o.parsed > 0 {
+                        ctx.tally("F5deep.embedded_parsed", 1);
+                    }
+                }
+                if stack.is_some() {
+                    continue;
+                }
+                // (b) in front of a literal inside a message
+                let desc = format!("F5deep:embedded-signature-depth={depth}/v{ver}/{area}/{st}/message");
+                let mut rng = ctx.rng("F5deep-emb", depth as u64);
+                let bytes = wrap(if depth % 2 == 0 { 0 } else { 1 }, &[pkt5(2, &sig), lit.clone()].concat(), &e, &mut rng);
+                let o = run_case(
+                    ctx,
+                    "F5",
+                    &desc,
+                    || json!({"api": "Message::from_bytes -> read -> verify", "depth": depth, "input_len": bytes.len()}),
+                    || f5_drive(&bytes, if depth % 2 == 0 { 0 } else { 1 }, &e, 0, 8),
+                );
+                if let Some(o) = o {
+                    o.tally(ctx, "F5deep");
+                }
+                // (c) through the packet parser
+                let desc = format!("F5deep:embedded-signature-depth={depth}/v{ver}/{area}/{st}/packet-parser");
+                let o = run_case(
+                    ctx,
+                    "F5",
+                    &desc,
+                    || json!({"api": "PacketParser -> to_writer / write_len", "depth": depth, "input_len": sb.len()}),
+                    || {
+                        let mut o = Obs::default();
+                        exercise_packets(&sb, 10, &mut o);
+                        o
+                    },
+                );
+                if let Some(o) = o {
+                    o.tally(ctx, "F5deep");
+                }
+            }
+        }
+    }
+}
+
+/// F5e: what the message object does when it is used *after* a read returned an error
+/// (accessors, another read, verify). Reported under its own family so that it can be judged
+/// separately from panics during parsing / reading proper.
+fn f5_after_error(ctx: &mut Ctx, e: &F5Env<'_>, streams: &[(String, Vec<u8>)]) {
+    const ACCESSORS: [&str; 9] = [
+        "packet_header", "literal_data_header", "is_one_pass_signed", "verify", "read-again", "fill_buf-again", "verify_nested", "decompress", "drop",
+    ];
+    let mut picked = 0usize;
+    for (name, stream) in streams {
+        if picked >= 60 {
+            break;
+        }
+        if !(name.starts_with("trunc/") || name.starts_with("ops/") || name.starts_with("len/")) {
+            continue;
+        }
+        // does a read fail on it at all?
+        for kind in [0u8, 1, 2] {
+            let mut rng = Ctx::fixed_rng("F5e", picked as u64);
+            let bytes = wrap(kind, stream, e, &mut rng);
+            let fails = core::guard(|| {
+                let mut means = f5_means(e);
+                if kind == 2 {
+                    means.session.swap(0, 1);
+                }
+                let Ok(mut m) = Message::from_bytes(&bytes[..]) else { return false };
+                if m.is_encrypted() {
+                    let ring = TheRing { session_keys: means.session.clone(), ..Default::default() };
+                    match m.decrypt_the_ring(ring, true) {
+                        Ok((x, _)) => m = x,
+                        Err(_) => return false,
+                    }
+                }
+                if m.is_compressed() {
+                    return false;
+                }
+                let mut v = Vec::new();
+                m.read_to_end(&mut v).is_err()
+            });
+            if !matches!(fails, Ok(true)) {
+                continue;
+            }
+            picked += 1;
+            if !ctx.mine() {
+                continue;
+            }
+            for (ai, acc) in ACCESSORS.iter().enumerate() {
+                let desc = format!("F5e:after-read-error/{}/wrap={kind}/then={acc}", name.split('@').next().unwrap_or(name));
+                ctx.cover(&("F5e", name, kind, ai));
+                let verifier = e.pub4;
+                let _ = run_case(
+                    ctx,
+                    "F5e",
+                    &desc,
+                    || json!({"api": format!("Message::from_bytes -> [decrypt] -> read_to_end (Err) -> {acc}"), "input": hexs(&bytes), "session_key": hexs(&e.key16)}),
+                    || {
+                        let mut means = f5_means(e);
+                        if kind == 2 {
+                            means.session.swap(0, 1);
+                        }
+                        let Ok(mut m) = Message::from_bytes(&bytes[..]) else { return };
+                        if m.is_encrypted() {
+                            let ring = TheRing { session_keys: means.session.clone(), ..Default::default() };
+                            match m.decrypt_the_ring(ring, true) {
+                                Ok((x, _)) => m = x,
+                                Err(_) => return,
+                            }
+                        }
+                        let mut v = Vec::new();
+                        if m.read_to_end(&mut v).is_ok() {
+                            return;
+                        }
+                        match ai {
+                            0 => {
+                                let _ = m.packet_header();
+                            }
+                            1 => {
+                                let _ = m.literal_data_header();
+                            }
+                            2 => {
+                                let _ = m.is_one_pass_signed();
+                            }
+                            3 => {
+                                let _ = m.verify(verifier);
+                            }
+                            4 => {
+                                let mut b = [0u8; 16];
+                                let _ = m.read(&mut b);
+                            }
+                            5 => {
+                                let _ = m.fill_buf().map(|b| b.len());
+                            }
+                            6 => {
+                                let _ = m.verify_nested(&[verifier as &dyn VerifyingKey]);
+                            }
+                            7 => {
+                                let _ = m.decompress();
+                            }
+                            _ => drop(m),
+                        }
+                    },
+                );
+            }
+            break;
+        }
+    }
+    ctx.tally("F5e.streams_with_read_error", picked as u64);
+}
+
+fn f5(ctx: &mut Ctx, env: &Env) {
+    let Some(e) = f5_env(env) else {
+        ctx.inconclusive("F5: signer keys missing");
+        return;
+    };
+    let mut rng0 = Ctx::fixed_rng("F5", 0);
+    let streams = f5_streams(&e, &mut rng0, !ctx.quick());
+    f5_after_error(ctx, &e, &streams);
+    ctx.tally("F5.streams_per_shard", streams.len() as u64);
+    let group = 8usize;
+    for (gi, chunk) in streams.chunks(group).enumerate() {
+        if !ctx.mine() {
+            continue;
+        }
+        let mut rng = ctx.rng("F5", gi as u64);
+        let mut obs = Obs::default();
+        for (si, (name, stream)) in chunk.iter().enumerate() {
+            let idx = gi * group + si;
+            let class = name.split('/').next().unwrap_or("");
+            ctx.seen("F5.stream_class", class.to_string());
+            // every stream: bare + two rotating wrappers (thorough: all)
+            let kinds: Vec<u8> = if ctx.quick() { vec![0, 1 + (idx % 6) as u8, 1 + ((idx / 6 + 3) % 6) as u8] } else { (0..=6).collect() };
+            for kind in kinds {
+                let bytes = wrap(kind, stream, &e, &mut rng);
+                ctx.cover(&("F5", name, kind));
+                let desc = format!("F5:{name}/wrap={kind}");
+                let o = run_case(
+                    ctx,
+                    "F5",
+                    &desc,
+                    || json!({"api": "Message::from_bytes -> decrypt_the_ring(session key) -> decompress -> read -> verify", "input": hexs(&bytes), "inner_stream": hexs(stream), "session_key": hexs(&e.key16)}),
+                    || {
+                        let mut o = f5_drive(&bytes, kind, &e, idx as u64 + kind as u64, 24);
+                        if kind == 0 && idx % 4 == 0 {
+                            exercise_packets(&bytes, 20_000, &mut o);
+                        }
+                        o
+                    },
+                );
+                if let Some(o) = o {
+                    if name.starts_with("valid/") && o.verified_ok == 0 && !name.ends_with("/lit") {
+                        ctx.inconclusive(format!("F5: anchor stream {name} wrap {kind} did not verify"));
+                    }
+                    if name.starts_with("subpkt/") && o.verified_ok > 0 {
+                        ctx.tally("F5.crafted_subpacket_sig_verified", 1);
+                    }
+                    obs.merge(&o);
+                }
+            }
+        }
+        obs.tally(ctx, "F5");
+    }
+}
+
+// ------------------------------------------------------------------------------------------
+// F6: byte mutation of fixtures and library-made artefacts through every public entry point
+
+#[derive(Clone, Copy, PartialEq, Eq, Debug)]
+enum Kind {
+    Msg,
+    PubKey,
+    SecKey,
+    Sig,
+    Cleartext,
+    Unknown,
+}
+
+struct Item {
+    name: String,
+    kind: Kind,
+    data: Vec<u8>,
+}
+
+fn walk_fixtures(dir: &std::path::Path, out: &mut Vec<std::path::PathBuf>) {
+    let Ok(rd) = std::fs::read_dir(dir) else { return };
+    let mut entries: Vec<_> = rd.filter_map(|e| e.ok()).map(|e| e.path()).collect();
+    entries.sort();
+    for p in entries {
+        if p.is_dir() {
+            walk_fixtures(&p, out);
+        } else {
+            out.push(p);
+        }
+    }
+}
+
+fn fixture_items(ctx: &mut Ctx) -> Vec<Item> {
+    let mut paths = vec![];
+    walk_fixtures(std::path::Path::new("/repo/tests"), &mut paths);
+    let mut items = vec![];
+    for p in paths {
+        let ext = p.extension().and_then(|e| e.to_str()).unwrap_or("").to_ascii_lowercase();
+        if matches!(ext.as_str(), "rs" | "json" | "md" | "scm" | "toml" | "pem" | "sh" | "py") {
+            continue;
+        }
+        let Ok(md) = std::fs::metadata(&p) else { continue };
+        if md.len() > 256 * 1024 || md.len() == 0 {
+            continue;
+        }
+        let Ok(data) = std::fs::read(&p) else { continue };
+        let name = p.strip_prefix("/repo/tests").unwrap_or(&p).to_string_lossy().to_string();
+        let low = name.to_ascii_lowercase();
+        let head = String::from_utf8_lossy(&data[..data.len().min(200)]).to_string();
+        let kind = if head.contains("BEGIN PGP SIGNED MESSAGE") {
+            Kind::Cleartext
+        } else if head.contains("BEGIN PGP PUBLIC KEY") {
+            Kind::PubKey
+        } else if head.contains("BEGIN PGP PRIVATE KEY") {
+            Kind::SecKey
+        } else if head.contains("BEGIN PGP SIGNATURE") {
+            Kind::Sig
+        } else if head.contains("BEGIN PGP MESSAGE") {
+            Kind::Msg
+        } else if low.ends_with(".sig") {
+            Kind::Sig
+        } else if low.contains("sec") || low.contains("priv") {
+            Kind::SecKey
+        } else if low.contains("pub") || low.ends_with(".key") || low.ends_with(".cert") {
+            Kind::PubKey
+        } else if low.ends_with(".msg") || low.ends_with(".enc") || low.ends_with(".gpg") || low.ends_with(".pgp") {
+            Kind::Msg
+        } else {
+            Kind::Unknown
+        };
+        items.push(Item { name: format!("fixture{name}"), kind, data });
+    }
+    ctx.tally("F6.fixtures_found_per_shard", items.len() as u64);
+    items
+}
+
+fn library_items(ctx: &mut Ctx, env: &Env) -> Vec<Item> {
+    let mut items: Vec<Item> = vec![];
+    let mut rng = Ctx::fixed_rng("F6lib", 0);
+    let mut fail = 0u32;
+    // keys
+    let pick_signers = ["v4-Ed25519Legacy", "v6-Ed25519", "v4-EcdsaP256", "v4-Rsa2048", "v6-Ed448", "v4-Dsa2048", "v4-EcdsaK256", "v6-EcdsaP521"];
+    for (name, sk, pk) in &env.signers {
+        if !pick_signers.contains(&name.as_str()) {
+            continue;
+        }
+        match sk.to_bytes() {
+            Ok(b) => items.push(Item { name: format!("lib/tsk/{name}"), kind: Kind::SecKey, data: b }),
+            Err(_) => fail += 1,
+        }
+        match pk.to_bytes() {
+            Ok(b) => items.push(Item { name: format!("lib/tpk/{name}"), kind: Kind::PubKey, data: b }),
+            Err(_) => fail += 1,
+        }
+        if let Ok(s) = sk.to_armored_string(ArmorOptions::default()) {
+            items.push(Item { name: format!("lib/tsk-armored/{name}"), kind: Kind::SecKey, data: s.into_bytes() });
+        }
+        if let Ok(s) = pk.to_armored_string(ArmorOptions::default()) {
+            items.push(Item { name: format!("lib/tpk-armored/{name}"), kind: Kind::PubKey, data: s.into_bytes() });
+        }
+    }
+    for r in &env.recipients {
+        match r.sk.to_bytes() {
+            Ok(b) => items.push(Item { name: format!("lib/tsk/enc-{}", r.name), kind: Kind::SecKey, data: b }),
+            Err(_) => fail += 1,
+        }
+        // locked with a cheap S2K and the harness password
+        let mut k = r.sk.clone();
+        let mut salt = [0u8; 8];
+        rng.fill_bytes(&mut salt);
+        let v6 = u8::from(k.version()) == 6;
+        let params = if v6 {
+            S2kParams::Aead {
+                sym_alg: SymmetricKeyAlgorithm::AES128,
+                aead_mode: AeadAlgorithm::Ocb,
+                s2k: StringToKey::IteratedAndSalted { hash_alg: HashAlgorithm::Sha256, salt, count: 0 },
+                nonce: rnd_bytes(&mut rng, 15).into(),
+            }
+        } else {
+            S2kParams::Cfb {
+                sym_alg: SymmetricKeyAlgorithm::AES128,
+                s2k: StringToKey::IteratedAndSalted { hash_alg: HashAlgorithm::Sha256, salt, count: 0 },
+                iv: rnd_bytes(&mut rng, 16).into(),
+            }
+        };
+        let pwd = Password::from(PW);
+        let ok1 = k.primary_key.set_password_with_s2k(&pwd, params.clone()).is_ok();
+        let ok2 = k.secret_subkeys.iter_mut().all(|s| s.key.set_password_with_s2k(&pwd, params.clone()).is_ok());
+        if ok1 && ok2 {
+            if let Ok(b) = k.to_bytes() {
+                items.push(Item { name: format!("lib/tsk-locked/enc-{}", r.name), kind: Kind::SecKey, data: b });
+            }
+            if let Ok(s) = k.to_armored_string(ArmorOptions::default()) {
+                items.push(Item { name: format!("lib/tsk-locked-armored/enc-{}", r.name), kind: Kind::SecKey, data: s.into_bytes() });
+            }
+        } else {
+            fail += 1;
+        }
+    }
+    // messages
+    let payload: Vec<u8> = (0..700u32).map(|i| b"The quick brown fox\r\n"[(i % 21) as usize]).collect();
+    let s4 = env.signers.iter().find(|(n, _, _)| n == "v4-Ed25519Legacy");
+    let s6 = env.signers.iter().find(|(n, _, _)| n == "v6-Ed25519");
+    let sp = env.signers.iter().find(|(n, _, _)| n == "v4-EcdsaP256");
+    let mk = |name: &str, items: &mut Vec<Item>, r: pgp::errors::Result<Vec<u8>>, fail: &mut u32| match r {
+        Ok(b) => items.push(Item { name: format!("lib/msg/{name}"), kind: Kind::Msg, data: b }),
+        Err(_) => *fail += 1,
+    };
+    {
+        let b = MessageBuilder::from_bytes("lit.txt", payload.clone());
+        mk("literal", &mut items, b.to_vec(&mut rng), &mut fail);
+        for (cn, c) in [("zip", CompressionAlgorithm::ZIP), ("zlib", CompressionAlgorithm::ZLIB), ("bzip2", CompressionAlgorithm::BZip2), ("uncompressed", CompressionAlgorithm::Uncompressed)] {
+            let mut b = MessageBuilder::from_bytes("c.txt", payload.clone());
+            b.compression(c);
+            mk(&format!("compressed-{cn}"), &mut items, b.to_vec(&mut rng), &mut fail);
+        }
+        let mut b = MessageBuilder::from_reader("partial.bin", &payload[..]);
+        let _ = b.partial_chunk_size(512);
+        mk("literal-partial", &mut items, b.to_vec(&mut rng), &mut fail);
+        for (sn, s) in [("v4", s4), ("v6", s6), ("p256", sp)] {
+            let Some((_, sk, _)) = s else { continue };
+            let ha = if sn == "v6" { HashAlgorithm::Sha512 } else { HashAlgorithm::Sha256 };
+            let mut b = MessageBuilder::from_bytes("s.txt", payload.clone());
+            b.sign(&sk.primary_key, Password::empty(), ha);
+            mk(&format!("signed-{sn}"), &mut items, b.to_vec(&mut rng), &mut fail);
+            let mut b = MessageBuilder::from_bytes("s.txt", payload.clone());
+            b.sign(&sk.primary_key, Password::empty(), ha);
+            b.compression(CompressionAlgorithm::ZLIB);
+            mk(&format!("signed-compressed-{sn}"), &mut items, b.to_vec(&mut rng), &mut fail);
+            let mut b = MessageBuilder::from_bytes("s.txt", payload.clone());
+            b.sign(&sk.primary_key, Password::empty(), ha);
+            if let Ok(s) = b.to_armored_string(&mut rng, ArmorOptions::default()) {
+                items.push(Item { name: format!("lib/msg-armored/signed-{sn}"), kind: Kind::Msg, data: s.into_bytes() });
+            }
+        }
+        if let (Some((_, a, _)), Some((_, b6, _))) = (s4, sp) {
+            let mut b = MessageBuilder::from_bytes("s2.txt", payload.clone());
+            b.sign(&a.primary_key, Password::empty(), HashAlgorithm::Sha256);
+            b.sign(&b6.primary_key, Password::empty(), HashAlgorithm::Sha384);
+            b.sign_text();
+            mk("signed-two-text", &mut items, b.to_vec(&mut rng), &mut fail);
+        }
+        for r in &env.recipients {
+            let Some(sub) = r.pk.public_subkeys.first() else { continue };
+            let v6 = u8::from(r.sk.version()) == 6;
+            {
+                let mut b = MessageBuilder::from_bytes("e.txt", payload.clone()).seipd_v1(&mut rng, SymmetricKeyAlgorithm::AES128);
+                if b.encrypt_to_key(&mut rng, sub).is_ok() {
+                    mk(&format!("seipd1-to-{}", r.name), &mut items, b.to_vec(&mut rng), &mut fail);
+                } else {
+                    fail += 1;
+                }
+            }
+            if v6 {
+                let mut b = MessageBuilder::from_bytes("e.txt", payload.clone()).seipd_v2(&mut rng, SymmetricKeyAlgorithm::AES256, AeadAlgorithm::Ocb, ChunkSize::C64B);
+                if let Some((_, sk, _)) = s6 {
+                    b.sign(&sk.primary_key, Password::empty(), HashAlgorithm::Sha512);
+                }
+                b.compression(CompressionAlgorithm::ZIP);
+                if b.encrypt_to_key(&mut rng, sub).is_ok() {
+                    mk(&format!("seipd2-signed-zip-to-{}", r.name), &mut items, b.to_vec(&mut rng), &mut fail);
+                } else {
+                    fail += 1;
+                }
+            }
+        }
+        let s2k = StringToKey::new_iterated(&mut rng, HashAlgorithm::Sha256, 0);
+        let mut b = MessageBuilder::from_bytes("p.txt", payload.clone()).seipd_v1(&mut rng, SymmetricKeyAlgorithm::AES256);
+        if b.encrypt_with_password(s2k.clone(), &Password::from(MSG_PW)).is_ok() {
+            mk("seipd1-password", &mut items, b.to_vec(&mut rng), &mut fail);
+        }
+        for aead in [AeadAlgorithm::Eax, AeadAlgorithm::Ocb, AeadAlgorithm::Gcm] {
+            let mut b = MessageBuilder::from_bytes("p.txt", payload.clone()).seipd_v2(&mut rng, SymmetricKeyAlgorithm::AES128, aead, ChunkSize::C64B);
+            if b.encrypt_with_password(&mut rng, s2k.clone(), &Password::from(MSG_PW)).is_ok() {
+                mk(&format!("seipd2-password-{aead:?}"), &mut items, b.to_vec(&mut rng), &mut fail);
+            }
+        }
+        let mut b = MessageBuilder::from_bytes("p.txt", payload.clone()).seipd_v2(&mut rng, SymmetricKeyAlgorithm::AES128, AeadAlgorithm::Gcm, ChunkSize::C64B);
+        if b.encrypt_with_password(&mut rng, s2k.clone(), &Password::from(MSG_PW)).is_ok() {
+            if let Ok(s) = b.to_armored_string(&mut rng, ArmorOptions::default()) {
+                items.push(Item { name: "lib/msg-armored/seipd2-password".into(), kind: Kind::Msg, data: s.into_bytes() });
+            }
+        }
+    }
+    // detached signatures and cleartext
+    for (sn, s) in [("v4", s4), ("v6", s6), ("p256", sp)] {
+        let Some((_, sk, _)) = s else { continue };
+        let ha = if sn == "v6" { HashAlgorithm::Sha512 } else { HashAlgorithm::Sha256 };
+        if let Ok(sig) = DetachedSignature::sign_binary_data(&mut rng, &sk.primary_key, &Password::empty(), ha, &payload[..]) {
+            if let Ok(b) = sig.to_bytes() {
+                items.push(Item { name: format!("lib/sig/binary-{sn}"), kind: Kind::Sig, data: b });
+            }
+            if let Ok(a) = sig.to_armored_string(ArmorOptions::default()) {
+                items.push(Item { name: format!("lib/sig-armored/binary-{sn}"), kind: Kind::Sig, data: a.into_bytes() });
+            }
+        } else {
+            fail += 1;
+        }
+        if let Ok(sig) = DetachedSignature::sign_text_data(&mut rng, &sk.primary_key, &Password::empty(), ha, &payload[..]) {
+            if let Ok(b) = sig.to_bytes() {
+                items.push(Item { name: format!("lib/sig/text-{sn}"), kind: Kind::Sig, data: b });
+            }
+        }
+        let text = "- dash line\nHello  \t\nFrom here\r\n\r\n-----not a header\nend";
+        if let Ok(c) = CleartextSignedMessage::sign(&mut rng, text, &sk.primary_key, &Password::empty()) {
+            if let Ok(a) = c.to_armored_string(ArmorOptions::default()) {
+                items.push(Item { name: format!("lib/cleartext/{sn}"), kind: Kind::Cleartext, data: a.into_bytes() });
+            }
+        } else {
+            fail += 1;
+        }
+    }
+    if fail > 0 {
+        ctx.inconclusive(format!("F6: {fail} library artefacts could not be built"));
+    }
+    ctx.tally("F6.library_artefacts_per_shard", items.len() as u64);
+    items
+}
+
+const INTERESTING: [u8; 12] = [0x00, 0x01, 0x7F, 0x80, 0xFF, 0xC0, 0xBF, 0xFE, 0xE0, 0x0A, 0x0D, 0x2D];
+
+/// binary mutation operators; returns the operator name
+fn mutate_bytes(d: &mut Vec<u8>, other: &[u8], rng: &mut ChaCha8Rng, op: u32) -> &'static str {
+    let n = d.len();
+    if n == 0 {
+        d.extend(rnd_bytes(rng, 4));
+        return "fill-empty";
+    }
+    match op % 12 {
+        0 => {
+            for _ in 0..rng.gen_range(1..=3) {
+                let p = rng.gen_range(0..n);
+                d[p] ^= 1 << rng.gen_range(0..8);
+            }
+            "bitflip"
+        }
+        1 => {
+            let p = rng.gen_range(0..n);
+            d[p] = INTERESTING[rng.gen_range(0..INTERESTING.len())];
+            "byte-interesting"
+        }
+        2 => {
+            let p = rng.gen_range(0..n);
+            d[p] = rng.gen();
+            "byte-random"
+        }
+        3 => {
+            let p = rng.gen_range(0..n);
+            d.truncate(p);
+            "truncate"
+        }
+        4 => {
+            // splice: prefix of this + suffix of the other
+            let p = rng.gen_range(0..=n);
+            let q = if other.is_empty() { 0 } else { rng.gen_range(0..other.len()) };
+            d.truncate(p);
+            d.extend_from_slice(&other[q..]);
+            "splice"
+        }
+        5 => {
+            // length-field maximisation at a packet boundary (if the input deframes), else at a
+            // random position
+            let mut done = false;
+            if d[0] & 0x80 != 0 {
+                if let Ok(pk) = rfc::frame::deframe(d) {
+                    if !pk.is_empty() {
+                        let x = &pk[rng.gen_range(0..pk.len())];
+                        let hdr_len = x.encoded_len - x.body.len();
+                        let which = rng.gen_range(0..5);
+                        let new_hdr: Vec<u8> = match which {
+                            0 => vec![0xC0 | x.tag, 0xFF, 0xFF, 0xFF, 0xFF, 0xFF],
+                            1 => vec![0xC0 | x.tag, 0xFF, 0x7F, 0xFF, 0xFF, 0xFF],
+                            2 => vec![0xC0 | x.tag, 0xE0 + rng.gen_range(0..31)],
+                            3 => vec![0x80 | ((x.tag & 0x0F) << 2) | 3],
+                            _ => vec![0x80 | ((x.tag & 0x0F) << 2) | 2, 0xFF, 0xFF, 0xFF, 0xFF],
+                        };
+                        if x.partial_chunks.is_empty() && hdr_len <= x.encoded_len && x.offset + hdr_len <= d.len() {
+                            d.splice(x.offset..x.offset + hdr_len, new_hdr);
+                            done = true;
+                        }
+                    }
+                }
+            }
+            if !done {
+                let p = rng.gen_range(0..n);
+                for i in 0..5 {
+                    if p + i < d.len() {
+                        d[p + i] = 0xFF;
+                    }
+                }
+            }
+            "length-max"
+        }
+        6 => {
+            let p = rng.gen_range(0..=n);
+            let k = rng.gen_range(1..=8);
+            let ins = rnd_bytes(rng, k);
+            d.splice(p..p, ins);
+            "insert"
+        }
+        7 => {
+            let p = rng.gen_range(0..n);
+            let l = rng.gen_range(1..=16).min(n - p);
+            d.drain(p..p + l);
+            "delete"
+        }
+        8 => {
+            let p = rng.gen_range(0..n);
+            let l = rng.gen_range(1..=64).min(n - p);
+            let seg = d[p..p + l].to_vec();
+            d.splice(p..p, seg);
+            "duplicate"
+        }
+        9 => {
+            // several random byte substitutions
+            for _ in 0..rng.gen_range(2..=8) {
+                let p = rng.gen_range(0..n);
+                d[p] = rng.gen();
+            }
+            "bytes-random-multi"
+        }
+        10 => {
+            // a one-octet field near a packet start: all the small values
+            let p = rng.gen_range(0..n.min(24));
+            d[p] = rng.gen_range(0..=24);
+            "head-field-small"
+        }
+        _ => {
+            // swap two blocks
+            let a = rng.gen_range(0..n);
+            let b = rng.gen_range(0..n);
+            let l = rng.gen_range(1..=32).min(n - a.max(b));
+            for i in 0..l {
+                d.swap(a + i, b + i);
+            }
+            "swap-blocks"
+        }
+    }
+}
+
+fn mutate_armor_text(d: &mut Vec<u8>, rng: &mut ChaCha8Rng, op: u32) -> &'static str {
+    let text = String::from_utf8_lossy(d).to_string();
+    let mut lines: Vec<String> = text.split('\n').map(|l| l.to_string()).collect();
+    if lines.is_empty() {
+        return "armor-none";
+    }
+    let li = rng.gen_range(0..lines.len());
+    let name = match op % 10 {
+        0 => {
+            lines.remove(li);
+            "armor-remove-line"
+        }
+        1 => {
+            let l = lines[li].clone();
+            lines.insert(li, l);
+            "armor-duplicate-line"
+        }
+        2 => {
+            lines.insert(li, String::new());
+            "armor-insert-blank-line"
+        }
+        3 => {
+            for l in lines.iter_mut() {
+                l.push('\r');
+            }
+            "armor-crlf"
+        }
+        4 => {
+            lines[li].push_str(&"A".repeat(rng.gen_range(1..200)));
+            "armor-long-line"
+        }
+        5 => {
+            lines[li].push_str(["=", "==", "=AAAA", " ", "\t", "-", "\u{00e9}"][rng.gen_range(0..7)]);
+            "armor-append-token"
+        }
+        6 => {
+            // header / footer label tampering
+            for l in lines.iter_mut() {
+                if l.starts_with("-----") && rng.gen_bool(0.5) {
+                    *l = l.replace("PGP", ["PGP", "PG", "PGP PGP", ""][rng.gen_range(0..4)]).replace("MESSAGE", ["MESSAGE", "MESSAGE, PART 1/2", "MESSAGE, PART 1", "SIGNATURE", "PUBLIC KEY BLOCK", "PRIVATE KEY BLOCK", "SIGNED MESSAGE"][rng.gen_range(0..7)]);
+                }
+            }
+            "armor-label"
+        }
+        7 => {
+            lines.insert(1.min(lines.len()), ["Version: x", "Hash: SHA256", "Hash: nope", "Comment", ": v", "Hash: SHA256,SHA512, MD5", "Charset: \u{00e9}"][rng.gen_range(0..7)].to_string());
+            "armor-header-line"
+        }
+        8 => {
+            // checksum line tampering
+            for l in lines.iter_mut() {
+                if l.starts_with('=') && l.len() <= 6 {
+                    *l = ["=", "=AAAA", "=AAA", "=AAAAA", "====", "=!!!!"][rng.gen_range(0..6)].to_string();
+                }
+            }
+            "armor-crc-line"
+        }
+        _ => {
+            let keep = rng.gen_range(0..=lines.len());
+            lines.truncate(keep);
+            "armor-truncate-lines"
+        }
+    };
+    *d = lines.join("\n").into_bytes();
+    name
+}
+
+fn f6_means<'a>(env: &'a Env) -> Means<'a> {
+    let mut m = Means::none();
+    for r in &env.recipients {
+        m.keys.push(&r.sk);
+    }
+    for (_, _, pk) in &env.signers {
+        m.verifiers.push(pk);
+    }
+    m.read_cap = 1 << 20;
+    m.max_layers = 12;
+    m
+}
+
+/// All public entry points on one input, each under its own panic capture. `wide`: also the
+/// entry points that do not fit the original kind of the artefact.
+fn drive_input(d: &[u8], kind: Kind, wide: bool, means: &Means<'_>, variant: u64) -> Obs {
+    let mut o_owned = Obs::default();
+    let o = std::cell::RefCell::new(&mut o_owned);
+    let armored = d.first().map(|b| b & 0x80 == 0).unwrap_or(true);
+    let verifiers: Vec<&SignedPublicKey> = means.verifiers.iter().take(3).copied().collect();
+    let pws = [Password::from(PW), Password::empty()];
+    let content: Vec<u8> = (0..700u32).map(|i| b"The quick brown fox\r\n"[(i % 21) as usize]).collect();
+    let want = |k: Kind| wide || kind == k || kind == Kind::Unknown;
+    let small = d.len() <= 64 * 1024;
+
+    if !armored {
+        if want(Kind::Msg) {
+            step("Message::from_bytes -> decrypt/decompress/read/verify", || match Message::from_bytes(d) {
+                Ok(m) => drive_message(m, means, variant, &mut o.borrow_mut()),
+                Err(_) => o.borrow_mut().errs += 1,
+            });
+        }
+        if want(Kind::PubKey) {
+            let mut parsed = None;
+            step("SignedPublicKey::from_bytes", || match SignedPublicKey::from_bytes(d) {
+                Ok(k) => parsed = Some(k),
+                Err(_) => o.borrow_mut().errs += 1,
+            });
+            if let Some(k) = parsed {
+                if small {
+                    exercise_public_key(&k, &mut o.borrow_mut())
+                } else {
+                    o.borrow_mut().parsed += 1
+                }
+            }
+            if variant % 3 == 0 {
+                step("SignedPublicKey::from_bytes_many (iterate, fingerprint, verify_bindings)", || {
+                    if let Ok(it) = SignedPublicKey::from_bytes_many(d) {
+                        for k in it.take(20) {
+                            match k {
+                                Ok(k) => {
+                                    o.borrow_mut().parsed += 1;
+                                    let _ = k.fingerprint();
+                                    let _ = k.verify_bindings();
+                                }
+                                Err(_) => o.borrow_mut().errs += 1,
+                            }
+                        }
+                    }
+                });
+            }
+        }
+        if want(Kind::SecKey) {
+            let mut parsed = None;
+            step("SignedSecretKey::from_bytes", || match SignedSecretKey::from_bytes(d) {
+                Ok(k) => parsed = Some(k),
+                Err(_) => o.borrow_mut().errs += 1,
+            });
+            if let Some(k) = parsed {
+                if small {
+                    exercise_secret_key_opts(&k, &pws, variant, false, 0x90, &mut o.borrow_mut())
+                } else {
+                    o.borrow_mut().parsed += 1
+                }
+            }
+            if variant % 3 == 1 {
+                step("SignedSecretKey::from_bytes_many (iterate)", || {
+                    if let Ok(it) = SignedSecretKey::from_bytes_many(d) {
+                        for k in it.take(20) {
+                            match k {
+                                Ok(k) => {
+                                    o.borrow_mut().parsed += 1;
+                                    let _ = k.fingerprint();
+                                    let _ = k.to_public_key();
+                                }
+                                Err(_) => o.borrow_mut().errs += 1,
+                            }
+                        }
+                    }
+                });
+            }
+        }
+        if want(Kind::Sig) {
+            step("DetachedSignature::from_bytes -> verify / accessors", || match DetachedSignature::from_bytes(d) {
+                Ok(s) => exercise_detached(&s, &verifiers, &content, &mut o.borrow_mut()),
+                Err(_) => o.borrow_mut().errs += 1,
+            });
+            if variant % 3 == 2 {
+                step("DetachedSignature::from_bytes_many (iterate)", || {
+                    if let Ok(it) = DetachedSignature::from_bytes_many(d) {
+                        for s in it.take(50) {
+                            match s {
+                                Ok(s) => exercise_signature_packet(&s.signature, &mut o.borrow_mut()),
+                                Err(_) => o.borrow_mut().errs += 1,
+                            }
+                        }
+                    }
+                });
+            }
+        }
+        if wide || variant % 2 == 0 {
+            step("PacketParser (iterate, to_writer, write_len, decompress)", || exercise_packets(d, 2000, &mut o.borrow_mut()));
+        }
+        if wide {
+            // binary fed to the armor readers
+            step("Dearmor::read_to_end on binary input", || {
+                let mut out = Vec::new();
+                let _ = Dearmor::new(d).read_to_end(&mut out);
+            });
+            step("Message::from_reader", || {
+                let _ = Message::from_reader(d).map(|_| ());
+            });
+        }
+    } else {
+        // armored / text input
+        if want(Kind::Msg) {
+            step("Message::from_armor -> decrypt/decompress/read/verify", || match Message::from_armor(d) {
+                Ok((m, h)) => {
+                    let _ = h.len();
+                    drive_message(m, means, variant, &mut o.borrow_mut())
+                }
+                Err(_) => o.borrow_mut().errs += 1,
+            });
+            if variant % 4 == 0 {
+                step("Message::from_reader -> decrypt/decompress/read/verify", || match Message::from_reader(d) {
+                    Ok((m, _)) => drive_message(m, means, variant + 1, &mut o.borrow_mut()),
+                    Err(_) => o.borrow_mut().errs += 1,
+                });
+            }
+        }
+        if want(Kind::PubKey) {
+            let mut parsed = None;
+            step("SignedPublicKey::from_armor_single", || match SignedPublicKey::from_armor_single(d) {
+                Ok((k, _)) => parsed = Some(k),
+                Err(_) => o.borrow_mut().errs += 1,
+            });
+            if let Some(k) = parsed {
+                if small {
+                    exercise_public_key(&k, &mut o.borrow_mut())
+                } else {
+                    o.borrow_mut().parsed += 1
+                }
+            }
+            if variant % 3 == 0 {
+                step("SignedPublicKey::from_armor_many (keeps iterating after an Err item)", || {
+                    if let Ok((it, _)) = SignedPublicKey::from_armor_many(d) {
+                        for k in it.take(20) {
+                            match k {
+                                Ok(k) => {
+                                    o.borrow_mut().parsed += 1;
+                                    let _ = k.verify_bindings();
+                                }
+                                Err(_) => o.borrow_mut().errs += 1,
+                            }
+                        }
+                    }
+                });
+                step("SignedPublicKey::from_armor_many (stop at first Err)", || {
+                    if let Ok((it, _)) = SignedPublicKey::from_armor_many(d) {
+                        for k in it.take(20) {
+                            if k.is_err() {
+                                break;
+                            }
+                        }
+                    }
+                });
+                step("SignedPublicKey::from_reader_single", || {
+                    let _ = SignedPublicKey::from_reader_single(d).map(|_| ());
+                });
+            }
+        }
+        if want(Kind::SecKey) {
+            let mut parsed = None;
+            step("SignedSecretKey::from_armor_single", || match SignedSecretKey::from_armor_single(d) {
+                Ok((k, _)) => parsed = Some(k),
+                Err(_) => o.borrow_mut().errs += 1,
+            });
+            if let Some(k) = parsed {
+                if small {
+                    exercise_secret_key_opts(&k, &pws, variant, false, 0x90, &mut o.borrow_mut())
+                } else {
+                    o.borrow_mut().parsed += 1
+                }
+            }
+        }
+        if want(Kind::Sig) {
+            step("DetachedSignature::from_armor_single -> verify / accessors", || match DetachedSignature::from_armor_single(d) {
+                Ok((s, _)) => exercise_detached(&s, &verifiers, &content, &mut o.borrow_mut()),
+                Err(_) => o.borrow_mut().errs += 1,
+            });
+        }
+        if want(Kind::Cleartext) {
+            step("CleartextSignedMessage::from_armor -> verify / accessors", || match CleartextSignedMessage::from_armor(d) {
+                Ok((m, _)) => exercise_cleartext(&m, &verifiers, &mut o.borrow_mut()),
+                Err(_) => o.borrow_mut().errs += 1,
+            });
+        }
+        if let Ok(st) = std::str::from_utf8(d) {
+            if want(Kind::Cleartext) {
+                step("CleartextSignedMessage::from_string -> verify / accessors", || match CleartextSignedMessage::from_string(st) {
+                    Ok((m, _)) => exercise_cleartext(&m, &verifiers, &mut o.borrow_mut()),
+                    Err(_) => o.borrow_mut().errs += 1,
+                });
+            }
+            if variant % 2 == 1 {
+                step("Any::from_string -> exercise", || match Any::from_string(st) {
+                    Ok((a, _)) => {
+                        o.borrow_mut().parsed += 1;
+                        match a {
+                            Any::Cleartext(m) => exercise_cleartext(&m, &verifiers, &mut o.borrow_mut()),
+                            Any::PublicKey(k) => {
+                                let _ = k.verify_bindings();
+                            }
+                            Any::SecretKey(k) => {
+                                let _ = k.verify_bindings();
+                            }
+                            Any::Message(m) => drive_message(m, means, variant, &mut o.borrow_mut()),
+                            Any::Signature(s) => exercise_detached(&s, &verifiers, &content, &mut o.borrow_mut()),
+                        }
+                    }
+                    Err(_) => o.borrow_mut().errs += 1,
+                });
+                step("SignedPublicKey::from_string", || {
+                    let _ = SignedPublicKey::from_string(st).map(|_| ());
+                });
+                step("SignedSecretKey::from_string", || {
+                    let _ = SignedSecretKey::from_string(st).map(|_| ());
+                });
+                step("DetachedSignature::from_string", || {
+                    let _ = DetachedSignature::from_string(st).map(|_| ());
+                });
+                step("Message::from_string", || {
+                    let _ = Message::from_string(st).map(|_| ());
+                });
+                step("SignedPublicKey::from_string_many (keeps iterating after an Err item)", || {
+                    if let Ok((it, _)) = SignedPublicKey::from_string_many(st) {
+                        for k in it.take(10) {
+                            if k.is_err() {
+                                o.borrow_mut().errs += 1;
+                            }
+                        }
+                    }
+                });
+            }
+        } else if variant % 2 == 1 {
+            step("Any::from_armor", || match Any::from_armor(d) {
+                Ok(_) => o.borrow_mut().parsed += 1,
+                Err(_) => o.borrow_mut().errs += 1,
+            });
+        }
+        // the dearmor reader itself, with and without CRC check / limit, different read sizes
+        for (i, opt) in [
+            DearmorOptions::new(),
+            DearmorOptions::new().enable_crc24_check(),
+            DearmorOptions::new().set_limit(64),
+            DearmorOptions::new().set_limit(0),
+        ]
+        .into_iter()
+        .enumerate()
+        {
+            if i >= 2 && variant % 4 != 0 {
+                continue;
+            }
+            step("Dearmor::with_options -> read_header / read to end / crc24_status / into_parts", || {
+                let mut o = o.borrow_mut();
+                let mut de = Dearmor::with_options(BufReader::with_capacity(1 + (variant as usize * 7) % 300, d), opt);
+                let mut out = Vec::new();
+                if variant % 2 == 0 && de.read_header().is_err() {
+                    // an errored reader is not used any further (probed separately, family F6e)
+                    o.read_err += 1;
+                    return;
+                }
+                let mut buf = [0u8; 97];
+                let k = 1 + (variant as usize % 97);
+                let mut done = false;
+                loop {
+                    match de.read(&mut buf[..k]) {
+                        Ok(0) => {
+                            o.read_ok += 1;
+                            done = true;
+                            break;
+                        }
+                        Ok(n) => {
+                            out.extend_from_slice(&buf[..n]);
+                            if out.len() > (4 << 20) {
+                                break;
+                            }
+                        }
+                        Err(_) => {
+                            o.read_err += 1;
+                            break;
+                        }
+                    }
+                }
+                let _ = de.crc24_status();
+                let _ = de.typ;
+                let _ = de.max_buffer_limit();
+                if done {
+                    let _ = de.into_parts();
+                }
+                o.bytes += out.len() as u64;
+            });
+        }
+        if wide {
+            // text fed to the binary entry points
+            step("Message::from_bytes / PacketParser on text input", || {
+                let _ = Message::from_bytes(d).map(|_| ());
+                exercise_packets(d, 200, &mut o.borrow_mut());
+            });
+        }
+    }
+    drop(o);
+    o_owned
+}
+
+fn f6(ctx: &mut Ctx, env: &Env) {
+    core::describe_case("F6:corpus-setup");
+    let mut items = fixture_items(ctx);
+    let n_fix = items.len();
+    if n_fix < 100 {
+        ctx.inconclusive(format!("F6: only {n_fix} fixtures found under /repo/tests"));
+    }
+    items.extend(library_items(ctx, env));
+    let means = f6_means(env);
+    // unmutated corpus first: every item through every entry point
+    for (ii, it) in items.iter().enumerate() {
+        if !ctx.mine() {
+            continue;
+        }
+        ctx.cover(&("F6-orig", &it.name));
+        let desc = format!("F6:{}/unmutated", it.name);
+        let o = run_case(
+            ctx,
+            "F6",
+            &desc,
+            || json!({"api": "all entry points", "item": it.name, "input": hexs(&it.data)}),
+            || drive_input(&it.data, it.kind, true, &means, ii as u64),
+        );
+        if let Some(o) = o {
+            o.tally(ctx, "F6orig");
+            if it.name.starts_with("lib/") && o.parsed == 0 {
+                ctx.inconclusive(format!("F6: library artefact {} did not parse", it.name));
+            }
+        }
+    }
+    // F6e: the dearmor reader used again after it returned an error
+    for (ii, it) in items.iter().enumerate().filter(|(_, it)| it.name.starts_with("lib/") && it.name.contains("armored")).take(12) {
+        if !ctx.mine() {
+            continue;
+        }
+        for (vi, variant) in ["read-after-failed-read_header", "read-after-failed-read", "read_header-after-failed-read"].iter().enumerate() {
+            let mut d = it.data.clone();
+            // break the footer / body so that reading fails late, or the header so that it fails early
+            let desc = format!("F6e:dearmor/{variant}");
+            if vi == 1 || vi == 2 {
+                let n = d.len();
+                if n > 40 {
+                    d[n / 2] = b'!';
+                }
+            }
+            ctx.cover(&("F6e", ii, vi));
+            let _ = run_case(
+                ctx,
+                "F6e",
+                &desc,
+                || json!({"api": format!("Dearmor: {variant}"), "input": hexs(&d)}),
+                || {
+                    let mut buf = [0u8; 64];
+                    match vi {
+                        0 => {
+                            let mut de = Dearmor::with_options(&d[..], DearmorOptions::new().set_limit(8));
+                            if de.read_header().is_err() {
+                                let _ = de.read(&mut buf);
+                            }
+                        }
+                        1 => {
+                            let mut de = Dearmor::new(&d[..]);
+                            loop {
+                                match de.read(&mut buf) {
+                                    Ok(0) => break,
+                                    Ok(_) => {}
+                                    Err(_) => {
+                                        let _ = de.read(&mut buf);
+                                        break;
+                                    }
+                                }
+                            }
+                        }
+                        _ => {
+                            let mut de = Dearmor::new(&d[..]);
+                            loop {
+                                match de.read(&mut buf) {
+                                    Ok(0) => break,
+                                    Ok(_) => {}
+                                    Err(_) => {
+                                        let _ = de.read_header();
+                                        break;
+                                    }
+                                }
+                            }
+                        }
+                    }
+                },
+            );
+        }
+    }
+    // mutation rounds
+    let (fix_stride, fix_rounds, lib_rounds) = if ctx.quick() { (2usize, 40u64, 260u64) } else { (1usize, 2400u64, 12000u64) };
+    for (ii, it) in items.iter().enumerate() {
+        let is_fix = ii < n_fix;
+        if is_fix && ii % fix_stride != 0 {
+            continue;
+        }
+        // larger inputs get fewer rounds (cost is linear in size)
+        // (fixtures that are expensive by construction - an 8192-bit RSA key, a 4 GiB
+        // decompression bomb - get few rounds: each of their cases costs seconds)
+        let heavy = it.name.contains("rsa8k") || it.name.contains("4gb-packet");
+        let scale = if heavy { 24 } else if it.data.len() > 32 * 1024 { 8 } else if it.data.len() > 8 * 1024 { 3 } else { 1 };
+        let rounds = (if is_fix { fix_rounds } else { lib_rounds }) / scale;
+        let group = 10u64;
+        let armored = it.data.first().map(|b| b & 0x80 == 0).unwrap_or(true);
+        // for armored items: the dearmored payload, so that mutations reach the packet layer
+        // behind a valid armor (re-encoded with a correct checksum)
+        let parsed_armor = if armored {
+            std::str::from_utf8(&it.data).ok().and_then(|s| rfc::armor::armor_parse_strict(&s.replace("\r\n", "\n")).ok())
+        } else {
+            None
+        };
+        for g in 0..rounds.div_ceil(group) {
+            if !ctx.mine() {
+                continue;
+            }
+            let mut obs = Obs::default();
+            for r in g * group..((g + 1) * group).min(rounds) {
+                let mut rng = ctx.rng("F6", (ii as u64) << 24 | r);
+                let other = &items[rng.gen_range(0..items.len())];
+                let op: u32 = rng.gen_range(0..1000);
+                let mut d = it.data.clone();
+                let mut mut_name: String;
+                if armored {
+                    match (&parsed_armor, op % 4) {
+                        (Some(pa), 0 | 1) => {
+                            let mut bin = pa.data.clone();
+                            let other_bin = if other.data.first().map(|b| b & 0x80 != 0).unwrap_or(false) { &other.data[..] } else { &[][..] };
+                            let m = mutate_bytes(&mut bin, other_bin, &mut rng, op / 4);
+                            let crlf = rng.gen_bool(0.2);
+                            d = rfc::armor::armor_encode(&pa.typ, &pa.headers, &bin, rng.gen_bool(0.8), if crlf { "\r\n" } else { "\n" }).into_bytes();
+                            if !pa.rest.is_empty() || it.kind == Kind::Cleartext {
+                                // keep what precedes / follows (cleartext framework): fall back to raw
+                                d = it.data.clone();
+                                let m2 = mutate_bytes(&mut d, &other.data, &mut rng, op / 4);
+                                mut_name = format!("raw-{m2}");
+                            } else {
+                                mut_name = format!("rearmored-{m}");
+                            }
+                        }
+                        (_, 2) => {
+                            mut_name = mutate_armor_text(&mut d, &mut rng, op / 4).to_string();
+                        }
+                        _ => {
+                            let m = mutate_bytes(&mut d, &other.data, &mut rng, op / 4);
+                            mut_name = format!("raw-{m}");
+                        }
+                    }
+                } else {
+                    let m = mutate_bytes(&mut d, &other.data, &mut rng, op / 4);
+                    mut_name = m.to_string();
+                    if rng.gen_bool(0.15) {
+                        let op2: u32 = rng.gen();
+                        let m2 = mutate_bytes(&mut d, &other.data, &mut rng, op2);
+                        mut_name = format!("{m}+{m2}");
+                    }
+                    if rng.gen_bool(0.08) {
+                        // armor the mutated binary under each label
+                        let label = ["PGP MESSAGE", "PGP PUBLIC KEY BLOCK", "PGP PRIVATE KEY BLOCK", "PGP SIGNATURE"][rng.gen_range(0..4)];
+                        d = rfc::armor::armor_encode(label, &[], &d, true, "\n").into_bytes();
+                        mut_name = format!("{mut_name}+armored");
+                    }
+                }
+                if d.len() > 512 * 1024 {
+                    d.truncate(512 * 1024);
+                }
+                let wide = r % 5 == 0;
+                ctx.cover(&("F6", &it.name, r));
+                ctx.seen("F6.mutators", mut_name.split('+').next().unwrap_or("").to_string());
+                let desc = format!("F6:{}/{mut_name}", it.name);
+                let o = run_case(
+                    ctx,
+                    "F6",
+                    &desc,
+                    || json!({"api": "Message/SignedPublicKey/SignedSecretKey/DetachedSignature/CleartextSignedMessage/Any::from_*, Dearmor, PacketParser + post-parse exercise", "item": it.name, "mutation": mut_name, "input": hexfull(&d)}),
+                    || drive_input(&d, it.kind, wide, &means, r),
+                );
+                if let Some(o) = o {
+                    obs.merge(&o);
+                }
+            }
+            obs.tally(ctx, if is_fix { "F6fix" } else { "F6lib" });
+        }
+        if !is_fix && it.data.len() <= 400 && !ctx.quick() {
+            // small library artefacts: every truncation and every single bit flip (thorough)
+            if !ctx.mine() {
+                continue;
+            }
+            let mut obs = Obs::default();
+            for cut in 0..it.data.len() {
+                let d = &it.data[..cut];
+                let desc = format!("F6:{}/truncate-every", it.name);
+                let o = run_case(ctx, "F6", &desc, || json!({"item": it.name, "input": hexs(d)}), || drive_input(d, it.kind, false, &means, cut as u64));
+                if let Some(o) = o {
+                    obs.merge(&o);
+                }
+            }
+            for bit in 0..it.data.len() * 8 {
+                let mut d = it.data.clone();
+                d[bit / 8] ^= 1 << (bit % 8);
+                let desc = format!("F6:{}/bitflip-every", it.name);
+                ctx.cover(&("F6-bit", &it.name, bit));
+                let o = run_case(ctx, "F6", &desc, || json!({"item": it.name, "input": hexs(&d)}), || drive_input(&d, it.kind, false, &means, bit as u64));
+                if let Some(o) = o {
+                    obs.merge(&o);
+                }
+            }
+            obs.tally(ctx, "F6lib");
+        }
+    }
+}
 
 pub fn run(ctx: &mut Ctx) {
-    ctx.inconclusive("monitor not built yet");
+    let only = std::env::var("VERIF_C04_ONLY").unwrap_or_default();
+    let want = |f: &str| only.is_empty() || only.split(',').any(|x| x == f);
+    let env = Env::new();
+    if want("F5") {
+        // first: cases that may take the process down
+        f5_deep(ctx, &env);
+        f5_deep_embedded(ctx, &env);
+    }
+    if want("F1") {
+        f1(ctx, &env);
+    }
+    if want("F2") {
+        f2(ctx);
+    }
+    if want("F3") {
+        f3(ctx);
+    }
+    if want("F4") {
+        f4(ctx, &env);
+        f4c(ctx);
+    }
+    if want("F5") {
+        f5(ctx, &env);
+    }
+    if want("F6") {
+        f6(ctx, &env);
+    }
 }
